@@ -1,19 +1,26 @@
 """Rules over the table pipeline shared by C02, C03, C08 and C09 (slicing cursors, index agreement,
-column removal, width provenance, attribute binding).
+column removal, width provenance, attribute binding, block expansion).
 
-Most rules here are decided by *scenario execution* (class Scen at the end of this module): the function
-under analysis is interpreted (sa/dtab.py evaluates its syntax tree; nothing of the repository is
-imported or run) on a small mock table whose rows, columns, widths and attribute entries are all
-distinguishable, over every valuation of the configuration it reads.  The rule then checks what the
-function DOES with those rows/entries against the property (positive evidence -> violation); a
-construct outside the interpreter's subset is an analysis gap.  Two rules (column removal, body widths)
-keep a structural fallback for the case that the function cannot be interpreted."""
+Every rule here is either structural / dataflow (column removal, width provenance at call sites) or an
+*abstract evaluation over symbolic inputs* (class TDT below, an extension of c05.LDT / sa/dtab.DT): the
+analysed function (or one generic iteration of a loop over a symbolic collection) is evaluated with every
+parameter an uninterpreted symbol, all valuations of the consulted conditions are enumerated, and the
+verdict is read off the resulting terms (which cell / attribute entry / width reaches which constructor
+argument, linear forms of cursors and indices, provenance of frames), so it holds for all table shapes,
+page layouts and contents.  No mock frames, no chosen shapes, no sample values.  A construct the
+evaluator cannot give structure to is an analysis gap (ctx.gap), never a verdict."""
 from __future__ import annotations
 
 import ast
+from dataclasses import dataclass
+from fractions import Fraction
+from typing import Any
 
+from ..dtab import Sym, _Break, _Continue, _OPS, _cmp
 from ..pm import AnalysisError, dotted, unparse, walk_no_nested
 from ..report import Ctx
+from .c05 import (LDT, BoolSym, CallSym, Carried, CmpSym, ElemSym, Init, LinSym, RangeSym, SliceSym, SubSym, _cell, _pos_params, _same, cover, has_sym,
+                  lin_of, lin_sub, path_of, run_block, sym_env, temps_for)
 
 
 def anc(n, stop):
@@ -23,537 +30,1691 @@ def anc(n, stop):
         p = getattr(p, "_parent", None)
 
 
-ABSTRACTION = ("abstract evaluation (sa/dtab.py + tablecore.Scen) of the function's syntax tree; nothing of the repository is imported, exec'd or eval'd. "
-               "Cell values, attribute entries, widths handed through and results of uninterpreted calls are opaque tagged atoms; conditions on "
-               "unknown configuration fork the evaluation and ALL valuations are enumerated; table shapes / page layouts / listed configurations are "
-               "fixed witnesses")
+@dataclass(frozen=True, eq=False)
+class AttrSym(Sym):
+    base: Any = None
+    attr: str = ""
 
 
-def scenario_note(ctx: Ctx, rule: str, function: str, decided_for: str, witnesses: dict) -> None:
-    """state in the evidence what the scenario evaluation of `function` covers: an explain sentence, the bound as an assumption, counts in extra"""
-    seen = ctx.extra.setdefault("scenarios", {})
-    key = f"{rule} {function}"
-    if key in seen:
+@dataclass(frozen=True, eq=False)
+class OpSym(Sym):
+    """non-linear arithmetic / sequence repetition: left <op> right"""
+    op: str = ""
+    left: Any = None
+    right: Any = None
+
+
+@dataclass(frozen=True, eq=False)
+class FmtSym(Sym):
+    """an f-string with symbolic pieces: pieces = literal strings and terms, in order"""
+    pieces: tuple = ()
+
+
+@dataclass(frozen=True, eq=False)
+class CompSym(Sym):
+    """a comprehension over a symbolic iterable: `elt` for the generic element `var` of `source` (None: filtered out on this path)"""
+    elt: Any = None
+    var: Any = None
+    source: Any = None
+    kind: str = "list"
+
+
+_BINSYM = {ast.Mult: "*", ast.Div: "/", ast.FloorDiv: "//", ast.Mod: "%", ast.Pow: "**", ast.Add: "+", ast.Sub: "-"}
+_NUM = (int, float, Fraction)
+
+
+def tparts(v, depth: int = 0):
+    """the symbolic value and everything it was built from"""
+    if depth > 14:
         return
-    seen[key] = dict(witnesses)
-    ctx.explain(f"[{rule}] {function}: {ABSTRACTION}; decided {decided_for}; witness set {witnesses}; other shapes/configurations are not explored.")
-    ctx.assume(f"{rule} ({function}): the verdict is a bounded-witness verdict - it holds for every value of the tagged atoms on the listed shapes/configurations "
-               f"({witnesses}), not for all shapes; it relies on the function treating cell/attribute values opaquely (apart from `is None` / str())")
-    ctx.assume("scenario evaluation: a construct outside the evaluator's subset, a native error on a mock value, more than 24 undetermined conditions or "
-               "more than 512 valuations end in an analysis gap (or the structural fallback where one exists), never in a verdict")
+    yield v
+    subs: tuple = ()
+    if isinstance(v, dict):
+        subs = tuple(v.values())
+    elif isinstance(v, (list, tuple)):
+        subs = tuple(v)
+    elif isinstance(v, ElemSym):
+        subs = (v.source,)
+    elif isinstance(v, SubSym):
+        subs = (v.base, v.key)
+    elif isinstance(v, SliceSym):
+        subs = (v.base, v.lo, v.hi)
+    elif isinstance(v, CallSym):
+        subs = (v.recv,) + tuple(v.args) + tuple(x for _k, x in v.kw)
+    elif isinstance(v, RangeSym):
+        subs = (v.lo, v.hi)
+    elif isinstance(v, LinSym):
+        subs = tuple(v.terms)
+    elif isinstance(v, CmpSym):
+        subs = (v.left, v.right)
+    elif isinstance(v, BoolSym):
+        subs = tuple(v.operands)
+    elif isinstance(v, Carried):
+        subs = (v.entry,)
+    elif isinstance(v, AttrSym):
+        subs = (v.base,)
+    elif isinstance(v, OpSym):
+        subs = (v.left, v.right)
+    elif isinstance(v, FmtSym):
+        subs = tuple(v.pieces)
+    elif isinstance(v, CompSym):
+        subs = (v.elt, v.var, v.source)
+    for x in subs:
+        yield from tparts(x, depth + 1)
 
 
-# ------------------------------------------------------------------ cursor partitions
-def _describe_rows(got: list, want: list) -> str:
-    lost = [r for r in want if r not in got]
-    dup = sorted({r for r in got if got.count(r) > 1})
-    if lost or dup:
-        return (f"rows {lost} lost" if lost else "") + (" and " if lost and dup else "") + (f"rows {dup} emitted more than once" if dup else "")
-    return f"rows emitted in the order {got}"
+def roots(v) -> set[str]:
+    """names of the entry values (parameters / locals on entry) a term is built from"""
+    return {p.path for p in tparts(v) if isinstance(p, Init) and not isinstance(p, Carried)} | {p.path for p in tparts(v) if isinstance(p, Carried)}
 
 
-def cursor_post_processing(ctx: Ctx, rule: str) -> None:
-    """_apply_data_post_processing: every page's data is re-cut from the column-reduced frame (and, with group_by, from the
-    restored frame) as consecutive slices of the pages' own heights.  Decided by interpreting the function on mock pages."""
-    pm = ctx.pm
-    fi = pm.func("UnifiedRTFEncoder._apply_data_post_processing")
-    params = [a.arg for a in fi.node.args.args]
-    scenario_note(ctx, rule, "UnifiedRTFEncoder._apply_data_post_processing", "for every content of the frames",
-                  {"pages": 3, "page heights": [3, 1, 2], "reduced columns": 2, "group_by": ["unset", "set"], "evaluations": 2})
-    if len(params) < 4:
-        ctx.gap(rule, "_apply_data_post_processing: signature (self, pages, frame, body) not recognised")
-        return
-    heights = [3, 1, 2]
-    total = sum(heights)
-    n_runs = 0
-    for gb in (None, ["g"]):
-        pages, start = [], 0
-        for k, h in enumerate(heights):
-            pages.append(Obj(f"page{k}", data=Frame("paginated", range(start, start + h), ["g", "a", "b"])))
-            start += h
-        reduced = Frame("reduced", range(total), ["a", "b"])
-        body = Obj("rtf_body", group_by=gb)
-        sc = Scen(pm, frame_passthrough=("enhance_group_by", "restore_page_context"))
+class TDT(LDT):
+    """LDT with structured attribute / product / f-string / comprehension terms, opaque local closures, no implicit inlining of
+    methods, and havoc of loop-written locals after a generic (or skipped) loop.
+
+    watch: calls recorded as effects and returned as CallSym;  inline: method names that may be inlined (static helpers);
+    passthrough: methods that return their receiver (`x._set_default()`)"""
+
+    _BUILTINS = ("len", "max", "min", "sum", "abs", "round", "sorted", "reversed", "enumerate", "zip", "list", "tuple", "set", "frozenset", "iter", "dict")
+
+    def __init__(self, pm, watch=(), skip_loops=(), inline=(), passthrough=(), opaque_closures=True, havoc=True, **kw):
+        super().__init__(pm, watch=watch, skip_loops=skip_loops, **kw)
+        self.inline = set(inline)
+        self.passthrough = set(passthrough)
+        self.opaque_closures = opaque_closures
+        self.havoc = havoc
+        self.closures: dict[str, ast.AST] = {}
+
+    # ---- terms
+    def ev_Attribute(self, n, env):
+        base = self.ev(n.value, env)
+        self._pre[id(n.value)] = base
         try:
-            runs = sc.runs(fi, {params[0]: Sym("self", fi.cls), params[1]: pages, params[2]: reduced, params[3]: body})
-        except AnalysisError as e:
-            ctx.gap(rule, f"_apply_data_post_processing could not be interpreted on mock pages: {e}")
-            return
-        for val, r in runs:
-            n_runs += 1
-            if r.raised:
-                ctx.gap(rule, f"_apply_data_post_processing raises {r.raised} on mock pages of heights {heights}")
-                continue
-            # the pages the run worked on are the (copied) first argument: recover them from the stores
-            final = {}
-            for m in r.trace:
-                if m.name == "store" and m.args[0] == "data" and isinstance(m.recv, Obj):
-                    final[m.recv.name] = m.args[1]
-            got_rows, tags, bad = [], set(), False
-            for k, h in enumerate(heights):
-                fr = final.get(f"page{k}")
-                if not isinstance(fr, Frame):
-                    bad = True
-                    break
-                got_rows.extend(fr.rows)
-                tags.add(fr.tag)
-            desc = f"group_by={'set' if gb else 'unset'}: pages of heights {heights} re-cut as {[final[f'page{k}'].rows for k in range(len(heights))] if not bad else '?'} from {sorted(tags)}"
-            ctx.instance(rule, fi.where(), "cursor re-slice, " + desc)
-            if bad:
-                ctx.gap(rule, "_apply_data_post_processing: no frame is stored into page.data on a mock page")
-                continue
-            if got_rows != list(range(total)):
-                ctx.violation(rule, fi.short, "cursor re-slice: " + _describe_rows(got_rows, list(range(total))), fi.where(),
-                              f"_apply_data_post_processing ({'with' if gb else 'without'} group_by): pages of heights {heights} are re-cut as rows "
-                              f"{[final[f'page{k}'].rows for k in range(len(heights))]}; {_describe_rows(got_rows, list(range(total)))} "
-                              "(pages must be consecutive slices: cursor from 0, slice(cursor, page height), cursor advanced by the same height)")
-            elif any(len(final[f"page{k}"].rows) != h for k, h in enumerate(heights)):
-                ctx.violation(rule, fi.short, "cursor re-slice: page heights changed", fi.where(), "_apply_data_post_processing moves rows from one page to another")
-            if tags == {"paginated"}:
-                ctx.violation(rule, fi.short, "slice sources " + str(sorted(tags)), fi.where(), "page data is not re-cut from the column-reduced frame")
-            elif not all("reduced" in t for t in tags):
-                ctx.gap(rule, f"_apply_data_post_processing: page data comes from {sorted(tags)}, which could not be traced to the column-reduced frame")
-            if any(final[f"page{k}"].cols != ["a", "b"] for k in range(len(heights))):
-                ctx.violation(rule, fi.short, "slice sources columns", fi.where(), "page data does not carry the displayed (reduced) columns")
-    if not n_runs:
-        ctx.gap(rule, "_apply_data_post_processing: no path could be interpreted")
+            r = super().ev_Attribute(n, env)
+        finally:
+            self._pre.pop(id(n.value), None)
+        if isinstance(base, Sym) and type(r) is Sym:
+            return AttrSym(r.path, r.cls, base, n.attr)
+        return r
 
+    def binop(self, op, l, r, node):
+        l, r = self.concrete(l), self.concrete(r)
+        sym = _BINSYM.get(type(op))
+        if sym and (has_sym(l) or has_sym(r)):
+            if sym in ("+", "-"):
+                a, b = lin_of(l), lin_of(r)
+                if a is not None and b is not None:
+                    return super().binop(op, l, r, node)
+            elif sym == "*" and (isinstance(l, _NUM) and not isinstance(l, bool) and isinstance(r, Sym) or isinstance(r, _NUM) and not isinstance(r, bool) and isinstance(l, Sym)):
+                k, x = (l, r) if isinstance(l, _NUM) else (r, l)
+                d = {t: c * k for t, c in (lin_of(x) or {}).items()}
+                if d and set(d) != {""}:
+                    items = tuple(sorted(d.items()))
+                    txt = " + ".join((f"{c}" if t == "" else (t if c == 1 else f"{c}*{t}")) for t, c in items)
+                    raw = {t.path: t for t in x.terms} if isinstance(x, LinSym) else {x.path: x}
+                    return LinSym(txt, None, items, tuple(raw[t] for t, _c in items if t in raw))
+            return OpSym(f"({path_of(l)} {sym} {path_of(r)})", None, sym, l, r)
+        return super().binop(op, l, r, node)
 
-_BODY_SCENARIOS = (
-    ("two boundaries (one with, one without heading), one-row tail", 6,
-     [{"page_relative_row": 2, "group_values": {"g": "B"}}, {"page_relative_row": 5}]),
-    ("boundary at row 0, empty heading values, multi-row tail", 7,
-     [{"page_relative_row": 0, "group_values": {"g": "A"}}, {"page_relative_row": 3, "group_values": {}}, {"page_relative_row": 4, "group_values": {"g": "C"}}]),
-    ("single boundary before the last row", 5, [{"page_relative_row": 4, "group_values": {"g": "B"}}]),
-    ("no boundary", 4, []),
-)
+    def ev_UnaryOp(self, n, env):
+        if isinstance(n.op, ast.USub):
+            v = self.concrete(self.ev(n.operand, env))
+            if isinstance(v, Sym):
+                return self.binop(ast.Sub(), 0, v, n)
+            self._pre[id(n.operand)] = v
+        return super().ev_UnaryOp(n, env)
 
-
-def cursor_render_body(ctx: Ctx, rule: str) -> None:
-    """_render_body: the page's rows reach TableAttributes._encode exactly once, in order, each segment with
-    row_offset = position of its first row in the page, and with the page's column widths.  Decided by interpreting
-    the function on mock pages with internal group boundaries, over every valuation of the configuration it reads."""
-    pm = ctx.pm
-    fi = pm.func("PageRenderer._render_body")
-    params = [a.arg for a in fi.node.args.args]
-    scenario_note(ctx, rule, "PageRenderer._render_body", "for every cell content and every heading value",
-                  {"page layouts (rows, boundary rows)": [(n, [b["page_relative_row"] for b in bs]) for _t, n, bs in _BODY_SCENARIOS],
-                   "body configurations (new_page, pageby_row, body as list)": [(False, "column", False), (True, "column", False), (True, "first_row", False), (False, "column", True)],
-                   "evaluations": 4 * len(_BODY_SCENARIOS), "columns": 2})
-    if len(params) < 3:
-        ctx.gap(rule, "_render_body: signature (self, document, page) not recognised")
-        return
-    dname, pname = params[1], params[2]
-    n_ok = 0
-    # configurations of the body: (new_page, pageby_row, body given as a list); concrete values, so that two differently written tests
-    # of the same setting cannot be answered inconsistently
-    configs = ((False, "column", False), (True, "column", False), (True, "first_row", False), (False, "column", True))
-    for (title, n, bounds), (new_page, pageby_row, as_list) in [(sc_, cf) for sc_ in _BODY_SCENARIOS for cf in configs]:
-        widths = [_Fr(3, 2), _Fr(4)]
-        title = f"{title}; new_page={new_page}, pageby_row={pageby_row!r}{', body list' if as_list else ''}"
-        body = Obj("rtf_body", cls="RTFBody", page_by=["g"], subline_by=None, group_by=None, new_page=new_page, pageby_row=pageby_row, as_colheader=True)
-        page_attrs = Obj("page_attrs", cls="RTFBody")
-        doc = Obj("document", cls="RTFDocument", rtf_body=[body] if as_list else body, df=Frame("table", range(40), ["g", "a", "b"]),
-                  rtf_page=Obj("rtf_page", cls="RTFPage", col_width=_Fr(19, 2), width=_Fr(17, 2)))
-        page = Obj("page", cls="PageContext", data=Frame("page", range(n), ["a", "b"]), group_boundaries=[dict(b) for b in bounds], col_widths=widths,
-                   pageby_header_info={"group_values": {"g": "A"}}, final_body_attrs=page_attrs, table_attrs=page_attrs, is_first_page=True, is_last_page=False,
-                   page_number=1, total_pages=2)
-        sc = Scen(pm, markers={"_encode": "list", "encode_spanning_row": "list"})
-        try:
-            runs = sc.runs(fi, {params[0]: Sym("self", fi.cls), dname: doc, pname: page})
-        except AnalysisError as e:
-            ctx.gap(rule, f"_render_body could not be interpreted on a mock page ({title}): {e}")
-            continue
-        segs_seen = set()
-        for val, r in runs:
-            if r.raised:
-                ctx.gap(rule, f"_render_body raises {r.raised} on a mock page ({title})")
-                continue
-            out = r.ret
-            if not isinstance(out, list):
-                ctx.gap(rule, f"_render_body: result `{out!r}`[:60] on a mock page is not a list of row chunks")
-                continue
-            encs = [m for m in out if isinstance(m, Mark) and m.name == "_encode"]
-            other = [m for m in out if not (isinstance(m, Mark) and m.name in ("_encode", "encode_spanning_row"))]
-            if other:
-                ctx.gap(rule, f"_render_body: element `{other[0]!r}`[:60] of the result could not be traced to _encode / encode_spanning_row")
-                continue
-            got, unknown = [], False
-            for m in encs:
-                fr = m.arg(0, "df")
-                if not isinstance(fr, Frame) or fr.tag != "page":
-                    unknown = True
-                    break
-                got.extend(fr.rows)
-                off = m.arg(2, "row_offset", 0)
-                w = m.arg(1, "col_widths")
-                segs_seen.add((tuple(fr.rows), repr(off)))
-                if isinstance(off, Sym) or isinstance(w, Sym):
-                    unknown = True
-                    break
-                if fr.rows and off != fr.rows[0]:
-                    ctx.violation(rule, fi.short, f"_encode(rows {fr.rows[0]}..{fr.rows[-1]}, row_offset={off})", fi.where(),
-                                  f"_render_body: a segment starting at row {fr.rows[0]} of the page is encoded with row_offset={off} ({title})")
-                if w != widths:
-                    ctx.violation(rule, fi.short, "_encode widths", fi.where(), f"_render_body: a body segment is not encoded with the page's column widths but with `{w!r}`")
-                if fr.cols != ["a", "b"]:
-                    ctx.violation(rule, fi.short, "_encode columns", fi.where(), "_render_body: a body segment does not carry the page's columns")
-            if unknown:
-                ctx.gap(rule, f"_render_body: an _encode call on a mock page has arguments that could not be determined ({title})")
-                continue
-            if got != list(range(n)):
-                ctx.violation(rule, fi.short, "segments: " + _describe_rows(got, list(range(n))), fi.where(),
-                              f"_render_body does not cut the page into [prev:boundary) segments plus the tail: on a page of {n} rows with boundaries at "
-                              f"{[b['page_relative_row'] for b in bounds]} ({title}) {_describe_rows(got, list(range(n)))}")
+    def ev_JoinedStr(self, n, env):
+        pieces: list = []
+        for v in n.values:
+            if isinstance(v, ast.Constant):
+                pieces.append(str(v.value))
             else:
-                n_ok += 1
-        ctx.instance(rule, fi.where(), f"_render_body on a {n}-row page, {title}: {len(runs)} configuration valuations; (rows, row_offset) handed to _encode: "
-                     f"{sorted(segs_seen)[:6]}")
-    if not n_ok and not ctx.deferred_errors:
-        ctx.gap(rule, "_render_body: no scenario could be evaluated")
+                x = self.concrete(self.ev(v.value, env))
+                if isinstance(x, Sym) or has_sym(x):
+                    pieces.append(x)
+                else:
+                    pieces.append(str(x))
+        if all(isinstance(p, str) for p in pieces):
+            return "".join(pieces)
+        merged: list = []
+        for p in pieces:
+            if isinstance(p, str) and merged and isinstance(merged[-1], str):
+                merged[-1] += p
+            else:
+                merged.append(p)
+        return FmtSym("f'" + "".join(p if isinstance(p, str) else "{" + path_of(p) + "}" for p in merged) + "'", None, tuple(merged))
+
+    def assign(self, t, v, env):
+        if isinstance(t, ast.Subscript) and not isinstance(t.slice, ast.Slice):
+            base = self.concrete(self.ev(t.value, env))
+            if isinstance(base, Sym):
+                k = self.concrete(self.ev(t.slice, env))
+                self.run_state.effects.append(("setitem", base, k, v, t))
+                self.stores[f"{base.path}[{path_of(k)}]"] = v
+                return
+            self._pre[id(t.value)] = base
+        return super().assign(t, v, env)
+
+    def ev_Subscript(self, n, env):
+        base = self.concrete(self.ev(n.value, env))
+        if isinstance(base, Sym) and not isinstance(n.slice, ast.Slice):
+            k = self.concrete(self.ev(n.slice, env))
+            p = f"{base.path}[{path_of(k)}]"
+            if p in self.stores:
+                return self.stores[p]
+            self._pre[id(n.slice)] = k
+        elif isinstance(base, dict) and not isinstance(n.slice, ast.Slice):
+            k = self.concrete(self.ev(n.slice, env))
+            if isinstance(k, Sym) and k.path not in base and not isinstance(k, ElemSym) or (not isinstance(k, Sym) and has_sym(k) and k not in base):
+                return SubSym(f"{{…}}[{path_of(k)}]", None, Sym("{…}"), k)          # a table indexed by a symbolic key
+            self._pre[id(n.slice)] = k
+        self._pre[id(n.value)] = base
+        try:
+            return super().ev_Subscript(n, env)
+        finally:
+            self._pre.pop(id(n.value), None)
+            self._pre.pop(id(n.slice), None)
+
+    def ev_NamedExpr(self, n, env):
+        v = self.ev(n.value, env)
+        e = env
+        while e is not None:
+            e[n.target.id] = v
+            e = e.get("__outer__")
+        return v
+
+    def _comp(self, n, env, kind):
+        if len(n.generators) == 1:
+            g = n.generators[0]
+            it = self.concrete(self.ev(g.iter, env))
+            if isinstance(it, dict):
+                it = list(it)
+            if not isinstance(it, (list, tuple, range)):
+                for w in ast.walk(n):
+                    if isinstance(w, ast.NamedExpr) and w.target.id in env and not isinstance(env[w.target.id], Init):
+                        env[w.target.id] = Carried(w.target.id, None, env[w.target.id])
+                elem = ElemSym(f"∀{unparse(g.target)}∈{path_of(it)}", None, it)
+                e2 = dict(env)
+                e2["__outer__"] = env
+                self.assign(g.target, elem, e2)
+                self.run_state.effects.append(("comp", n, it, elem))
+                kept = all(self.truth(self.ev(c, e2)) for c in g.ifs)
+                elt = None
+                if kept:
+                    elt = (self.ev(n.key, e2), self.ev(n.value, e2)) if kind == "dict" else self.ev(n.elt, e2)
+                return CompSym(f"[{path_of(elt) if kept else '-'} for {elem.path}]", None, elt, elem, it, kind)
+            self._pre[id(g.iter)] = it
+        return super()._comp(n, env, kind)
+
+    def ev_SetComp(self, n, env):
+        return self._comp(n, env, "set")
+
+    # ---- statements
+    def stmt(self, s, env):
+        if isinstance(s, ast.AugAssign):
+            cur = self.ev(s.target, env)                    # evaluated once (LDT evaluates the operands twice)
+            v = self.ev(s.value, env)
+            self.run_state.effects.append(("call", "aug" + type(s.op).__name__, cur, (v,), {}, s, None))
+            if isinstance(cur, list) and isinstance(s.op, ast.Add):
+                if isinstance(v, (list, tuple)):
+                    cur.extend(v)
+                else:
+                    cur.append(v)
+                return
+            self.assign(s.target, self.binop(s.op, cur, v, s), env)
+            return
+        return super().stmt(s, env)
+
+    # ---- loops
+    def _written(self, s) -> set[str]:
+        out = {t.id for t in ast.walk(s.target) if isinstance(t, ast.Name)}
+        for st in s.body:
+            for t in ast.walk(st):
+                if isinstance(t, ast.Name) and isinstance(t.ctx, ast.Store):
+                    out.add(t.id)
+        return out
+
+    def _for(self, s, env):
+        if any(s is x for x in self.skip_loops):
+            self.run_state.effects.append(("loop", s, dict(env)))
+            for nme in self._written(s):
+                env[nme] = Init(nme)
+            return
+        it = self.concrete(self.ev(s.iter, env))
+        if isinstance(it, dict):
+            it = list(it)
+        if isinstance(it, (list, tuple, range)):
+            self.run_state.effects.append(("iter", s, it, None))
+            try:
+                for x in it:
+                    self.assign(s.target, x, env)
+                    try:
+                        self.block(s.body, env)
+                    except _Continue:
+                        continue
+            except _Break:
+                pass
+            return
+        elem = ElemSym(f"∀{unparse(s.target)}∈{path_of(it)}", None, it)
+        self.run_state.effects.append(("iter", s, it, elem))
+        stored = {t.id for st in s.body for t in ast.walk(st) if isinstance(t, ast.Name) and isinstance(t.ctx, ast.Store)}
+        loaded = {t.id for st in s.body for t in ast.walk(st) if isinstance(t, ast.Name) and isinstance(t.ctx, ast.Load)}
+        for nme in sorted((stored & loaded) - {t.id for t in ast.walk(s.target) if isinstance(t, ast.Name)}):
+            if nme in env and not isinstance(env[nme], Init):
+                env[nme] = Carried(nme, None, env[nme])
+        self.assign(s.target, elem, env)
+        how = "end"
+        try:
+            self.block(s.body, env)
+        except _Continue:
+            how = "continue"
+        except _Break:
+            how = "break"
+        self.run_state.effects.append(("endloop", s, dict(env), how))
+        if self.havoc:
+            for nme in self._written(s):
+                if not isinstance(env.get(nme), (list, dict)):
+                    env[nme] = Init(nme)
+
+    # ---- calls
+    def _kwt(self, kw):
+        return tuple(sorted(kw.items(), key=lambda x: x[0]))
+
+    def ev_Call(self, n, env):
+        f = n.func
+        if isinstance(f, ast.Name):
+            nm = f.id
+            tgt = env.get(nm)
+            if isinstance(tgt, tuple) and tgt and tgt[0] == "closure" and self.opaque_closures and nm not in self.inline:
+                args, kw = self._args(n, env)
+                self.closures[nm] = tgt[1]
+                ret = CallSym(f"{nm}({', '.join(path_of(a) for a in args)})", None, None, nm, tuple(args), self._kwt(kw))
+                self.run_state.effects.append(("call", nm, None, args, kw, n, ret))
+                return ret
+            if nm in self._BUILTINS and nm not in env and nm not in self.watch:
+                args, kw = self._args(n, env)
+                args = tuple(self.concrete(a) for a in args)
+                if not any(isinstance(a, Sym) for a in args) and not any(isinstance(v, Sym) for v in kw.values()):
+                    try:
+                        return self._native(nm, args, kw)
+                    except (TypeError, ValueError):
+                        pass
+                if nm in ("list", "tuple") and len(args) == 1 and isinstance(args[0], (list, tuple)):
+                    return list(args[0]) if nm == "list" else tuple(args[0])
+                return CallSym(f"{nm}({', '.join(path_of(a) for a in args)})", None, None, nm, args, self._kwt(kw))
+            return super().ev_Call(n, env)
+        if isinstance(f, ast.Attribute):
+            m = f.attr
+            base = self.ev(f.value, env)
+            if isinstance(base, tuple) and len(base) == 2 and base[0] == "class":
+                cname = base[1].name
+                args, kw = self._args(n, env)
+                got = self.pm.find_method(cname, m)
+                if m not in self.watch and m in self.inline and got is not None and (got.is_static or got.is_classmethod):
+                    a = got.node.args
+                    ps = [x.arg for x in list(a.posonlyargs) + list(a.args)]
+                    if got.is_classmethod and ps:
+                        ps = ps[1:]
+                    bound = dict(zip(ps, args))
+                    bound.update(kw)
+                    return self.call_fi(got, bound)
+                ret = CallSym(f"{cname}.{m}({', '.join(path_of(a) for a in args)})", None, Sym(cname), m, tuple(args), self._kwt(kw))
+                if m in self.watch:
+                    self.run_state.effects.append(("call", m, Sym(cname), args, kw, n, ret))
+                return ret
+            self._pre[id(f.value)] = base
+            try:
+                if m in self.watch:
+                    return super().ev_Call(n, env)
+                if isinstance(base, Sym):
+                    if m in self.passthrough:
+                        self._pre.pop(id(f.value), None)
+                        self._args(n, env)
+                        return base
+                    if m not in self.inline and m not in ("copy", "model_copy", "clone") and m not in self.effect_calls:
+                        self._pre.pop(id(f.value), None)
+                        args, kw = self._args(n, env)
+                        return self._callsym(base, m, args, kw)
+                return super().ev_Call(n, env)
+            finally:
+                self._pre.pop(id(f.value), None)
+        return super().ev_Call(n, env)
+
+    def _native(self, nm, args, kw):
+        if has_sym(list(args)) and nm not in ("len", "list", "tuple", "enumerate", "zip", "reversed"):
+            raise TypeError("symbolic")
+        if nm == "len":
+            return len(args[0])
+        if nm in ("enumerate", "zip", "reversed", "list", "tuple", "sorted"):
+            return list({"enumerate": enumerate, "zip": zip, "reversed": reversed, "list": list, "tuple": tuple, "sorted": sorted}[nm](*args, **{k: v for k, v in kw.items() if k != "strict"}))
+        if nm in ("set", "frozenset"):
+            return tuple(dict.fromkeys(args[0])) if args else ()
+        if nm == "dict":
+            return dict(*args, **kw)
+        return {"max": max, "min": min, "sum": sum, "abs": abs, "round": round, "iter": iter}[nm](*args, **kw)
 
 
-# ------------------------------------------------------------------ model construction scenarios
-T_ROWS = 7          # rows of the mock table
-SEG = (3, 4, 5)     # the segment handed to _encode: table rows 3..5, so row_offset = 3
-SHAPES = {"matrix": (T_ROWS, 2), "row vector": (1, 2), "scalar": (1, 1)}
+def whole(dt: TDT, fi, limit: int = 3000):
+    """[(valuation, env_after, effects, outcome)] of the whole function body over symbolic parameters, every valuation of the consulted conditions"""
+    return run_block(dt, fi.node.body, sym_env(fi), fi, limit=limit)
 
 
-def _attr_default(pm, cls, shape):
-    def default(name):
-        if pm.find_method(cls, name) is not None or name.startswith("__"):
-            return NotImplemented
-        return matrix(name, *shape)
+def closure_summary(dt_factory, fi, node, limit: int = 500):
+    """[(valuation, returned term)] of a local closure evaluated once over symbolic parameters (free variables: the enclosing
+    function's single-assignment temporaries, otherwise entry symbols); also returns the evaluator (for its comparison records)"""
+    a = node.args
+    ps = [x.arg for x in list(a.posonlyargs) + list(a.args) + list(a.kwonlyargs)]
+    base = sym_env(fi, extra=ps)
+
+    def env0():
+        e = base()
+        for p in ps:
+            e[p] = Init(p)
+        return e
+    dt = dt_factory()
+    pre = [s for s in temps_for(fi.node, node.body) if not any(isinstance(t, ast.Name) and t.id in ps for t in s.targets)]
+    leaves = run_block(dt, pre + list(node.body), env0, fi, limit=limit)
+    out = []
+    for v, env, eff, outcome in leaves:
+        ret = outcome[1] if isinstance(outcome, tuple) and outcome[0] == "return" else None
+        out.append((v, ret, eff))
+    return dt, ps, out
+
+ABSTRACTION = (
+    "Abstract evaluation of the syntax tree (tablecore.TDT, an extension of c05.LDT / sa/dtab.DT): the analysed function - or ONE generic iteration of a loop over a "
+    "symbolic collection, from a symbolic entry state - is evaluated over symbolic inputs. Every parameter and every local on entry is an uninterpreted symbol standing for "
+    "all values of its type (frames, attribute objects, width vectors, cursors, indices and table shapes are all symbolic); values are structured terms (attribute, "
+    "subscript, slice, call, linear form, product/quotient, f-string, comprehension over a generic element); literals of the source are folded; whenever a condition has "
+    "an undetermined truth value the evaluation forks, so ALL valuations of the consulted conditions are enumerated (no path sampled, no feasibility pruning, no solver). "
+    "The verdict is read off the terms (which cell / attribute entry / width reaches which argument, linear forms of cursors and indices, provenance of frames) and holds "
+    "for every value of the symbols. Nothing of the analysed package is imported, compiled or executed; no concrete table, page layout or attribute value is chosen.")
+
+
+def declare(ctx: Ctx) -> None:
+    """state the abstraction and its bounds once per run"""
+    if ABSTRACTION in ctx.explanations:
+        return
+    ctx.explain(ABSTRACTION)
+    ctx.assume("loops over a symbolic collection are evaluated for ONE generic iteration (the element is universally quantified; locals read and written in the body enter as "
+               "arbitrary symbols whose value before the loop is checked separately: an inductive step); after such a loop (or a loop a rule abstracts) every local it re-binds is an arbitrary symbol again, while an accumulator list it appends to holds the generic element; "
+               "loops over literal sequences of the source are unrolled; no fixpoint over several iterations is computed")
+    ctx.assume("methods are not inlined unless a rule names them (static unit-conversion helpers); a local closure is evaluated once over symbolic parameters and its summary is "
+               "composed with the arguments of each call; an expression the evaluator does not model becomes an opaque symbol named by its source text, and a rule that meets an "
+               "opaque symbol where it needs structure reports an analysis gap, never a verdict")
+    ctx.assume("conditions are independent atoms (all combinations enumerated, also infeasible ones); tables are cut off at 3000 evaluations (then: analysis gap)")
+    ctx.assume("polars DataFrame.slice(offset, length) / df[a:b] / df.row(i) / df.shape / df.columns denote what their documentation says; DataFrame.fill_null(value) "
+               "only fills columns whose dtype accepts the value")
+
+
+def _cached(ctx: Ctx, key: str, make):
+    store = ctx.__dict__.setdefault("_tablecore_cache", {})
+    if key not in store:
+        try:
+            store[key] = make()
+        except AnalysisError as e:
+            store[key] = e
+    return store[key]
+
+
+def _all_params(fi) -> list[str]:
+    a = fi.node.args
+    return [x.arg for x in list(a.posonlyargs) + list(a.args)]
+
+
+def _fmt(v: dict) -> str:
+    return ", ".join(f"{k[:60]}={x}" for k, x in sorted(v.items()))
+
+
+def _ret(outcome):
+    return outcome[1] if isinstance(outcome, tuple) and outcome[0] == "return" else None
+
+
+def _kwarg(e, name: str, pos: int | None = None, default=None):
+    """argument of a recorded call effect by keyword or position"""
+    if name in e[4]:
+        return e[4][name]
+    if pos is not None and pos < len(e[3]):
+        return e[3][pos]
     return default
 
 
-def expected_entry(name, shape, i, j):
-    """BroadcastValue's documented rule: value[r % R][c % C]"""
-    return AV(name, i % shape[0], j % shape[1])
+def _term_arg(c: CallSym, name: str, pos: int | None = None, default=None):
+    for k, x in c.kw:
+        if k == name:
+            return x
+    if pos is not None and pos < len(c.args):
+        return c.args[pos]
+    return default
 
 
-def model_fields(o, want_cls):
-    """{field: value} of a constructed model object (None if it is not one)"""
-    if isinstance(o, Obj) and o.cls == want_cls:
-        return o.attrs
+def unwrap(v, names=("list", "tuple", "float", "copy", "deepcopy")):
+    """peel conversions / copies that keep the value: list(x), tuple(x), float(x), copy(x), x.copy(), x[:]"""
+    while True:
+        if isinstance(v, CallSym) and v.recv is None and v.meth in names and len(v.args) == 1:
+            v = v.args[0]
+        elif isinstance(v, CallSym) and v.meth in ("copy", "clone") and not v.args and isinstance(v.recv, Sym):
+            v = v.recv
+        elif isinstance(v, SliceSym) and v.lo is None and v.hi is None:
+            v = v.base
+        else:
+            return v
+
+
+def frame_of_shape(v):
+    """(frame term, axis) if the term is frame.shape[axis] / frame.height / frame.width / len(frame) / len(frame.columns)"""
+    if isinstance(v, SubSym) and isinstance(v.base, AttrSym) and v.base.attr == "shape" and v.key in (0, 1):
+        return v.base.base, v.key
+    if isinstance(v, AttrSym) and v.attr in ("height", "width"):
+        return v.base, 0 if v.attr == "height" else 1
+    if isinstance(v, CallSym) and v.recv is None and v.meth == "len" and len(v.args) == 1:
+        a = v.args[0]
+        if isinstance(a, AttrSym) and a.attr == "columns":
+            return a.base, 1
+        if isinstance(a, Sym):
+            return a, 0
     return None
 
 
-def encode_scenarios(pm):
-    """interpret TableAttributes._encode on a 3-row segment (table rows 3..5, row_offset=3) of a 7-row, 2-column table whose
-    attribute entries are all distinguishable; three attribute shapes x (cell_nrow unset/set).
-    -> list of dicts {shape, nrow_set, error | rows: [Row Obj...], df, widths, other}"""
-    cached = getattr(pm, "_encode_scenarios", None)
-    if cached is not None:
-        return cached
-    fi = pm.func("TableAttributes._encode")
-    params = [a.arg for a in fi.node.args.args]
-    out = []
-    for shape_name, shape in SHAPES.items():
-        for nrow_set in (False, True):
-            df = Frame("df", SEG, ["a", "b"], dtypes={"a": "str", "b": "num"}, nulls={(4, "a"), (5, "b")})
-            widths = [_Fr(3, 2), _Fr(4)]
-            me = Obj("self", cls="TableAttributes", default=_attr_default(pm, "TableAttributes", shape))
-            me.attrs["cell_nrow"] = [[1.0, 1.0] for _ in SEG] if nrow_set else None
-            rec = {"shape": shape_name, "dims": shape, "nrow_set": nrow_set, "df": df, "widths": widths, "fi": fi}
-            out.append(rec)
-            if len(params) < 3:
-                rec["error"] = "signature (self, df, col_widths, row_offset) not recognised"
-                continue
-            args = {params[0]: me, params[1]: df, params[2]: widths}
-            if "row_offset" in params:
-                args["row_offset"] = SEG[0]
+def _enumerated(elem):
+    """the enumerated collection X if the generic element runs over enumerate(X) (start 0), else None"""
+    src = elem.source if isinstance(elem, ElemSym) else None
+    if isinstance(src, CallSym) and src.recv is None and src.meth == "enumerate" and len(src.args) == 1 and dict(src.kw).get("start", 0) == 0:
+        return src.args[0]
+    return None
+
+
+def loop_index_path(elem) -> str:
+    """path of the index term of a generic loop: the loop variable of `for i in range(n)`, component 0 of `for i, x in enumerate(X)`"""
+    return f"{elem.path}[0]" if _enumerated(elem) is not None else elem.path
+
+
+def full_range(elem, frame_path: str | None, axis: int):
+    """'ok' if the generic index `elem` runs over range(0, extent of the frame along axis) in ascending order (or enumerates the
+    frame's rows / columns); else a description ('?...' = not recognised, otherwise positive evidence of a wrong range)"""
+    if not isinstance(elem, ElemSym):
+        return "?index is not a loop variable"
+    src = elem.source
+    X = _enumerated(elem)
+    if X is not None:
+        X = unwrap(X)
+        if axis == 0 and isinstance(X, CallSym) and X.meth in ("rows", "iter_rows") and not X.args and (frame_path is None or path_of(X.recv) == frame_path):
+            return "ok"
+        if axis == 1 and isinstance(X, AttrSym) and X.attr == "columns" and (frame_path is None or path_of(X.base) == frame_path):
+            return "ok"
+        return f"?index enumerates `{path_of(X)[:50]}`"
+    if not isinstance(src, RangeSym):
+        return f"?index runs over `{path_of(src)[:60]}`"
+    if src.lo != 0:
+        lo = lin_of(src.lo)
+        return f"range starts at {path_of(src.lo)}" if lo is not None and set(lo) <= {""} else f"?range starts at `{path_of(src.lo)[:40]}`"
+    fs = frame_of_shape(src.hi)
+    if fs is not None:
+        if fs[1] != axis:
+            return f"range ends at `{path_of(src.hi)[:50]}` (the other axis)"
+        if frame_path is not None and path_of(fs[0]) != frame_path:
+            return f"?range ends at the extent of `{path_of(fs[0])[:40]}`"
+        return "ok"
+    hi = lin_of(src.hi)
+    if hi is not None and isinstance(src.hi, LinSym):
+        for t in src.hi.terms:
+            f2 = frame_of_shape(t)
+            if f2 is not None and f2[1] == axis and hi.get(t.path) == 1 and set(hi) <= {t.path, ""}:
+                return f"range ends at `{path_of(src.hi)[:50]}`, not at the extent of the frame"
+    return f"?range ends at `{path_of(src.hi)[:50]}`"
+
+
+def loop_spans(eff) -> list[dict]:
+    """the outermost generically evaluated loops of one path: [{loop, it, elem, effects, end_env, how}]"""
+    out, stack = [], []
+    for e in eff:
+        if e[0] == "iter" and len(e) > 3 and e[3] is not None:
+            stack.append({"loop": e[1], "it": e[2], "elem": e[3], "effects": [], "end_env": None, "how": None})
+            continue
+        if e[0] == "endloop" and stack and stack[-1]["loop"] is e[1]:
+            sp = stack.pop()
+            sp["end_env"], sp["how"] = e[2], e[3]
+            if stack:
+                stack[-1]["effects"].append(("span", sp))
             else:
-                rec["no_offset"] = True
-            sc = Scen(pm, markers={"_as_rtf": "list", "calculate_lines": "scalar"})
-            try:
-                runs = sc.runs(fi, args)
-            except AnalysisError as e:
-                rec["error"] = str(e)
-                continue
-            if len(runs) != 1:
-                rec["error"] = f"{len(runs)} paths depend on conditions the scenario does not determine: {sorted(runs[-1][0])[:3]}"
-                continue
-            r = runs[0][1]
-            if r.raised:
-                rec["error"] = f"raises {r.raised}"
-                continue
-            ret = r.ret if isinstance(r.ret, list) else None
-            if ret is None:
-                rec["error"] = f"result `{r.ret!r}`[:40] is not a list"
-                continue
-            rec["rows"] = [m.recv for m in ret if isinstance(m, Mark) and m.name == "_as_rtf" and isinstance(m.recv, Obj) and m.recv.cls == "Row"]
-            rec["other"] = [m for m in ret if not (isinstance(m, Mark) and m.name == "_as_rtf" and isinstance(m.recv, Obj) and m.recv.cls == "Row")]
-    pm._encode_scenarios = out
+                out.append(sp)
+            continue
+        if stack:
+            stack[-1]["effects"].append(e)
     return out
 
 
-def text_scenarios(pm):
-    """TextAttributes._encode_text on three text rows, methods paragraph / line -> [{shape, method, error | texts: [TextContent Obj]}]"""
-    cached = getattr(pm, "_text_scenarios", None)
-    if cached is not None:
-        return cached
-    fi = pm.func("TextAttributes._encode_text")
-    params = [a.arg for a in fi.node.args.args]
+def _flat(sp) -> list:
     out = []
-    for shape_name, shape in (("matrix", (3, 1)), ("scalar", (1, 1))):
-        for method in ("paragraph", "line"):
-            rec = {"shape": shape_name, "dims": shape, "method": method, "fi": fi}
-            out.append(rec)
-            if len(params) < 3:
-                rec["error"] = "signature (self, text, method) not recognised"
-                continue
-            me = Obj("self", cls="TextAttributes", default=_attr_default(pm, "TextAttributes", shape))
-            sc = Scen(pm, markers={"_as_rtf": "scalar"})
-            try:
-                runs = sc.runs(fi, {params[0]: me, params[1]: ["t0", "t1", "t2"], params[2]: method})
-            except AnalysisError as e:
-                rec["error"] = str(e)
-                continue
-            if len(runs) != 1 or runs[0][1].raised:
-                rec["error"] = f"{len(runs)} paths / raised {runs[0][1].raised if runs else None}"
-                continue
-            rec["texts"] = [m.recv for m in runs[0][1].trace if m.name == "new" and m.recv.cls == "TextContent"]
-            rec["ret"] = runs[0][1].ret
-    pm._text_scenarios = out
+    for e in sp["effects"]:
+        if e[0] == "span":
+            out.extend(_flat(e[1]))
+        else:
+            out.append(e)
     return out
 
 
-def spanning_scenarios(pm):
-    """RTFEncodingService.encode_spanning_row for column 1 of a body with matrix / scalar attributes -> [{shape, error | row: Row Obj}]"""
-    cached = getattr(pm, "_spanning_scenarios", None)
-    if cached is not None:
-        return cached
-    fi = pm.func("RTFEncodingService.encode_spanning_row")
-    params = [a.arg for a in fi.node.args.args]
-    out = []
-    for shape_name, shape in (("matrix", (T_ROWS, 3)), ("scalar", (1, 1))):
-        rec = {"shape": shape_name, "dims": shape, "fi": fi, "width": _Fr(13, 2), "col": 1}
-        out.append(rec)
-        need = ("text", "page_width", "rtf_body_attrs", "col_idx")
-        if not all(p in params for p in need):
-            rec["error"] = f"parameters {need} not recognised"
-            continue
-        body = Obj("rtf_body_attrs", cls="RTFBody", default=_attr_default(pm, "RTFBody", shape))
-        sc = Scen(pm, markers={"_as_rtf": "list"})
-        try:
-            runs = sc.runs(fi, {params[0]: Sym("self", fi.cls), "text": "HEAD", "page_width": rec["width"], "rtf_body_attrs": body, "col_idx": 1})
-        except AnalysisError as e:
-            rec["error"] = str(e)
-            continue
-        if len(runs) != 1 or runs[0][1].raised:
-            rec["error"] = f"{len(runs)} paths / raised {runs[0][1].raised if runs else None}"
-            continue
-        ret = runs[0][1].ret
-        rows = [m.recv for m in (ret if isinstance(ret, list) else []) if isinstance(m, Mark) and m.name == "_as_rtf" and isinstance(m.recv, Obj) and m.recv.cls == "Row"]
-        if len(rows) != 1 or len(ret) != 1:
-            rec["error"] = f"result `{ret!r}`[:60] is not the RTF of exactly one table row"
-            continue
-        rec["row"] = rows[0]
-    pm._spanning_scenarios = out
-    return out
+# ------------------------------------------------------------------ R02.1 cursor partition of _apply_data_post_processing
+def _slice_parts(v):
+    """(frame, offset, length linear form | None, description) of frame.slice(offset, length) / frame[lo:hi]"""
+    if isinstance(v, CallSym) and v.meth == "slice":
+        off = _term_arg(v, "offset", 0, 0)
+        ln = _term_arg(v, "length", 1)
+        return v.recv, off, (lin_of(ln) if ln is not None else None), ln
+    if isinstance(v, SliceSym):
+        lo = 0 if v.lo is None else v.lo
+        if v.hi is None:
+            return v.base, lo, None, None
+        a, b = lin_of(v.hi), lin_of(lo)
+        return v.base, lo, (lin_sub(a, b) if a is not None and b is not None else None), v.hi
+    return None
 
 
-def display_text(v):
-    return "" if v is None else str(v)
+_ROW_PRESERVING = {"enhance_group_by", "restore_page_context", "clone", "rechunk"}
 
 
-# ------------------------------------------------------------------ _encode index agreement
-def encode_index_agreement(ctx: Ctx, rule: str) -> None:
-    """TableAttributes._encode: one table row per data row, one cell per column, cell (i, j) shows df[i, j] (null -> '', else
-    str(value)) and ends at col_widths[j].  Decided on the interpreted scenarios (a frame with nulls in a string and in a
-    numeric column)."""
-    scenario_note(ctx, rule, "TableAttributes._encode", "for every non-null cell value (nulls at one string and one numeric cell)",
-                  {"segment shape": "3x2 (table rows 3..5 of 7, row_offset 3)", "attribute shapes": list(SHAPES), "cell_nrow": ["unset", "set"], "evaluations": 2 * len(SHAPES)})
-    n_ok = 0
-    for rec in encode_scenarios(ctx.pm):
-        fi = rec["fi"]
-        tag = f"{rec['shape']} attributes, cell_nrow {'set' if rec['nrow_set'] else 'unset'}"
-        if "error" in rec:
-            ctx.gap(rule, f"_encode could not be interpreted on the mock segment ({tag}): {rec['error']}")
-            continue
-        df, widths, rows = rec["df"], rec["widths"], rec["rows"]
-        if rec["other"]:
-            ctx.gap(rule, f"_encode: element `{rec['other'][0]!r}`[:60] of the result could not be traced to a table row")
-            continue
-        texts = []
-        ok = True
-        if len(rows) != len(df):
-            ok = False
-            ctx.violation(rule, fi.short, f"cell/row emission: {len(rows)} rows for {len(df)} data rows", fi.where(),
-                          f"_encode emits {len(rows)} table rows for a frame of {len(df)} rows (one table row per data row expected)")
-        for i, row in enumerate(rows[:len(df)]):
-            cells = row.attrs.get("row_cells")
-            if not isinstance(cells, (list, tuple)) or not all(isinstance(c, Obj) and c.cls == "Cell" for c in cells):
-                ctx.gap(rule, f"_encode: the cells of table row {i} could not be determined")
-                ok = False
-                continue
-            if len(cells) != len(df.cols):
-                ok = False
-                ctx.violation(rule, fi.short, f"cell/row emission: {len(cells)} cells for {len(df.cols)} columns", fi.where(),
-                              f"_encode builds {len(cells)} cells in a row of a frame with {len(df.cols)} columns")
-                continue
-            want_row = df.row(i)
-            for j, cell in enumerate(cells):
-                tc = cell.attrs.get("text")
-                got = tc.attrs.get("text") if isinstance(tc, Obj) else None
-                want = display_text(want_row[j])
-                texts.append(got)
-                if isinstance(got, Sym) or not isinstance(tc, Obj):
-                    ctx.gap(rule, f"_encode: the text of cell ({i}, {j}) could not be determined")
-                    ok = False
-                elif got != want:
-                    ok = False
-                    src = "a null value" if want_row[j] is None else f"value {want_row[j]!r} of frame cell ({i}, {j})"
-                    ctx.violation(rule, fi.short, f"cell source ({i},{j}) shows {got!r}"[:120], fi.where(),
-                                  f"_encode: cell ({i}, {j}) shows {got!r} for {src} (expected {want!r}: df.row(i)[j], null -> '', else str(value))")
-                w = cell.attrs.get("width")
-                if isinstance(w, Sym):
-                    ctx.gap(rule, f"_encode: the width of cell ({i}, {j}) could not be determined")
-                    ok = False
-                elif w != widths[j]:
-                    ok = False
-                    ctx.violation(rule, fi.short, f"cell source width of column {j}", fi.where(), f"_encode: cell ({i}, {j}) ends at `{w!r}`, not at col_widths[{j}]")
-        ctx.instance(rule, fi.where(), f"_encode on a 3x2 segment with nulls ({tag}): {len(rows)} rows; cell texts {texts}"[:290])
-        n_ok += ok
-    if not n_ok and not ctx.deferred_errors and not any(f.rule == rule for f in ctx.findings):
-        ctx.gap(rule, "_encode: no scenario could be evaluated")
-
-
-# ------------------------------------------------------------------ column removal
-def column_removal(ctx: Ctx, rule: str) -> None:
-    """prepare_dataframe_for_body_encoding returns (displayed frame, original frame, attributes cut to the displayed columns):
-    the displayed frame keeps the non-grouping columns in frame order, col_rel_width and every attribute matrix lose exactly
-    the entries at the ORIGINAL positions of the removed columns, and the caller's attributes are not modified.
-    Decided by interpreting the function on mock frames (two removed columns at non-adjacent positions, both iteration orders
-    of the set of removed columns); if the function cannot be interpreted the structural rule below is used instead."""
+def cursor_post_processing(ctx: Ctx, rule: str) -> None:
+    """_apply_data_post_processing: every page's data is re-cut from the column-reduced frame (with group_by: from the frame the
+    grouping service derives from it) as consecutive slices of the pages' own heights.  One generic iteration of every loop that
+    stores a page's data: page.data' = F.slice(c, h) with h = the page's own row count, c' = c + h, c = 0 before the loop,
+    F = the reduced frame (parameter) or derived from it by the grouping service."""
+    declare(ctx)
+    ctx.assume("R02.1 (_apply_data_post_processing): grouping_service.enhance_group_by / restore_page_context return a frame with the same rows in the same order as the frame "
+               "they are given (their cell values are C13's subject); a page's row count is page.data.height / len(page.data) / page.data.shape[0]")
     pm = ctx.pm
-    fi = pm.func("RTFEncodingService.prepare_dataframe_for_body_encoding")
-    scenario_note(ctx, rule, "RTFEncodingService.prepare_dataframe_for_body_encoding", "for every cell content and every attribute entry",
-                  {"frame shape": "4x5", "removed columns": "positions 0 and 2 (or none)", "grouping configurations": 6, "set iteration orders": 2,
-                   "attribute shapes": ["4x5", "1x5", "1x1"], "evaluations": 12})
+    fi = pm.func("UnifiedRTFEncoder._apply_data_post_processing")
+    ps = _pos_params(fi)
+    if len(ps) < 3:
+        ctx.gap(rule, "_apply_data_post_processing: signature (self, pages, frame, body) not recognised")
+        return
+    p_pages, p_frame = ps[0], ps[1]
     try:
-        _column_removal_scenarios(ctx, rule, fi)
+        dt = TDT(pm, watch={"slice", "head", "tail", "enhance_group_by", "restore_page_context"})
+        leaves = whole(dt, fi)
+        cover(ctx, "UnifiedRTFEncoder._apply_data_post_processing (whole body; one generic page per loop)", leaves)
     except AnalysisError as e:
-        ctx.instance(rule, fi.where(), f"prepare_dataframe_for_body_encoding not interpretable ({str(e)[:120]}): structural rule applied")
-        _column_removal_structural(ctx, rule)
-
-
-def _column_removal_scenarios(ctx: Ctx, rule: str, fi) -> None:
-    pm = ctx.pm
-    ps = [a.arg for a in fi.node.args.args]
-    if len(ps) != 3:
-        raise AnalysisError("signature (self, df, rtf_attrs) not recognised")
-    cols = ["g1", "z", "g2", "m", "a"]
-    nrow = 4
-    scen = (("page_by on columns 0 and 2", dict(page_by=["g1", "g2"], subline_by=None, new_page=False), ["g1", "g2"]),
-            ("page_by listed against frame order", dict(page_by=["g2", "g1"], subline_by=None, new_page=False), ["g1", "g2"]),
-            ("subline_by column 2 and page_by column 0", dict(page_by=["g1"], subline_by=["g2"], new_page=False), ["g1", "g2"]),
-            ("new_page with page_by kept as a column", dict(page_by=["g1"], subline_by=None, new_page=True, pageby_row="column"), []),
-            ("new_page with page_by shown as first row", dict(page_by=["g1", "g2"], subline_by=None, new_page=True, pageby_row="first_row"), ["g1", "g2"]),
-            ("no grouping", dict(page_by=None, subline_by=None, new_page=False), []))
-    shapes = {"text_font": (nrow, 5), "text_format": (1, 5), "border_left": (1, 1), "text_justification": (nrow, 5), "border_top": (1, 5)}
-
-    def mk(conf):
-        body = Obj("rtf_attrs", cls="RTFBody", default=lambda name: None)
-        body.attrs.update(pageby_row="column", group_by=None, col_rel_width=[AV("col_rel_width", 0, c) for c in range(5)])
-        body.attrs.update({k: matrix(k, *sh) for k, sh in shapes.items()})
-        body.attrs.update(conf)
-        return body
-
-    def strip(attrs):
-        return {k: v for k, v in attrs.items() if v is not None}
+        ctx.gap(rule, f"_apply_data_post_processing could not be evaluated: {e}")
+        return
+    seen = set()
     n_ok = 0
-    for title, conf, removed in scen:
-        keep = [i for i, c in enumerate(cols) if c not in removed]
-        for order in ("insertion", "reverse"):
-            sc = Scen(pm, set_order=order)
-            runs = sc.runs(fi, {ps[0]: Sym("self", fi.cls), ps[1]: Frame("df", range(nrow), cols), ps[2]: mk(conf)})
-            if len(runs) != 1:
-                raise AnalysisError(f"{len(runs)} paths depend on conditions the scenario does not determine")
-            r = runs[0][1]
-            if r.raised:
-                ctx.violation(rule, fi.short, f"raises {r.raised}"[:80], fi.where(), f"prepare_dataframe_for_body_encoding raises {r.raised} for {title} on a frame with columns {cols}")
+    for v, env, eff, out in leaves:
+        n_loops = 0
+        for sp in loop_spans(eff):
+            lp, elem = sp["loop"], sp["elem"]
+            stores = [e for e in _flat(sp) if e[0] == "store" and e[2] == "data" and any(x is elem for x in tparts(e[1]))]
+            if not stores:
                 continue
-            ret = r.ret
-            if not (isinstance(ret, tuple) and len(ret) == 3 and isinstance(ret[0], Frame) and isinstance(ret[1], Frame) and isinstance(ret[2], Obj)):
-                if isinstance(ret, tuple) and len(ret) == 3 and isinstance(ret[0], Frame) and isinstance(ret[1], Frame):
-                    raise AnalysisError("the returned attributes could not be determined")
-                raise AnalysisError(f"result `{ret!r}`[:60] is not (frame, frame, attributes)")
-            shown, orig, attrs = ret
-            tag = f"{title}, set order {order}"
-            ok = True
-            if shown.cols == cols and orig.cols == [cols[i] for i in keep] and removed:
-                ok = False
-                ctx.violation(rule, fi.short, "return", fi.where(), "prepare_dataframe_for_body_encoding returns (original, reduced) instead of (reduced frame, original frame, attributes)")
-                continue
-            if shown.cols != [cols[i] for i in keep]:
-                ok = False
-                what = "the displayed columns are not taken in the frame's own column order" if sorted(shown.cols) == sorted(cols[i] for i in keep) else \
-                    f"the displayed frame has columns {shown.cols}, expected {[cols[i] for i in keep]}"
-                ctx.violation(rule, fi.short, "remaining columns " + str(shown.cols), fi.where(), f"{what} ({tag})")
-            if orig.cols != cols or orig.rows != list(range(nrow)) or shown.rows != list(range(nrow)):
-                ok = False
-                ctx.violation(rule, fi.short, "frames returned", fi.where(), f"the frames returned are not (all rows x displayed columns, the original frame) ({tag}): {shown!r}, {orig!r}")
-            w = attrs.attrs.get("col_rel_width")
-            want_w = [AV("col_rel_width", 0, i) for i in keep]
-            if w != want_w:
-                ok = False
-                ctx.violation(rule, fi.short, "width slicing " + repr(w)[:80], fi.where(),
-                              f"col_rel_width of the displayed columns is {w!r}, expected the entries at the original positions {keep} ({tag}): widths are cut at the wrong positions")
-            for k, sh in shapes.items():
-                v = attrs.attrs.get(k)
-                if not (isinstance(v, list) and v and all(isinstance(x, list) for x in v)):
-                    raise AnalysisError(f"attribute {k} after removal is `{v!r}`[:50]")
-                if sh[1] == 1:
-                    good = all(x == AV(k, 0, 0) for row in v for x in row)
-                elif not removed and v == matrix(k, *sh):
-                    good = True
+            n_loops += 1
+            it = sp["it"]
+            src = it.args[0] if isinstance(it, CallSym) and it.recv is None and it.meth == "enumerate" and it.args else it
+            where = fi.where(lp)
+            if not (isinstance(src, Init) and src.path == p_pages):
+                if isinstance(src, CallSym) and src.recv is None and src.meth in ("reversed", "sorted"):
+                    ctx.violation(rule, fi.short, "cursor re-slice: page order " + path_of(src)[:50], where, f"the pages are re-cut in the order `{path_of(src)[:60]}`, not in page order: the slices no longer follow the rows")
                 else:
-                    good = all(row == [AV(k, (ri % sh[0]), i) for i in keep] for ri, row in enumerate(v)) and (len(v) == nrow or (sh[0] == 1 and len(v) == 1))
-                if not good:
+                    ctx.gap(rule, f"_apply_data_post_processing: a loop that stores page data iterates `{path_of(it)[:60]}`, not recognisably the pages in order")
+                continue
+            for e in stores:
+                page, val = e[1], e[3]
+                sl = _slice_parts(val)
+                key = (getattr(lp, "lineno", 0), path_of(val))
+                if sl is None:
+                    ctx.gap(rule, f"_apply_data_post_processing: page data `{path_of(val)[:70]}` is not recognisable as a slice of a frame")
+                    continue
+                frame, off, ln, ln_term = sl
+                page_data = f"{page.path}.data"
+                if key not in seen:
+                    seen.add(key)
+                    ctx.instance(rule, where, f"cursor re-slice (generic page): data' = `{path_of(frame)[:60]}`[{path_of(off)[:30]} : +{path_of(ln_term)[:50]}]; "
+                                 f"cursor' = {path_of(sp['end_env'].get(off.path)) if isinstance(off, Sym) else '?'}"[:280])
+                ok = True
+                # the slice length is the page's own height
+                h = None
+                for t in (ln_term.terms if isinstance(ln_term, LinSym) else (ln_term,)):
+                    fs = frame_of_shape(t)
+                    if fs is not None and fs[1] == 0 and path_of(fs[0]) == page_data:
+                        h = t
+                if ln is None:
                     ok = False
-                    ctx.violation(rule, fi.short, f"attribute slicing {k} {sh[0]}x{sh[1]}", fi.where(),
-                                  f"attribute {k} ({sh[0]}x{sh[1]}) of the displayed columns is {repr(v[0])[:90]}..., expected the entries of the original columns {keep} ({tag}): "
-                                  "attribute columns are cut at the wrong positions (positions must be those of the removed columns in the ORIGINAL frame, applied to the grid expanded to the original shape)")
-            before, after = strip(mk(conf).attrs), strip(sc.last_args[ps[2]].attrs)
-            if removed and before != after:
+                    ctx.violation(rule, fi.short, "cursor re-slice: page heights changed", where, f"a page's data is re-cut as `{path_of(val)[:80]}`, an open-ended slice: every page gets all remaining rows")
+                elif h is None or ln != {h.path: 1}:
+                    ok = False
+                    if h is not None or (set(ln) <= {""}):
+                        ctx.violation(rule, fi.short, "cursor re-slice: page heights changed", where,
+                                      f"a page's data is re-cut with length `{path_of(ln_term)[:60]}`, not the page's own row count: rows move from one page to another")
+                    else:
+                        ctx.gap(rule, f"_apply_data_post_processing: slice length `{path_of(ln_term)[:60]}` could not be related to the page's own row count")
+                # the offset is a cursor carried through the loop, 0 before it, advanced by the page's height
+                if isinstance(off, Carried):
+                    entry = off.entry
+                    if not (isinstance(entry, _NUM) and not isinstance(entry, bool) and entry == 0):
+                        ok = False
+                        if isinstance(entry, _NUM):
+                            ctx.violation(rule, fi.short, "cursor re-slice: cursor starts at " + str(entry), where, f"the slicing cursor `{off.path}` starts at {entry}, not at 0: the first rows are lost")
+                        else:
+                            ctx.gap(rule, f"_apply_data_post_processing: value `{path_of(entry)[:40]}` of the cursor `{off.path}` before the loop not decided")
+                    after = lin_of(sp["end_env"].get(off.path))
+                    if after is None:
+                        ok = False
+                        ctx.gap(rule, f"_apply_data_post_processing: value of the cursor `{off.path}` after one page is not a linear expression")
+                    elif h is not None:
+                        d = lin_sub(after, {off.path: 1})
+                        if d != {h.path: 1}:
+                            ok = False
+                            ctx.violation(rule, fi.short, "cursor re-slice: cursor advanced by " + (path_of(sp["end_env"].get(off.path))[:60]), where,
+                                          f"after a page of `{h.path}` rows the cursor `{off.path}` becomes `{path_of(sp['end_env'].get(off.path))[:70]}` (advance {d}): "
+                                          "pages must be consecutive slices (cursor from 0, slice(cursor, page height), cursor advanced by the same height); "
+                                          + ("rows are emitted more than once" if set(d) - {""} else "rows are lost or repeated"))
+                elif isinstance(off, _NUM) and not isinstance(off, bool):
+                    ok = False
+                    ctx.violation(rule, fi.short, "cursor re-slice: fixed offset", where, f"every page is re-cut from the same offset `{path_of(off)[:40]}`")
+                else:
+                    ok = False
+                    ctx.gap(rule, f"_apply_data_post_processing: slice offset `{path_of(off)[:50]}` is not a cursor carried through the page loop")
+                # provenance of the frame
+                rs = roots(frame)
+                calls = {p.meth for p in tparts(frame) if isinstance(p, CallSym)}
+                if isinstance(frame, Init) and frame.path == p_frame:
+                    pass
+                elif any(path_of(p) == page_data for p in tparts(frame)) or (p_pages in rs and p_frame not in rs):
+                    ok = False
+                    ctx.violation(rule, fi.short, "slice sources " + path_of(frame)[:60], where, f"page data is re-cut from `{path_of(frame)[:80]}`, not from the column-reduced frame `{p_frame}`")
+                elif p_frame in rs and calls and calls <= _ROW_PRESERVING:
+                    pass
+                else:
+                    ok = False
+                    ctx.gap(rule, f"_apply_data_post_processing: page data comes from `{path_of(frame)[:70]}`, which could not be traced to the column-reduced frame")
+                n_ok += ok
+        if not n_loops:
+            ctx.gap(rule, f"_apply_data_post_processing: on the path [{_fmt(v)}] no loop that re-cuts the pages' data was re-identified")
+    if not n_ok and not any(f.rule == rule for f in ctx.findings) and not ctx.deferred_errors:
+        ctx.gap(rule, "_apply_data_post_processing: no re-slicing loop could be verified")
+
+
+# ------------------------------------------------------------------ R02.1 / R09.4 _render_body: segments, offsets, tail
+def _int_solutions_le(atoms, bound: int = -1) -> bool | None:
+    """is there an integer t <= bound satisfying every (a, k, op, truth) meaning  (a*t + k  op  0) == truth ?  None: not decided"""
+    lo, hi = None, Fraction(bound)
+    excluded, forced = [], None
+    neg = {ast.Lt: ast.GtE, ast.LtE: ast.Gt, ast.Gt: ast.LtE, ast.GtE: ast.Lt, ast.Eq: ast.NotEq, ast.NotEq: ast.Eq}
+    import math
+    for a, k, op, truth in atoms:
+        if not truth:
+            op = neg[op]
+        if a == 0:
+            if not _cmp(op(), k, 0):
+                return False
+            continue
+        t0 = Fraction(-k) / Fraction(a)
+        if op in (ast.Eq,):
+            forced = t0 if forced is None or forced == t0 else "none"
+            continue
+        if op is ast.NotEq:
+            excluded.append(t0)
+            continue
+        less = (op in (ast.Lt, ast.LtE)) == (a > 0)          # t < t0 (or <=)
+        strict = op in (ast.Lt, ast.Gt)
+        if less:
+            b = Fraction(math.ceil(t0) - 1) if strict else Fraction(math.floor(t0))
+            hi = min(hi, b)
+        else:
+            b = Fraction(math.floor(t0) + 1) if strict else Fraction(math.ceil(t0))
+            lo = b if lo is None else max(lo, b)
+    if forced == "none":
+        return False
+    if forced is not None:
+        return forced.denominator == 1 and forced <= hi and (lo is None or forced >= lo) and forced not in excluded
+    if lo is not None and lo > hi:
+        return False
+    if lo is None:
+        return True
+    n = int(hi - lo) + 1
+    return n > len([x for x in excluded if x.denominator == 1 and lo <= x <= hi])
+
+
+def cursor_render_body(ctx: Ctx, rule: str) -> None:
+    """_render_body hands every row of the page to TableAttributes._encode exactly once, in order, with row_offset = position of the
+    segment's first row in the page and with the page's column widths.  The boundary iteration itself (segment = [cursor, boundary),
+    cursor' = boundary on every path) is c05.r05_7's generic iteration; this rule reads the same evaluation for row_offset / widths /
+    frame, and evaluates the rest of the function with the boundary loop abstracted (every local it writes becomes an arbitrary
+    symbol): cursor = 0 before the loop, tail = [cursor, end) with row_offset = cursor emitted whenever rows remain, and the
+    boundary-free path encodes the whole page with row_offset 0."""
+    from .c05 import _body_analysis, _rel_row
+    from .c05 import declare as declare05
+    declare(ctx)
+    declare05(ctx)
+    ctx.assume("_render_body: after the abstracted boundary loop the row cursor is an arbitrary symbol, so the tail judgement (tail = [cursor, end) with row_offset = cursor, emitted "
+               "whenever cursor < rows of the page) holds for every cursor value; that the cursor is the end of the last segment is the generic boundary iteration (R05.7)")
+    pm = ctx.pm
+    fi = pm.func("PageRenderer._render_body")
+    ps = _pos_params(fi)
+    if len(ps) < 2:
+        ctx.gap(rule, "_render_body: signature (self, document, page) not recognised")
+        return
+    p_page = ps[1]
+    page_data, page_widths = f"{p_page}.data", f"{p_page}.col_widths"
+    a = _body_analysis(ctx)
+    if isinstance(a, Exception) or "outer" not in a:
+        ctx.gap(rule, f"_render_body: the boundary loop could not be evaluated ({a if isinstance(a, Exception) else a.get('gap')})")
+        return
+    lp, outer, dt0 = a["lp"], a["outer"], a["dt"]
+    cands = {n for v, env, eff, out in outer for n, val in env.items() if n in dt0.reads and _rel_row(val)}
+    if len(cands) != 1:
+        ctx.gap(rule, f"_render_body: the row cursor of the boundary loop was not re-identified (candidates {sorted(cands)})")
+        return
+    cur = next(iter(cands))
+
+    def judge_encode(e, lo_want, what: str, where: str) -> bool:
+        """row_offset / widths of one _encode call whose segment starts at lo_want"""
+        ok = True
+        off = unwrap(_kwarg(e, "row_offset", 2, 0), names=("int",))
+        w = _kwarg(e, "col_widths", 1)
+        lo_want = unwrap(lo_want, names=("int",))
+        if not _same(off, lo_want) and not (lin_of(off) is not None and lin_of(off) == lin_of(lo_want)):
+            ok = False
+            if isinstance(off, Sym) and not any(isinstance(p, Init) for p in tparts(off)) and not isinstance(off, (LinSym,)):
+                ctx.gap(rule, f"_render_body: row_offset `{path_of(off)[:50]}` of {what} could not be evaluated")
+            else:
+                ctx.violation(rule, fi.short, f"_encode(rows from {path_of(lo_want)[:30]}, row_offset={path_of(off)[:40]})", where,
+                              f"_render_body: {what} starting at row `{path_of(lo_want)[:40]}` of the page is encoded with row_offset=`{path_of(off)[:50]}`: its cells take the "
+                              "attributes of other rows (row_offset must be the position of the segment's first row in the page)")
+        if w is None:
+            ok = False
+            ctx.violation(rule, fi.short, "_encode widths missing", where, f"_render_body: {what} is encoded without the page's column widths")
+        elif path_of(unwrap(w)) != page_widths:
+            ok = False
+            w0 = unwrap(w)
+            if isinstance(w0, AttrSym) and not path_of(w0).startswith("?") and roots(w0) and w0.attr != "col_widths" or isinstance(w0, (list, tuple, int, float)):
+                ctx.violation(rule, fi.short, "_encode widths " + path_of(w)[:50], where, f"_render_body: {what} is not encoded with the page's column widths `{page_widths}` but with `{path_of(w)[:60]}`")
+            else:
+                ctx.gap(rule, f"_render_body: the widths `{path_of(w)[:50]}` handed to _encode for {what} could not be traced to `{page_widths}`")
+        return ok
+    # (1) the generic boundary iteration: row_offset = the cursor the segment starts from, widths, frame
+    n_seg = 0
+    for v, env, eff, out in outer:
+        for e in eff:
+            if not (e[0] == "call" and e[1] == "_encode"):
+                continue
+            seg = e[3][0] if e[3] else _kwarg(e, "df")
+            sl = _slice_parts(seg)
+            if sl is None:
+                continue                                      # r05_7 reports the gap
+            n_seg += 1
+            frame, lo = sl[0], sl[1]
+            if path_of(frame) != page_data:
+                if isinstance(frame, Sym) and (p_page in {p.path for p in tparts(frame) if isinstance(p, Init)}):
+                    ctx.gap(rule, f"_render_body: a segment is cut from `{path_of(frame)[:50]}`, not recognisably the page's data `{page_data}`")
+                else:
+                    ctx.violation(rule, fi.short, "segment frame " + path_of(frame)[:50], fi.where(e[5]), f"_render_body: a body segment is cut from `{path_of(frame)[:60]}`, not from the page's data `{page_data}`")
+            judge_encode(e, lo, "a segment before a boundary", fi.where(e[5]))
+    ctx.instance(rule, fi.where(lp), f"one generic boundary iteration: {n_seg} segment emission(s); row_offset = the cursor `{cur}` the segment starts from; widths = {page_widths}")
+    # (2) the rest of the function with the boundary loop abstracted
+    try:
+        dt = TDT(pm, watch={"_encode", "encode_spanning_row", "extend", "append", "slice", "tail"}, skip_loops=[lp], inline={"is_single_body"})
+        leaves = whole(dt, fi)
+        cover(ctx, "PageRenderer._render_body (whole body, boundary loop abstracted: locals it writes are arbitrary afterwards)", leaves)
+    except AnalysisError as e:
+        ctx.gap(rule, f"_render_body could not be evaluated: {e}")
+        return
+    n_tail = n_simple = n_loop_paths = 0
+    lost_paths = []
+    for v, env, eff, out in leaves:
+        li = [i for i, e in enumerate(eff) if e[0] == "loop" and e[1] is lp]
+        encs = [(i, e) for i, e in enumerate(eff) if e[0] == "call" and e[1] == "_encode"]
+        if not li:
+            # boundary-free path: the whole page, offset 0
+            if not encs:
+                if _ret(out) is not None or out == "fall":
+                    ctx.gap(rule, f"_render_body: on the path [{_fmt(v)}] (no boundary loop) no _encode call was re-identified")
+                continue
+            for i, e in encs:
+                n_simple += 1
+                seg = unwrap(e[3][0] if e[3] else _kwarg(e, "df"), names=())
+                if path_of(seg) != page_data:
+                    sl = _slice_parts(seg)
+                    if sl is not None and path_of(sl[0]) == page_data and (sl[1] != 0 or sl[2] is not None):
+                        ctx.violation(rule, fi.short, "simple body " + path_of(seg)[:50], fi.where(e[5]), f"_render_body: a page without internal boundaries is rendered as `{path_of(seg)[:60]}`, not as the whole page data")
+                    else:
+                        ctx.gap(rule, f"_render_body: frame `{path_of(seg)[:50]}` rendered on the boundary-free path is not recognisably the page's data")
+                    continue
+                judge_encode(e, 0, "the whole page", fi.where(e[5]))
+            continue
+        n_loop_paths += 1
+        snap = eff[li[0]][2]
+        c0 = snap.get(cur)
+        if not (isinstance(c0, _NUM) and not isinstance(c0, bool) and c0 == 0):
+            if isinstance(c0, _NUM):
+                ctx.violation(rule, fi.short, f"cursor starts at {c0}", fi.where(lp), f"_render_body: the row cursor `{cur}` is {c0} before the first boundary, not 0: the first rows of the page are not rendered")
+            else:
+                ctx.gap(rule, f"_render_body: value `{path_of(c0)[:40]}` of the row cursor `{cur}` before the boundary loop not decided")
+        tails = [(i, e) for i, e in encs if i > li[0]]
+        early = [(i, e) for i, e in encs if i < li[0]]
+        for i, e in early:
+            ctx.gap(rule, "_render_body: rows are encoded before the boundary loop on a path through it; their relation to the segments is not decided")
+        cur_atoms = []
+        undecided_guard = False
+        for key, val in v.items():
+            rec = dt.cmp.get(key)
+            if rec is None or not any(isinstance(p, Init) and p.path == cur for x in (rec[1], rec[2]) for p in tparts(x)):
+                continue
+            if rec[0] not in (ast.Lt, ast.LtE, ast.Gt, ast.GtE, ast.Eq, ast.NotEq):
+                undecided_guard = True
+                continue
+            l, r = rec[1], rec[2]
+            la, ra = lin_of(l), lin_of(r)
+            if la is None or ra is None:
+                undecided_guard = True
+                continue
+            d = lin_sub(la, ra)
+            terms = {}
+            for x in (l, r):
+                for t in (x.terms if isinstance(x, LinSym) else (x,)):
+                    if isinstance(t, Sym):
+                        terms[t.path] = t
+            n_terms = [k for k in d if k not in ("", cur)]
+            fs = frame_of_shape(terms[n_terms[0]]) if len(n_terms) == 1 and n_terms[0] in terms else None
+            if fs is None or fs[1] != 0 or path_of(fs[0]) != page_data or d.get(cur, 0) != -d[n_terms[0]]:
+                undecided_guard = True
+                continue
+            cur_atoms.append((d[cur], d.get("", 0), rec[0], val))          # a*(cur - n) + k  op 0
+        if tails:
+            for i, e in tails:
+                n_tail += 1
+                seg = e[3][0] if e[3] else _kwarg(e, "df")
+                sl = _slice_parts(seg)
+                if sl is None and isinstance(seg, CallSym) and seg.meth == "tail":
+                    ctx.gap(rule, f"_render_body: the tail `{path_of(seg)[:50]}` is cut by a row count, its start could not be related to the cursor")
+                    continue
+                if sl is None or path_of(sl[0]) != page_data:
+                    ctx.gap(rule, f"_render_body: rows `{path_of(seg)[:50]}` rendered after the boundary loop are not a slice of the page's data")
+                    continue
+                frame, lo, ln, ln_term = sl
+                lo = unwrap(lo, names=("int",))
+                if lin_of(lo) != {cur: 1}:
+                    ctx.violation(rule, fi.short, "tail " + path_of(seg)[:60], fi.where(e[5]), f"_render_body: the rows after the last boundary are `{path_of(seg)[:70]}`; they must start at the cursor `{cur}`")
+                    continue
+                if ln is not None:
+                    rest = lin_sub(ln, {})
+                    want_ok = False
+                    for t in (ln_term.terms if isinstance(ln_term, LinSym) else (ln_term,)):
+                        fs = frame_of_shape(t)
+                        if fs is not None and fs[1] == 0 and path_of(fs[0]) == page_data and rest == {t.path: 1, cur: -1}:
+                            want_ok = True
+                    if not want_ok:
+                        ctx.violation(rule, fi.short, "tail " + path_of(seg)[:60], fi.where(e[5]), f"_render_body: the rows after the last boundary are `{path_of(seg)[:70]}`: they do not reach the end of the page")
+                        continue
+                judge_encode(e, lo, "the tail after the last boundary", fi.where(e[5]))
+        elif cur_atoms and not undecided_guard:
+            # not emitted: are there rows left under the consulted conditions?  t = cursor - rows of the page <= -1
+            if _int_solutions_le(cur_atoms, -1):
+                lost_paths.append(_fmt({k: x for k, x in v.items() if cur in k}))
+    if n_loop_paths and not n_tail:
+        from ..astmatch import resolve
+        it = resolve(lp.iter, fi.node)
+        if isinstance(it, ast.BoolOp) and isinstance(it.op, ast.Or):
+            it = it.values[0]
+        if unparse(it) == f"{p_page}.group_boundaries":
+            ctx.violation(rule, fi.short, "segments: tail never rendered", fi.where(lp), "_render_body: the rows after the last boundary of a page are never rendered (no _encode of the page's data from the cursor after the boundary loop)")
+        else:
+            ctx.gap(rule, f"_render_body: no rendering of the rows after the last boundary was re-identified (the boundary loop iterates `{unparse(it)[:60]}`)")
+    for p in sorted(set(lost_paths))[:2]:
+        ctx.violation(rule, fi.short, "segments: tail dropped when " + p[:80], fi.where(lp),
+                      f"_render_body: under [{p}] the rows after the last boundary are not rendered although rows remain (cursor < rows of the page): rows are lost")
+    ctx.instance(rule, fi.where(), f"_render_body with the boundary loop abstracted: {len(leaves)} paths; cursor `{cur}` = 0 before the loop; tail [cursor:] with row_offset = cursor on {n_tail} "
+                 f"path(s), emitted whenever rows remain; whole page with row_offset 0 on {n_simple} boundary-free path(s)")
+    if not n_loop_paths:
+        ctx.gap(rule, "_render_body: no path through the boundary loop was evaluated")
+    if not n_simple:
+        ctx.gap(rule, "_render_body: the boundary-free path (whole page, row_offset 0) was not re-identified")
+
+
+# ------------------------------------------------------------------ the three model-building sites: generic cell / text / spanning row
+MODEL_WATCH = {"Cell", "TextContent", "Row", "Border", "BroadcastValue", "iloc", "to_list", "calculate_lines", "_as_rtf", "append", "extend", "row", "rows", "iter_rows",
+               "fill_null", "item"}
+SITES = ("TableAttributes._encode", "TextAttributes._encode_text", "RTFEncodingService.encode_spanning_row")
+
+
+@dataclass
+class Lookup:
+    """one attribute entry reaching a model field: entry [row][col] of `source`, read through `via`"""
+    source: Any                 # the value looked into (self.text_font / getattr(obj, name) ...)
+    attr: Any                   # attribute name (str), ('param', closure parameter) or None
+    owner: Any                  # the object the attribute belongs to
+    row: dict | None            # linear form of the row index
+    col: dict | None
+    via: str                    # 'iloc' | 'direct' | 'expanded'
+    dim: Any = None             # dimension of the BroadcastValue
+    row_term: Any = None
+    col_term: Any = None
+
+
+def _attr_source(v):
+    """(owner, attribute name | ('param', p) | None) of the value an entry is taken from"""
+    if isinstance(v, AttrSym):
+        return v.base, v.attr
+    if isinstance(v, CallSym) and v.recv is None and v.meth == "getattr" and len(v.args) >= 2:
+        k = v.args[1]
+        if isinstance(k, str):
+            return v.args[0], k
+        if isinstance(k, Init):
+            return v.args[0], ("param", k.path)
+        return v.args[0], None
+    return None, None
+
+
+def _mod_index(k, seq):
+    """the index term i if k is `i % len(seq)` (seq compared by path), else None"""
+    if isinstance(k, OpSym) and k.op == "%" and isinstance(k.right, CallSym) and k.right.recv is None and k.right.meth == "len" and k.right.args \
+            and path_of(k.right.args[0]) == path_of(seq):
+        return k.left
+    return None
+
+
+def lookup_of(v) -> Lookup | None:
+    """recognise an attribute lookup term"""
+    if isinstance(v, CallSym) and v.meth == "iloc" and isinstance(v.recv, CallSym) and v.recv.meth == "BroadcastValue" and len(v.args) + len(v.kw) >= 2:
+        bv = v.recv
+        src = _term_arg(bv, "value", 0)
+        r = _term_arg(v, "row_index", 0)
+        c = _term_arg(v, "column_index", 1)
+        owner, name = _attr_source(src)
+        return Lookup(src, name, owner, lin_of(r), lin_of(c), "iloc", _term_arg(bv, "dimension", 1), r, c)
+    if isinstance(v, SubSym) and isinstance(v.base, SubSym):
+        grid = v.base.base
+        r = _mod_index(v.base.key, grid)
+        c = _mod_index(v.key, v.base)
+        if c is None and isinstance(v.key, OpSym) and v.key.op == "%" and isinstance(v.key.right, CallSym) and v.key.right.meth == "len" and v.key.right.args \
+                and isinstance(v.key.right.args[0], SubSym) and path_of(v.key.right.args[0].base) == path_of(grid):
+            c = v.key.left                                    # c % len(grid[0])
+        if r is None or c is None:
+            return None
+        if isinstance(grid, CallSym) and grid.meth == "to_list" and isinstance(grid.recv, CallSym) and grid.recv.meth == "BroadcastValue":
+            bv = grid.recv
+            src = _term_arg(bv, "value", 0)
+            owner, name = _attr_source(src)
+            return Lookup(src, name, owner, lin_of(r), lin_of(c), "expanded", _term_arg(bv, "dimension", 1), r, c)
+        owner, name = _attr_source(grid)
+        if owner is not None:
+            return Lookup(grid, name, owner, lin_of(r), lin_of(c), "direct", None, r, c)
+    return None
+
+
+def _bind_lin(d: dict | None, binding: dict) -> dict | None:
+    """substitute closure parameters (by name) in a linear form by the linear forms of the call's arguments"""
+    if d is None:
+        return None
+    out: dict = {}
+    for t, c in d.items():
+        sub = binding.get(t)
+        if sub is None:
+            out[t] = out.get(t, 0) + c
+            continue
+        lf = lin_of(sub)
+        if lf is None:
+            return None
+        for t2, c2 in lf.items():
+            out[t2] = out.get(t2, 0) + c * c2
+    return {t: c for t, c in out.items() if c}
+
+
+def site_analysis(ctx: Ctx, short: str):
+    """evaluate one model-building function over symbolic inputs (local closures summarised once) ->
+    {fi, dt, leaves, closures: {name: (dt, params, defaults, [(valuation, returned term)])}} or an AnalysisError"""
+    def make():
+        pm = ctx.pm
+        fi = pm.func(short)
+        dt = TDT(pm, watch=MODEL_WATCH)
+        leaves = whole(dt, fi)
+        cover(ctx, f"{short} (whole body over symbolic inputs; one generic row / cell)", leaves)
+        closures = {}
+        for name, node in dt.closures.items():
+            cdt, ps, rows = closure_summary(lambda: TDT(pm, watch=MODEL_WATCH), fi, node)
+            cover(ctx, f"{short}.<locals>.{name} (closure summary over symbolic parameters)", [(v, None) for v, _r, _e in rows])
+            a = node.args
+            dflt = {}
+            names = [x.arg for x in list(a.posonlyargs) + list(a.args)]
+            for p, d in zip(names[len(names) - len(a.defaults):], a.defaults):
+                if isinstance(d, ast.Constant):
+                    dflt[p] = d.value
+            closures[name] = (cdt, ps, dflt, rows)
+        return {"fi": fi, "dt": dt, "leaves": leaves, "closures": closures}
+    return _cached(ctx, "site:" + short, make)
+
+
+def lookups_of(v, site) -> tuple[list[Lookup], list[str]]:
+    """(lookups the value may be, descriptions of alternatives that are not lookups) - a call of a summarised local closure is
+    expanded path by path with its parameters bound to the call's arguments"""
+    lk = lookup_of(v)
+    if lk is not None:
+        return [lk], []
+    if isinstance(v, CallSym) and v.recv is None and v.meth in site["closures"]:
+        cdt, ps, dflt, rows = site["closures"][v.meth]
+        binding = dict(dflt)
+        binding.update(dict(zip(ps, v.args)))
+        binding.update(dict(v.kw))
+        out, other = [], []
+        for val, ret, _eff in rows:
+            if ret is None or (isinstance(ret, Init) and ret.path in ps):
+                other.append("default" if ret is not None else "None")        # value absent -> None / the caller's default
+                continue
+            lk = lookup_of(ret)
+            if lk is None:
+                other.append(path_of(ret)[:80])
+                continue
+            name = lk.attr
+            if isinstance(name, tuple) and name[0] == "param":
+                name = binding.get(name[1])
+                name = name if isinstance(name, str) else None
+            out.append(Lookup(lk.source, name, lk.owner, _bind_lin(lk.row, binding), _bind_lin(lk.col, binding), lk.via, lk.dim, lk.row_term, lk.col_term))
+        return out, [o for o in other if o not in ("default", "None")]
+    return [], [path_of(v)[:80]]
+
+
+def _unborder(v):
+    """Border(style=x) -> x"""
+    if isinstance(v, CallSym) and v.meth == "Border":
+        return _term_arg(v, "style", 0)
+    return v
+
+
+def _enclosing_loops(node, eff, fn) -> list[tuple]:
+    """[(loop statement / comprehension, iterable, generic element)] of the generically evaluated loops and comprehensions that contain
+    `node`, outermost first"""
+    inside = [a for a in anc(node, fn) if isinstance(a, (ast.For, ast.ListComp, ast.GeneratorExp, ast.SetComp, ast.DictComp))]
+    out = []
+    for e in eff:
+        if e[0] in ("iter", "comp") and len(e) > 3 and e[3] is not None and any(e[1] is a for a in inside) and not any(e[1] is x[0] for x in out):
+            out.append((e[1], e[2], e[3]))
+    out.sort(key=lambda x: len([a for a in anc(x[0], fn)]))
+    return out
+
+
+def cell_of(v):
+    """(frame, column, row) if the term is one cell of a data frame (c05._cell, plus row tuples of `for i, row in enumerate(frame.rows())`)"""
+    if isinstance(v, SubSym) and isinstance(v.base, SubSym) and v.base.key == 1 and isinstance(v.base.base, ElemSym):
+        X = _enumerated(v.base.base)
+        X = unwrap(X) if X is not None else None
+        if isinstance(X, CallSym) and X.meth in ("rows", "iter_rows") and not X.args:
+            return X.recv, v.key, SubSym(f"{v.base.base.path}[0]", None, v.base.base, 0)
+        if X is not None:
+            return None
+    return _cell(v)
+
+
+def generic_cells(ctx: Ctx):
+    """the generic data cell(s) of TableAttributes._encode: [{v, cell, text, row, i, j, loops, ...}] per path, or an error string"""
+    site = site_analysis(ctx, "TableAttributes._encode")
+    if isinstance(site, Exception):
+        return site, f"TableAttributes._encode could not be evaluated: {site}"
+    fi, leaves = site["fi"], site["leaves"]
+    out = []
+    for v, env, eff, outcome in leaves:
+        for e in eff:
+            if e[0] == "call" and e[1] == "Cell":
+                loops = _enclosing_loops(e[5], eff, fi.node)
+                rows = [r for r in eff if r[0] == "call" and r[1] == "Row" and any(x is e[6] for x in tparts(_kwarg(r, "row_cells", 0)))]
+                out.append({"v": v, "cell": e, "loops": loops, "rows": rows, "eff": eff, "ret": _ret(outcome), "text": _kwarg(e, "text", 0), "width": _kwarg(e, "width", 1)})
+    return site, out
+
+
+def encode_index_agreement(ctx: Ctx, rule: str) -> None:
+    """TableAttributes._encode, one generic row i and one generic column j: the cell built for (i, j) shows df.row(i)[j] ('' for null,
+    else str(value)) and ends at col_widths[j]; i runs over all rows and j over all columns of the frame in order; the row's cells
+    are collected into one Row whose RTF is appended to the result."""
+    declare(ctx)
+    site, cells = generic_cells(ctx)
+    if isinstance(cells, str):
+        ctx.gap(rule, cells)
+        return
+    fi = site["fi"]
+    ps = _pos_params(fi)
+    if len(ps) < 2:
+        ctx.gap(rule, "_encode: signature (self, df, col_widths, row_offset) not recognised")
+        return
+    p_df, p_w = ps[0], ps[1]
+    if not cells:
+        ctx.gap(rule, "_encode: no construction of a Cell was re-identified on any path")
+        return
+    n_ok = 0
+    shown = set()
+    for c in cells:
+        v, e = c["v"], c["cell"]
+        where = fi.where(e[5])
+        if len(c["loops"]) != 2:
+            ctx.gap(rule, f"_encode: the cell is built inside {len(c['loops'])} generic loops (row loop and column loop expected)")
+            continue
+        (lp_i, it_i, i), (lp_j, it_j, j) = c["loops"]
+        ok = True
+        # index ranges
+        for elem, axis, what in ((i, 0, "rows"), (j, 1, "columns")):
+            fr = full_range(elem, p_df, axis)
+            if fr == "ok":
+                continue
+            ok = False
+            if fr.startswith("?"):
+                ctx.gap(rule, f"_encode: the loop over the {what} is not recognisable as range(number of {what} of `{p_df}`): {fr[1:]}")
+            else:
+                ctx.violation(rule, fi.short, f"cell/row emission: {what} {fr}"[:100], where, f"_encode does not build one {'table row per data row' if axis == 0 else 'cell per column'}: {fr}")
+        # text
+        tc = c["text"]
+        txt = _term_arg(tc, "text", 0) if isinstance(tc, CallSym) and tc.meth == "TextContent" else None
+        if txt is None and not (isinstance(tc, CallSym) and tc.meth == "TextContent" and any(k == "text" for k, _x in tc.kw)):
+            ctx.gap(rule, f"_encode: the text of the generic cell `{path_of(tc)[:50]}` could not be determined")
+            continue
+        null_atoms = {k: (dtv, val) for k, val in v.items() for dtv in [site["dt"].cmp.get(k)] if dtv is not None and dtv[0] == "is None" and cell_of(dtv[1]) is not None}
+        raw = None
+        if isinstance(txt, str):
+            hit = [(k, rec) for k, (rec, val) in null_atoms.items() if val]
+            if txt == "" and hit:
+                raw = hit[0][1][1]
+                shown_as = "'' for a null value"
+            else:
                 ok = False
-                changed = sorted(k for k in set(before) | set(after) if before.get(k) != after.get(k))
-                ctx.violation(rule, fi.short, "attrs copy", fi.where(), f"the caller's attributes are modified ({changed[:4]}): attributes are cut in place instead of on a deep copy")
-            ctx.instance(rule, fi.where(), f"column removal, {tag}: displayed {shown.cols}; widths {w!r}"[:250])
-            n_ok += ok
-    if not n_ok and not any(f.rule == rule for f in ctx.findings):
-        raise AnalysisError("no scenario could be evaluated")
+                if txt != "" and hit:
+                    ctx.violation(rule, fi.short, f"cell source null shows {txt!r}", where, f"_encode: a null value is shown as {txt!r}, expected ''")
+                else:
+                    ctx.gap(rule, f"_encode: the constant cell text {txt!r} could not be related to a null test of the cell value")
+                continue
+        else:
+            inner = txt
+            if isinstance(inner, CallSym) and inner.recv is None and inner.meth == "str" and len(inner.args) == 1:
+                inner = inner.args[0]
+                shown_as = "str(value)"
+            else:
+                shown_as = "the value itself"
+            raw = inner
+            if cell_of(raw) is None:
+                ok = False
+                ctx.gap(rule, f"_encode: the cell text `{path_of(txt)[:70]}` is not recognisable as a cell of the frame")
+                continue
+            tested = [val for k, (rec, val) in null_atoms.items() if path_of(rec[1]) == path_of(raw)]
+            if not tested:
+                frame0 = cell_of(raw)[0]
+                ok = False
+                f1 = frame0.recv if isinstance(frame0, CallSym) and frame0.meth == "fill_null" else frame0
+                if not (isinstance(f1, Init) and f1.path == p_df):
+                    ctx.gap(rule, f"_encode: the cell text `{path_of(txt)[:60]}` is read from the derived frame `{path_of(frame0)[:50]}` without a per-cell null test; whether that frame can hold nulls is not decided")
+                elif isinstance(frame0, CallSym) and frame0.meth == "fill_null":
+                    ctx.violation(rule, fi.short, "cell source: nulls resolved by " + path_of(frame0)[:60], where,
+                                  f"_encode: cell text is `{path_of(txt)[:80]}` without a per-cell null test; `{path_of(frame0)[:60]}` only fills columns whose dtype accepts the fill value, "
+                                  "so a null of a numeric/date/boolean column is rendered as the text 'None' (expected: null -> '', else str(value))")
+                else:
+                    ctx.violation(rule, fi.short, "cell source: null shown as " + path_of(txt)[:60], where,
+                                  f"_encode: cell text is `{path_of(txt)[:80]}` on a path that never tests the value for null: a null value is rendered as the text 'None' (expected '')")
+                continue
+            if any(tested):
+                ok = False
+                ctx.violation(rule, fi.short, "cell source: null polarity", where, f"_encode: the cell shows `{path_of(txt)[:60]}` exactly when the value IS null")
+                continue
+        frame, col, row = cell_of(raw)
+        key = (path_of(raw), shown_as)
+        if key not in shown:
+            shown.add(key)
+            ctx.instance(rule, where, f"_encode generic cell (i, j): text = {shown_as} of `{path_of(raw)[:70]}`; width `{path_of(c['width'])[:50]}`")
+        base_frame = frame
+        while isinstance(base_frame, CallSym) and base_frame.meth in ("fill_null", "clone", "rechunk") and isinstance(base_frame.recv, Sym):
+            base_frame = base_frame.recv
+        if not (isinstance(base_frame, Init) and base_frame.path == p_df):
+            ok = False
+            ctx.gap(rule, f"_encode: the frame `{path_of(frame)[:60]}` the cell value is read from is not the frame parameter `{p_df}`")
+        elif path_of(row) != loop_index_path(i) or path_of(col) != loop_index_path(j):
+            ok = False
+            li, lj = lin_of(row), lin_of(col)
+            if li is not None and lj is not None and (isinstance(row, (Sym, int)) and isinstance(col, (Sym, int))):
+                ctx.violation(rule, fi.short, f"cell source ({path_of(row)[:40]}, {path_of(col)[:40]})", where,
+                              f"_encode: the cell built for row `{i.path}`, column `{j.path}` shows frame cell ({path_of(row)[:50]}, {path_of(col)[:50]}) (expected df.row(i)[j])")
+            else:
+                ctx.gap(rule, f"_encode: position ({path_of(row)[:40]}, {path_of(col)[:40]}) of the value shown in cell (i, j) could not be compared with (i, j)")
+        # width
+        w = c["width"]
+        if not (isinstance(w, SubSym) and isinstance(w.base, Init) and w.base.path == p_w and path_of(w.key) == loop_index_path(j)):
+            ok = False
+            if isinstance(w, SubSym) and isinstance(w.base, Init) and w.base.path == p_w:
+                ctx.violation(rule, fi.short, f"cell source width of column {path_of(w.key)[:40]}", where, f"_encode: cell (i, j) ends at `{path_of(w)[:60]}`, not at col_widths[j]")
+            else:
+                ctx.gap(rule, f"_encode: the width `{path_of(w)[:60]}` of the generic cell is not an entry of `{p_w}`")
+        # one Row per data row, made of the row's cells, its RTF appended to the result
+        rows = c["rows"]
+        if len(rows) != 1:
+            ok = False
+            ctx.gap(rule, f"_encode: the generic cell reaches {len(rows)} Row(...) constructions (1 expected)")
+        else:
+            r = rows[0]
+            cellsv = _kwarg(r, "row_cells", 0)
+            r_loops = [x[0] for x in _enclosing_loops(r[5], c["eff"], fi.node)]
+            if isinstance(cellsv, CompSym) and cellsv.elt is e[6] and cellsv.var is j:
+                cellsv = [cellsv.elt]
+            if not (isinstance(cellsv, list) and len(cellsv) == 1 and cellsv[0] is e[6]):
+                ok = False
+                ctx.gap(rule, f"_encode: row_cells `{path_of(cellsv)[:60]}` is not the list of the row's cells in column order")
+            elif not (len(r_loops) == 1 and r_loops[0] is lp_i):
+                ok = False
+                ctx.gap(rule, "_encode: the Row is not built once per iteration of the row loop")
+            else:
+                ret = c["ret"]
+                emitted = [x for x in (ret if isinstance(ret, list) else []) if isinstance(x, CallSym) and x.meth == "_as_rtf" and x.recv is r[6]]
+                flat = [x for x in tparts(ret) if isinstance(x, CallSym) and x.meth == "_as_rtf" and x.recv is r[6]] if not emitted else emitted
+                if not flat:
+                    ok = False
+                    ctx.gap(rule, f"_encode: the RTF of the generic row does not reach the result `{path_of(ret)[:60]}`")
+                elif isinstance(ret, list) and len(ret) != 1:
+                    ok = False
+                    ctx.gap(rule, f"_encode: the result `{path_of(ret)[:80]}` holds more than the generic row's RTF")
+        n_ok += ok
+    if not n_ok and not any(f.rule == rule for f in ctx.findings) and not ctx.deferred_errors:
+        ctx.gap(rule, "_encode: no path could be verified")
 
 
-def _column_removal_structural(ctx: Ctx, rule: str) -> None:
-    """prepare_dataframe_for_body_encoding: the displayed frame, the attribute matrices and col_rel_width must be cut
-    at the positions the removed columns have in the ORIGINAL frame.  Constructs are recognised by role (tolerant of
-    container type, temporaries, helper closures, comprehension vs loop); their property-relevant attributes are then
-    verified; a construct that cannot be recognised is an analysis gap, not a violation."""
-    from ..astmatch import assignments, find, match, resolve, strip_wrappers
+def cell_width_agreement(ctx: Ctx, rule: str) -> None:
+    """R08.1(a): the right boundary of every cell that is built: col_widths[j] for the generic cell of TableAttributes._encode (data, header and
+    footnote rows all go through it), the table width it is given for the single cell of encode_spanning_row"""
+    declare(ctx)
+    site, cells = generic_cells(ctx)
+    enc = ctx.pm.func("TableAttributes._encode")
+    if isinstance(cells, str):
+        ctx.gap(rule, cells)
+    else:
+        ps = _pos_params(enc)
+        p_w = ps[1] if len(ps) > 1 else None
+        bad, n = [], 0
+        for c in cells:
+            w = c["width"]
+            n += 1
+            j = c["loops"][-1][2] if c["loops"] else None
+            if isinstance(w, SubSym) and isinstance(w.base, Init) and w.base.path == p_w and j is not None and path_of(w.key) == loop_index_path(j):
+                continue
+            if isinstance(w, SubSym) and isinstance(w.base, Init) and w.base.path == p_w or isinstance(w, (int, float)):
+                bad.append(path_of(w))
+            else:
+                ctx.gap(rule, f"TableAttributes._encode: width `{path_of(w)[:60]}` of the generic cell could not be related to `{p_w}`")
+        ctx.instance(rule, enc.where(), f"TableAttributes._encode: Cell(width=col_widths[j]) for the generic cell (i, j) on {n} path(s): {not bad}")
+        if not n:
+            ctx.gap(rule, "TableAttributes._encode: no construction of a Cell was re-identified")
+        if bad:
+            ctx.violation(rule, enc.short, "Cell width " + bad[0][:80], enc.where(), f"{enc.short}: the right boundary of cell (i, j) is `{bad[0][:80]}`, not the cumulative column width col_widths[j]")
+    sp = ctx.pm.func("RTFEncodingService.encode_spanning_row")
+    site = site_analysis(ctx, sp.short)
+    if isinstance(site, Exception):
+        ctx.gap(rule, f"encode_spanning_row could not be evaluated: {site}")
+        return
+    names = [a.arg for a in sp.node.args.args]
+    p_width = "page_width" if "page_width" in names else None
+    n = 0
+    for v, env, eff, outcome in site["leaves"]:
+        cs = [e for e in eff if e[0] == "call" and e[1] == "Cell"]
+        rs = [e for e in eff if e[0] == "call" and e[1] == "Row"]
+        if not cs and not rs:
+            continue
+        n += 1
+        ws = [_kwarg(e, "width", 1) for e in cs]
+        rc = _kwarg(rs[0], "row_cells", 0) if len(rs) == 1 else None
+        ctx.instance(rule, sp.where(), f"{sp.short}: Cell widths {[path_of(w)[:40] for w in ws]} for the table width parameter `{p_width}`")
+        if p_width is None:
+            ctx.gap(rule, "encode_spanning_row: the table width parameter (page_width) was not re-identified")
+        elif not (len(cs) == 1 and isinstance(rc, list) and len(rc) == 1 and rc[0] is cs[0][6]):
+            if len(cs) > 1 and isinstance(rc, list) and len(rc) == len(cs):
+                ctx.violation(rule, sp.short, f"Cell width {[path_of(w)[:30] for w in ws]}"[:80], sp.where(), f"{sp.short}: the spanning row is not one cell ending at the table width (cells end at {[path_of(w)[:30] for w in ws]})")
+            else:
+                ctx.gap(rule, "encode_spanning_row: the cells of the spanning row could not be determined")
+        elif not (isinstance(unwrap(ws[0]), Init) and unwrap(ws[0]).path == p_width):
+            if isinstance(ws[0], (int, float)) or (isinstance(ws[0], (OpSym, LinSym)) and p_width in roots(ws[0])) or isinstance(ws[0], (AttrSym, SubSym)):
+                ctx.violation(rule, sp.short, f"Cell width {path_of(ws[0])[:60]}", sp.where(), f"{sp.short}: the spanning row's single cell ends at `{path_of(ws[0])[:60]}`, not at the table width it was given")
+            else:
+                ctx.gap(rule, f"encode_spanning_row: cell width `{path_of(ws[0])[:50]}` could not be related to the table width parameter")
+    if not n:
+        ctx.gap(rule, "encode_spanning_row: no path building the spanning row was re-identified")
+
+
+def site_models(ctx: Ctx, short: str):
+    """[(model class, {field: term}, call effect, path valuation, loops)] for every TextContent / Cell / Row constructed at the site (all paths)"""
+    site = site_analysis(ctx, short)
+    if isinstance(site, Exception):
+        return site, []
+    out = []
+    for v, env, eff, outcome in site["leaves"]:
+        for e in eff:
+            if e[0] == "call" and e[1] in ("TextContent", "Cell", "Row"):
+                cls_fields = list(ctx.pm.all_fields(e[1])) if e[1] in ctx.pm.classes else []
+                kw = dict(zip(cls_fields, e[3]))
+                kw.update(e[4])
+                out.append((e[1], kw, e, v, eff))
+    return site, out
+
+
+# ------------------------------------------------------------------ BroadcastValue.iloc / to_list
+def broadcast_iloc(ctx: Ctx, rule: str) -> None:
+    """BroadcastValue.iloc(r, c) returns value[r % len(value)][c % len(value[0])] (scalar -> every cell, row vector -> its column,
+    matrix -> cell by cell): read off the returned term for symbolic value, r, c."""
+    declare(ctx)
+    pm = ctx.pm
+    il = pm.func("BroadcastValue.iloc")
+    ps = _pos_params(il)
+    if len(ps) < 2:
+        ctx.gap(rule, "BroadcastValue.iloc: signature (self, row_index, column_index) not recognised")
+        return
+    try:
+        dt = TDT(pm)
+        leaves = whole(dt, il)
+        cover(ctx, "BroadcastValue.iloc (whole body over a symbolic block and symbolic indices)", leaves)
+    except AnalysisError as e:
+        ctx.gap(rule, f"BroadcastValue.iloc could not be evaluated: {e}")
+        return
+    n = 0
+    for v, env, eff, outcome in leaves:
+        ret = _ret(outcome)
+        if ret is None:
+            if not any(x for k, x in v.items() if k.endswith("value is None")):
+                ctx.gap(rule, f"BroadcastValue.iloc: returns None on the path [{_fmt(v)}]")
+            continue
+        n += 1
+        ok = False
+        if isinstance(ret, SubSym) and isinstance(ret.base, SubSym):
+            block = ret.base.base
+            r = _mod_index(ret.base.key, block)
+            ckey = ret.key
+            c = None
+            if isinstance(ckey, OpSym) and ckey.op == "%" and isinstance(ckey.right, CallSym) and ckey.right.meth == "len" and ckey.right.args:
+                a0 = ckey.right.args[0]
+                if isinstance(a0, SubSym) and path_of(a0.base) == path_of(block):
+                    c = ckey.left
+            ctx.instance(rule, il.where(), f"BroadcastValue.iloc returns `{path_of(ret)[:140]}`")
+            if isinstance(block, AttrSym) and block.attr == "value" and r is not None and c is not None:
+                if isinstance(r, Init) and r.path == ps[0] and isinstance(c, Init) and c.path == ps[1]:
+                    ok = True
+                elif isinstance(r, Init) and isinstance(c, Init) and r.path == ps[1] and c.path == ps[0]:
+                    ctx.violation(rule, il.short, "modular rule", il.where(), f"BroadcastValue.iloc is no longer value[row % nrows][col % ncols]: it returns `{path_of(ret)[:120]}` (row and column index exchanged)")
+                    continue
+            if not ok and isinstance(block, AttrSym) and block.attr == "value":
+                ks = [ret.base.key, ret.key]
+                if all(isinstance(k, (Init, OpSym, LinSym, int)) for k in ks):
+                    ctx.violation(rule, il.short, "modular rule", il.where(),
+                                  f"BroadcastValue.iloc is no longer value[row % nrows][col % ncols] (scalar -> every cell, vector -> its column, matrix -> cell by cell): it returns `{path_of(ret)[:120]}`")
+                    continue
+        if not ok:
+            ctx.gap(rule, f"BroadcastValue.iloc: the returned term `{path_of(ret)[:80]}` is not recognisable as value[r % R][c % C]")
+    if not n:
+        ctx.gap(rule, "BroadcastValue.iloc: no path returning an entry was evaluated")
+
+
+@dataclass
+class Grid:
+    """abstract value of a list of rows built from the stored block V (R x C) by tiling and cutting:  entry (r, c) = V[r % R][c % C];
+    nrows / ncols: ('R'|'C') | ('mul', x, count term) | ('min', x, bound term);  rowobj: 'stored' (the stored rows themselves), 'fresh'
+    (a new list per row), 'tiled' (new lists, but repeated: rows k and k + period are the same object)"""
+    nrows: Any
+    ncols: Any
+    rowobj: str
+
+
+def _ceil_div(count, d, n) -> str:
+    """classify a repeat count against ceil(d / n): 'ceil' | 'floor' | '?'   (count may be wrapped in max(1, .))"""
+    c = count
+    if isinstance(c, CallSym) and c.recv is None and c.meth == "max" and len(c.args) == 2:
+        rest = [a for a in c.args if not (isinstance(a, int) and a <= 1)]
+        if len(rest) == 1:
+            c = rest[0]
+    if isinstance(c, OpSym) and c.op == "//" and path_of(c.right) == path_of(n):
+        num = lin_of(c.left)
+        if num == {path_of(d): 1, path_of(n): 1, "": -1}:
+            return "ceil"                 # (d + n - 1) // n
+        if num == {path_of(d): 1}:
+            return "floor"                # d // n
+    if isinstance(c, LinSym) and len(c.lin) == 1 and c.lin[0][1] == -1 and len(c.terms) == 1 and isinstance(c.terms[0], OpSym) and c.terms[0].op == "//" \
+            and path_of(c.terms[0].right) == path_of(n) and lin_of(c.terms[0].left) == {path_of(d): -1}:
+        return "ceil"                     # -(-d // n)
+    if isinstance(c, CallSym) and c.meth == "ceil" and c.args and isinstance(c.args[0], OpSym) and c.args[0].op == "/" \
+            and path_of(c.args[0].left) == path_of(d) and path_of(c.args[0].right) == path_of(n):
+        return "ceil"
+    return "?"
+
+
+def broadcast_expansion(ctx: Ctx, rule: str) -> None:
+    """BroadcastValue.to_list tiles the stored block up to the requested shape: entry (r, c) of the result is value[r % R][c % C], the
+    result has exactly the requested shape, and its rows are fresh lists (a later per-page border update writes single cells into
+    them).  The returned term of every path (symbolic block V of symbolic size R x C, symbolic dimension (d0, d1)) is interpreted in a
+    small list domain: V, [f(row) for row in G], G * n, G[:m], row * n, row[:m] -> (row count, column count, identity of the row
+    objects); the repeat counts must reach ceil(d / size)."""
+    declare(ctx)
+    ctx.assume("BroadcastValue.to_list: Python list semantics (x * n repeats the same element objects, x[:m] and comprehensions build a new outer list, row * n / row[:m] / list(row) "
+               "build a new row); block sizes R, C >= 1 (validated); paths on which `dimension is None` hand out the stored value unchanged and are not judged (every caller that "
+               "writes into the result passes a dimension); a path condition that compares the block size with the dimension is used to decide the shape on that path")
+    pm = ctx.pm
+    fi = pm.func("BroadcastValue.to_list")
+    try:
+        dt = TDT(pm)
+        leaves = whole(dt, fi)
+        cover(ctx, "BroadcastValue.to_list (whole body over a symbolic block and a symbolic dimension)", leaves)
+    except AnalysisError as e:
+        ctx.gap(rule, f"BroadcastValue.to_list could not be evaluated: {e}")
+        return
+
+    def is_block(t) -> bool:
+        return isinstance(t, AttrSym) and t.attr == "value" and isinstance(t.base, Init)
+
+    def dim_axis(t):
+        """0 / 1 if the term is dimension[0] / dimension[1]"""
+        if isinstance(t, SubSym) and isinstance(t.base, AttrSym) and t.base.attr == "dimension" and t.key in (0, 1):
+            return t.key
+        return None
+
+    def extent(t):
+        """'R' / 'C' if the term is len(value) / len(value[0])"""
+        if isinstance(t, CallSym) and t.recv is None and t.meth == "len" and len(t.args) == 1:
+            a = t.args[0]
+            if is_block(a):
+                return "R"
+            if isinstance(a, SubSym) and is_block(a.base):
+                return "C"
+        return None
+
+    class NotGrid(Exception):
+        pass
+
+    def row_of(t, var, ncols):
+        """column extent of a row expression over the generic row `var` (whose column extent is ncols); -> (ncols', fresh)"""
+        if t is var:
+            return ncols, False
+        if isinstance(t, OpSym) and t.op == "*":
+            inner, cnt = (t.left, t.right) if not isinstance(t.left, (int,)) else (t.right, t.left)
+            nc, _fresh = row_of(inner, var, ncols)
+            return ("mul", nc, cnt), True
+        if isinstance(t, SliceSym) and t.lo in (None, 0) and t.hi is not None:
+            nc, _fresh = row_of(t.base, var, ncols)
+            return ("min", nc, t.hi), True
+        if isinstance(t, CallSym) and t.recv is None and t.meth in ("list",) and len(t.args) == 1:
+            nc, _fresh = row_of(t.args[0], var, ncols)
+            return nc, True
+        if isinstance(t, CallSym) and t.meth == "copy" and not t.args:
+            nc, _fresh = row_of(t.recv, var, ncols)
+            return nc, True
+        raise NotGrid(f"row expression `{path_of(t)[:60]}`")
+
+    def grid_of(t) -> Grid:
+        if is_block(t):
+            return Grid("R", "C", "stored")
+        if isinstance(t, CompSym) and t.kind == "list" and t.elt is not None:
+            g = grid_of(t.source)
+            nc, fresh = row_of(t.elt, t.var, g.ncols)
+            return Grid(g.nrows, nc, "fresh" if fresh else g.rowobj)
+        if isinstance(t, OpSym) and t.op == "*":
+            inner, cnt = (t.left, t.right) if not isinstance(t.left, int) else (t.right, t.left)
+            g = grid_of(inner)
+            return Grid(("mul", g.nrows, cnt), g.ncols, "tiled" if g.rowobj == "fresh" else g.rowobj)
+        if isinstance(t, SliceSym) and t.lo in (None, 0) and t.hi is not None:
+            g = grid_of(t.base)
+            return Grid(("min", g.nrows, t.hi), g.ncols, g.rowobj)
+        if isinstance(t, CallSym) and t.recv is None and t.meth == "list" and len(t.args) == 1:
+            return grid_of(t.args[0])
+        if isinstance(t, CallSym) and t.recv is None and t.meth == "deepcopy" and len(t.args) == 1:
+            g = grid_of(t.args[0])
+            return Grid(g.nrows, g.ncols, "fresh")
+        raise NotGrid(f"`{path_of(t)[:70]}`")
+
+    def judge_extent(x, axis: int, facts: set, problems: list, gaps: list):
+        """the extent expression must be exactly dimension[axis]: min(size * repeats, dimension[axis]) with repeats >= ceil(dimension/size);
+        facts: comparisons of this axis' block size with dimension[axis] that hold on the path ('==', '>=', '>')"""
+        base = "R" if axis == 0 else "C"
+        name = "row_repeats" if axis == 0 else "col_repeats"
+        what = "rows" if axis == 0 else "columns"
+        cut = None
+        cur = x
+        mults = []
+        while isinstance(cur, tuple):
+            if cur[0] == "min":
+                if dim_axis(cur[2]) == axis:
+                    cut = cur[2] if cut is None else cut
+                elif dim_axis(cur[2]) is not None:
+                    problems.append(("tiling/cut", f"the {what} are cut at `{path_of(cur[2])[:40]}` (the other axis of the dimension)"))
+                    return
+                else:
+                    gaps.append(f"cut bound `{path_of(cur[2])[:40]}`")
+                    return
+            else:
+                mults.append(cur[2])
+            cur = cur[1]
+        if cur != base:
+            gaps.append(f"extent `{cur}`")
+            return
+        if not mults and ((cut is None and "==" in facts) or (cut is not None and facts & {"==", ">=", ">"})):
+            return                                  # the path condition makes the block itself large enough
+        found: list = []
+        if cut is None:
+            found.append(("tiling/cut", f"the result is not cut to dimension[{axis}] {what}: it has size * repeats {what}"))
+        elif not mults:
+            found.append((f"{name} too small", f"the block is not repeated along axis {axis} at all, so a block smaller than the table yields fewer than dimension[{axis}] {what}"))
+        elif len(mults) > 1:
+            gaps.append("several repetitions along one axis")
+            return
+        else:
+            size = next((p for p in tparts(mults[0]) if extent(p) == base), None)
+            d = next((p for p in tparts(mults[0]) if dim_axis(p) == axis), None)
+            kind = _ceil_div(mults[0], d, size) if size is not None and d is not None else "?"
+            if kind == "floor":
+                found.append((f"{name} too small", f"the repeat count `{path_of(mults[0])[:70]}` is below ceil(dimension[{axis}] / size) when the block does not divide the table"))
+            elif kind != "ceil":
+                gaps.append(f"repeat count `{path_of(mults[0])[:60]}` could not be compared with ceil(dimension[{axis}] / size)")
+                return
+        if found and facts:
+            gaps.append(f"shape along axis {axis} under the path condition (block size {sorted(facts)} dimension) not decided: {found[0][1][:80]}")
+        else:
+            problems.extend(found)
+
+    def axis_facts(v: dict, axis: int) -> set:
+        base = "R" if axis == 0 else "C"
+        flip = {ast.Lt: ast.Gt, ast.Gt: ast.Lt, ast.LtE: ast.GtE, ast.GtE: ast.LtE, ast.Eq: ast.Eq, ast.NotEq: ast.NotEq}
+        neg = {ast.Lt: ast.GtE, ast.GtE: ast.Lt, ast.Gt: ast.LtE, ast.LtE: ast.Gt, ast.Eq: ast.NotEq, ast.NotEq: ast.Eq}
+        out = set()
+        for key, val in v.items():
+            rec = dt.cmp.get(key)
+            if rec is None or rec[0] not in flip:
+                continue
+            op, l, r = rec
+            if extent(r) == base and dim_axis(l) == axis:
+                op, l, r = flip[op], r, l
+            if not (extent(l) == base and dim_axis(r) == axis):
+                continue
+            if not val:
+                op = neg[op]
+            out.add(_OPS[op])
+        return out
+
+    n = 0
+    problems: list = []
+    for v, env, eff, outcome in leaves:
+        ret = _ret(outcome)
+        none_value = any(x for k, x in v.items() if k.endswith(".value is None"))
+        none_dim = any(x for k, x in v.items() if k.endswith(".dimension is None"))
+        if ret is None or none_value:
+            continue
+        if none_dim:
+            continue                    # no shape requested: the stored value is handed out as it is (callers that write into the result pass a dimension)
+        n += 1
+        gaps: list = []
+        try:
+            g = grid_of(ret)
+        except NotGrid as e:
+            ctx.gap(rule, f"BroadcastValue.to_list: on the path [{_fmt(v)}] the result {e} is not built from the stored block by tiling (list * n, comprehension over the rows) and cutting ([:m])")
+            continue
+        here: list = []
+        judge_extent(g.nrows, 0, axis_facts(v, 0), here, gaps)
+        judge_extent(g.ncols, 1, axis_facts(v, 1), here, gaps)
+        if g.rowobj == "stored":
+            here.append(("aliased rows", "rows of the stored value itself are returned"))
+        elif g.rowobj == "tiled":
+            here.append(("aliased rows", "the same list object is returned for several rows (a list of rows repeated with `*` and only cut along the rows)"))
+        ctx.instance(rule, fi.where(), f"BroadcastValue.to_list on the path [{_fmt(v)[:100]}]: result `{path_of(ret)[:110]}` -> rows {g.rowobj}; exact shape and entry (r, c) = value[r % R][c % C]: {not here and not gaps}")
+        for x in gaps:
+            ctx.gap(rule, f"BroadcastValue.to_list: {x} on the path [{_fmt(v)[:80]}]")
+        problems.extend((k, m, _fmt(v)) for k, m in here)
+    for name in ("row_repeats too small", "col_repeats too small"):
+        lst = [p for p in problems if p[0] == name]
+        if lst:
+            ctx.violation(rule, fi.short, name, fi.where(),
+                          f"BroadcastValue.to_list tiles the block too short: {lst[0][1]}; the repeat count must be ceil(dimension/block) = (dimension + block - 1) // block; "
+                          "a block that does not divide the table is tiled too short and a later per-page border update indexes past the end (IndexError during rtf_encode)")
+    lst = [p for p in problems if p[0] == "tiling/cut"]
+    if lst:
+        ctx.violation(rule, fi.short, "tiling/cut", fi.where(), "BroadcastValue.to_list no longer tiles the block (entry (r, c) = block[r % R][c % C]) and cuts the result to exactly dimension[0] x dimension[1]: " + lst[0][1])
+    lst = [p for p in problems if p[0] == "aliased rows"]
+    if lst:
+        ctx.violation(rule, fi.short, "aliased rows", fi.where(), f"BroadcastValue.to_list returns rows that are shared list objects ({lst[0][1]}; path [{lst[0][2][:100]}]); writing one cell's border "
+                      "into the expansion then changes other rows / the stored attribute, on every page")
+    if not n:
+        ctx.gap(rule, "BroadcastValue.to_list: no path returning an expansion was evaluated")
+
+
+# ------------------------------------------------------------------ column removal (structural / dataflow)
+def _removal_sets(fn) -> set[str]:
+    """names of the collections that schedule the page_by / subline_by columns for removal (recognised by what is put into them)"""
+    from ..astmatch import leaves
+    out = set()
+    for n in ast.walk(fn):
+        if isinstance(n, ast.Call) and isinstance(n.func, ast.Attribute) and n.func.attr in ("update", "add", "extend", "append", "union") and isinstance(n.func.value, ast.Name) and n.args:
+            if any(x.endswith((".page_by", ".subline_by")) for x in leaves(n.args[0])):
+                out.add(n.func.value.id)
+        elif isinstance(n, ast.AugAssign) and isinstance(n.target, ast.Name) and any(x.endswith((".page_by", ".subline_by")) for x in leaves(n.value)):
+            out.add(n.target.id)
+        elif isinstance(n, ast.Assign) and len(n.targets) == 1 and isinstance(n.targets[0], ast.Name) and isinstance(n.value, (ast.BinOp, ast.Call, ast.Set, ast.List, ast.SetComp, ast.ListComp)) \
+                and any(x.endswith((".page_by", ".subline_by")) for x in leaves(n.value)) and not isinstance(n.value, ast.Call) or \
+                (isinstance(n, ast.Assign) and len(n.targets) == 1 and isinstance(n.targets[0], ast.Name) and isinstance(n.value, ast.Call) and dotted(n.value.func) in ("set", "frozenset", "list", "tuple")
+                 and any(x.endswith((".page_by", ".subline_by")) for x in leaves(n.value))):
+            out.add(n.targets[0].id)
+    return out or {"columns_to_remove"}
+
+
+def column_removal(ctx: Ctx, rule: str) -> None:
+    """prepare_dataframe_for_body_encoding: the displayed frame, the attribute matrices and col_rel_width must be cut at the positions
+    the removed columns have in the ORIGINAL frame.  Structural / dataflow rule: constructs are recognised by role (tolerant of
+    container type, temporaries, helper closures, comprehension vs loop) and their property-relevant attributes verified - the
+    provenance of the positions (original vs shrinking frame), the polarity of the position filters, the order of in-place
+    deletions, the column order of the displayed frame, the shape the attribute grid is expanded to, the deep copy of the
+    attributes, the order of the returned triple; a construct that cannot be recognised is an analysis gap."""
+    from ..astmatch import assignments, find, resolve, strip_wrappers
     pm = ctx.pm
     fi = pm.func("RTFEncodingService.prepare_dataframe_for_body_encoding")
     fn = fi.node
     asg = assignments(fn)
     params = [a.arg for a in fn.args.args]
     n_assign = {k: len(v) for k, v in asg.items()}
+    rm = _removal_sets(fn)
 
-    def frame_kind(e: ast.AST) -> str:
+    def mentions_rm(e: ast.AST) -> bool:
+        return any(isinstance(x, ast.Name) and x.id in rm for x in ast.walk(e))
+
+    def frame_kind(e: ast.AST, depth: int = 0) -> str:
         """'original' / 'shrinking' / '?' for an expression denoting a frame (or its column list)"""
         e = strip_wrappers(resolve(e, fn, _asg=asg))
         if isinstance(e, ast.Attribute) and e.attr == "columns":
             e = e.value
         if isinstance(e, ast.Call) and isinstance(e.func, ast.Attribute) and e.func.attr == "clone":
             e = e.func.value
-        if isinstance(e, ast.Name):
+        if isinstance(e, ast.Name) and depth < 8:
             if e.id in params and n_assign.get(e.id, 0) == 0:
                 return "original"
             if n_assign.get(e.id, 0) > 1:
                 return "shrinking"
             if n_assign.get(e.id, 0) == 1:
-                return frame_kind(asg[e.id][0])
+                return frame_kind(asg[e.id][0], depth + 1)
         return "?"
 
     # 1. positions of removed columns
@@ -565,7 +1726,7 @@ def _column_removal_structural(ctx: Ctx, rule: str) -> None:
             g = n.generators[0]
             if isinstance(g.iter, ast.Call) and dotted(g.iter.func) == "enumerate" and g.iter.args and isinstance(g.target, ast.Tuple) and len(g.target.elts) == 2 \
                     and isinstance(n.elt, ast.Name) and isinstance(g.target.elts[0], ast.Name) and n.elt.id == g.target.elts[0].id \
-                    and any("columns_to_remove" in unparse(c) for c in g.ifs):
+                    and any(mentions_rm(c) for c in g.ifs):
                 pos_sites.append((n, g.iter.args[0], "enumerate"))
     kinds = []
     for n, x, how in pos_sites:
@@ -588,7 +1749,7 @@ def _column_removal_structural(ctx: Ctx, rule: str) -> None:
                 i_name = g.target.elts[0].id if isinstance(g.target.elts[0], ast.Name) else None
                 t = g.ifs[0]
                 if i_name and isinstance(t, ast.Compare) and len(t.ops) == 1 and isinstance(t.left, ast.Name) and t.left.id == i_name \
-                        and isinstance(t.ops[0], (ast.In, ast.NotIn)) and not any("columns_to_remove" in unparse(c) for c in g.ifs):
+                        and isinstance(t.ops[0], (ast.In, ast.NotIn)) and not any(mentions_rm(c) for c in g.ifs):
                     item_ok = isinstance(n.elt, ast.Name) and isinstance(g.target.elts[1], ast.Name) and n.elt.id == g.target.elts[1].id
                     cuts += 1
                     ctx.instance(rule, fi.where(n), f"cut by position: `{unparse(n)[:90]}`")
@@ -639,9 +1800,12 @@ def _column_removal_structural(ctx: Ctx, rule: str) -> None:
                     ctx.violation(rule, fi.short, "remaining columns " + unparse(arg)[:80], fi.where(c), "the displayed columns are not taken in the frame's own column order")
                 else:
                     ctx.gap(rule, f"prepare_dataframe_for_body_encoding: column source `{unparse(src)[:60]}` of the displayed frame not recognised")
-            if len(cond) == 1 and match("_C in columns_to_remove", g.ifs[0]) is not None:
+            t = g.ifs[0] if len(g.ifs) == 1 else None
+            member = isinstance(t, ast.Compare) and len(t.ops) == 1 and isinstance(t.ops[0], (ast.In, ast.NotIn)) and isinstance(t.comparators[0], ast.Name) and t.comparators[0].id in rm \
+                and isinstance(t.left, ast.Name) and isinstance(g.target, ast.Name) and t.left.id == g.target.id
+            if member and isinstance(t.ops[0], ast.In):
                 ctx.violation(rule, fi.short, "remaining columns " + unparse(arg)[:80], fi.where(c), "the displayed frame keeps exactly the columns that should be removed")
-            elif not (len(cond) == 1 and match("_C not in columns_to_remove", g.ifs[0]) is not None):
+            elif not member:
                 ctx.gap(rule, f"prepare_dataframe_for_body_encoding: filter `{cond}` of the displayed columns not recognised")
             if not (isinstance(arg.elt, ast.Name) and isinstance(g.target, ast.Name) and arg.elt.id == g.target.id):
                 ctx.gap(rule, "prepare_dataframe_for_body_encoding: displayed-column comprehension does not yield the column itself")
@@ -658,7 +1822,6 @@ def _column_removal_structural(ctx: Ctx, rule: str) -> None:
         if isinstance(d, ast.Tuple):
             for e in d.elts:
                 if isinstance(e, ast.Name):
-                    # unpacked from X.shape ?
                     for a in walk_no_nested(fn):
                         if isinstance(a, ast.Assign) and isinstance(a.targets[0], (ast.Tuple, ast.List)) and any(isinstance(x, ast.Name) and x.id == e.id for x in a.targets[0].elts):
                             srcs.append(a.value)
@@ -699,10 +1862,20 @@ def _column_removal_structural(ctx: Ctx, rule: str) -> None:
         ctx.gap(rule, "prepare_dataframe_for_body_encoding: no store of a cut attribute recognised")
     for n, name in stores:
         vals = asg.get(name, [])
-        texts = [unparse(v) for v in vals]
-        deep = [t for t in texts if "model_copy(deep=True)" in t or "deepcopy(" in t]
-        alias = [t for t in texts if t in params or t.endswith(".model_copy()") or t.startswith("copy.copy(")]
-        ctx.instance(rule, fi.where(n), f"attribute store on `{name}` bound to {texts}")
+
+        def is_deep(v: ast.AST) -> bool:
+            return isinstance(v, ast.Call) and (dotted(v.func).split(".")[-1] == "deepcopy" or (isinstance(v.func, ast.Attribute) and v.func.attr == "model_copy"
+                                                 and any(k.arg == "deep" and isinstance(k.value, ast.Constant) and k.value.value is True for k in v.keywords)))
+
+        def is_alias(v: ast.AST) -> bool:
+            if isinstance(v, ast.Name) and v.id in params:
+                return True
+            if isinstance(v, ast.Call) and isinstance(v.func, ast.Attribute) and v.func.attr in ("model_copy", "copy") and not is_deep(v):
+                return True
+            return isinstance(v, ast.Call) and dotted(v.func) in ("copy.copy", "copy")
+        deep = [v for v in vals if is_deep(v)]
+        alias = [v for v in vals if is_alias(v)]
+        ctx.instance(rule, fi.where(n), f"attribute store on `{name}` bound to {[unparse(v)[:50] for v in vals]}")
         if name in params or (alias and not deep):
             ctx.violation(rule, fi.short, "attrs copy", fi.where(n), f"attributes are cut in place on `{name}` (the caller's object or a shallow copy of it) instead of on a deep copy")
         elif not deep:
@@ -721,135 +1894,117 @@ def _column_removal_structural(ctx: Ctx, rule: str) -> None:
             ctx.violation(rule, fi.short, "return", fi.where(r), "prepare_dataframe_for_body_encoding returns (original, reduced) instead of (reduced frame, original frame, attributes)")
 
 
-def body_section_scenarios(pm):
-    """interpret UnifiedRTFEncoder._encode_body_section for a single body whose page_by column was removed (3 pages), with and
-    without relative widths, and with an empty pagination result -> [{title, error | ret, trace, ...}]"""
-    cached = getattr(pm, "_body_section_scenarios", None)
-    if cached is not None:
-        return cached
-    fi = pm.func("UnifiedRTFEncoder._encode_body_section")
-    ps = [a.arg for a in fi.node.args.args]
-    out = []
-    cols = ["g", "a", "b"]
-    for title, with_widths, n_pages in (("relative widths set, 3 pages", True, 3), ("no relative widths, 3 pages", False, 3), ("pagination returns no page", True, 0)):
-        rec = {"title": title, "fi": fi, "with_widths": with_widths, "n_pages": n_pages, "W": _Fr(19, 2)}
-        out.append(rec)
-        if len(ps) != 4:
-            rec["error"] = "signature (self, document, df, rtf_body) not recognised"
-            continue
-        orig = Frame("original", range(6), cols)
-        red = Frame("reduced", range(6), ["a", "b"])
-        attrs = Obj("processed_attrs", cls="RTFBody", col_rel_width=[AV("w", 0, 1), AV("w", 0, 2)] if with_widths else None, page_by=["g"], subline_by=None, group_by=None)
-        body = Obj("rtf_body", cls="RTFBody", col_rel_width=[AV("w", 0, 0), AV("w", 0, 1), AV("w", 0, 2)] if with_widths else None, page_by=["g"], subline_by=None, group_by=None)
-        pages = [Obj(f"page{k}", cls="PageContext", data=Frame("original", range(2 * k, 2 * k + 2), cols)) for k in range(n_pages)]
-        # the table width is deliberately larger than the printable width: any clamp / recomputation from other page settings shows
-        doc = Obj("document", cls="RTFDocument", rtf_body=body, df=orig,
-                  rtf_page=Obj("rtf_page", cls="RTFPage", col_width=rec["W"], width=_Fr(17, 2), height=_Fr(11), margin=[1.25, 1, 1.75, 1.25, 1.75, 1.00625], orientation="portrait"))
-        markers = {"prepare_dataframe_for_body_encoding": lambda m, red=red, orig=orig, attrs=attrs: (red, orig, attrs), "get": "scalar",
-                   "paginate": lambda m, pages=pages: list(pages), "_col_widths": "scalar", "calculate_additional_rows_per_page": "scalar",
-                   "_apply_data_post_processing": "scalar", "render": "list",
-                   "process": lambda m: Obj("processed(" + (m.args[1].name if len(m.args) > 1 and isinstance(m.args[1], Obj) else "?") + ")", cls="PageContext", src=m.args[1] if len(m.args) > 1 else None)}
-        sc = Scen(pm, markers=markers)
-        df_in = Frame("df", range(6), cols)
-        rec.update(df_in=df_in, orig=orig, red=red, attrs=attrs, body=body)
-        try:
-            runs = sc.runs(fi, {ps[0]: Sym("self", fi.cls), ps[1]: doc, ps[2]: df_in, ps[3]: body})
-        except AnalysisError as e:
-            rec["error"] = str(e)
-            continue
-        if len(runs) != 1 or runs[0][1].raised:
-            rec["error"] = f"{len(runs)} paths / raises {runs[0][1].raised if runs else None}"
-            continue
-        rec["ret"], rec["trace"] = runs[0][1].ret, runs[0][1].trace
-    pm._body_section_scenarios = out
-    return out
+# ------------------------------------------------------------------ _encode_body_section: widths, frames, page order
+_SECTION_WATCH = {"prepare_dataframe_for_body_encoding", "paginate", "PaginationContext", "PageContext", "_apply_data_post_processing", "process", "render", "extend", "append",
+                  "_col_widths", "calculate_additional_rows_per_page", "get"}
+
+
+def body_section_analysis(ctx: Ctx):
+    def make():
+        pm = ctx.pm
+        fi = pm.func("UnifiedRTFEncoder._encode_body_section")
+        dt = TDT(pm, watch=_SECTION_WATCH, inline={"is_single_body"})
+        leaves = whole(dt, fi)
+        cover(ctx, "UnifiedRTFEncoder._encode_body_section (whole body over a symbolic document / frame / body; one generic page)", leaves)
+        return {"fi": fi, "dt": dt, "leaves": leaves}
+    return _cached(ctx, "body_section", make)
+
+
+def _prep_component(v):
+    """k if the term is component k of the (reduced frame, original frame, reduced attributes) triple returned by prepare_dataframe_for_body_encoding"""
+    if isinstance(v, SubSym) and isinstance(v.base, CallSym) and v.base.meth == "prepare_dataframe_for_body_encoding" and v.key in (0, 1, 2):
+        return v.key
+    return None
+
+
+def _classify_table_width(w, doc: str):
+    """'ok' | ('bad', why) | '?' for the table width handed to Utils._col_widths: rtf_page.col_width of the document being encoded (the `8.5` / `or 8.5`
+    fallbacks for an unset col_width are dead and accepted)"""
+    page_w = f"{doc}.rtf_page.col_width"
+    if isinstance(w, Sym) and w.path == page_w:
+        return "ok"
+    if isinstance(w, (int, float)) and not isinstance(w, bool):
+        return "ok" if w == 8.5 else ("bad", f"the fixed width {w}")
+    if isinstance(w, Sym):
+        ps = {p.path for p in tparts(w) if isinstance(p, AttrSym)}
+        foreign = sorted(p for p in ps if p.startswith(doc + ".rtf_page.") and p != page_w and not page_w.startswith(p))
+        if foreign or (isinstance(w, (OpSym, LinSym)) and page_w in ps) or (isinstance(w, CallSym) and w.recv is None and w.meth in ("min", "max", "sum") and (page_w in ps or foreign)):
+            return ("bad", f"`{path_of(w)[:100]}`")
+    return "?"
 
 
 def body_section_widths(ctx: Ctx, rule: str) -> None:
     """_encode_body_section: the column boundaries of the data rows are Utils._col_widths(relative widths of the DISPLAYED columns,
-    rtf_page.col_width) and that result is what pagination and rendering receive.  Decided on the interpreted scenarios; the
-    structural rule is the fallback when the function cannot be interpreted."""
-    recs = body_section_scenarios(ctx.pm)
-    scenario_note(ctx, rule, "UnifiedRTFEncoder._encode_body_section", "for every relative width entry (table width fixed at 9.5 in on an 8.5 in page)",
-                  {"frame": "6x3 with one page_by column removed", "pages": [3, 0], "relative widths": ["set", "unset"], "evaluations": 3})
-    if any("error" in r for r in recs):
-        fi = recs[0]["fi"]
-        ctx.instance(rule, fi.where(), f"_encode_body_section not interpretable ({[r['error'] for r in recs if 'error' in r][0][:120]}): structural rule applied")
+    rtf_page.col_width) and that result is what pagination and rendering receive.  Read off the symbolic evaluation of the function
+    (every path); if the function cannot be evaluated the structural rule is applied instead."""
+    declare(ctx)
+    a = body_section_analysis(ctx)
+    if isinstance(a, Exception):
+        fi = ctx.pm.func("UnifiedRTFEncoder._encode_body_section")
+        ctx.instance(rule, fi.where(), f"_encode_body_section not evaluable ({str(a)[:100]}): structural rule applied")
         _body_section_widths_structural(ctx, rule)
         return
-    for rec in recs:
-        fi = rec["fi"]
-        calls = [m for m in rec["trace"] if m.name == "_col_widths"]
-        news = {m.recv.cls: m for m in rec["trace"] if m.name == "new"}
-        carrier = news.get("PaginationContext") if rec["n_pages"] else news.get("PageContext")
-        passed = carrier.kw.get("col_widths") if carrier is not None else None
-        ctx.instance(rule, fi.where(), f"_encode_body_section ({rec['title']}): {[repr(c)[:80] for c in calls]} -> col_widths of {carrier.recv.cls if carrier else '?'}")
-        if carrier is None:
-            ctx.gap(rule, f"_encode_body_section ({rec['title']}): the pagination context / fallback page could not be re-identified")
+    fi, leaves = a["fi"], a["leaves"]
+    ps = _pos_params(fi)
+    if len(ps) < 3:
+        ctx.gap(rule, "_encode_body_section: signature (self, document, df, rtf_body) not recognised")
+        return
+    p_doc = ps[0]
+    seen = set()
+    n = 0
+    for v, env, eff, outcome in leaves:
+        calls = [e for e in eff if e[0] == "call" and e[1] == "_col_widths"]
+        carriers = [e for e in eff if e[0] == "call" and e[1] in ("PaginationContext", "PageContext") and "col_widths" in e[4]]
+        for e in carriers:
+            passed = e[4]["col_widths"]
+            if not (isinstance(passed, CallSym) and passed.meth == "_col_widths"):
+                if ("passed", path_of(passed)) not in seen:
+                    seen.add(("passed", path_of(passed)))
+                    ctx.violation(rule, fi.short, "widths not passed", fi.where(e[5]), f"`col_widths={path_of(passed)[:80]}` handed to pagination/rendering is not the result of Utils._col_widths")
+        if not calls:
+            ctx.gap(rule, f"_encode_body_section: no call of Utils._col_widths on the path [{_fmt(v)[:100]}]")
             continue
-        if not (isinstance(passed, Mark) and passed.name == "_col_widths"):
-            ctx.violation(rule, fi.short, "widths not passed", fi.where(), f"`col_widths={passed!r}`[:80] handed to pagination/rendering is not the result of Utils._col_widths ({rec['title']})")
-            continue
-        rel, w = passed.arg(0, "rel_widths"), passed.arg(1, "col_width")
-        if isinstance(w, Sym) or isinstance(rel, Sym):
-            ctx.gap(rule, f"_encode_body_section ({rec['title']}): arguments of Utils._col_widths could not be determined")
-            continue
-        if w != rec["W"]:
-            ctx.violation(rule, fi.short, "table width " + repr(w)[:60], fi.where(),
-                          f"data rows are laid out in a table width of {float(w) if isinstance(w, (int, float, _Fr)) else w!r} for rtf_page.col_width = {float(rec['W'])} "
-                          "(page width 8.5, margins 1.25/1): not the configured rtf_page.col_width that every other row uses")
-        want = [AV("w", 0, 1), AV("w", 0, 2)] if rec["with_widths"] else [1, 1]
-        if rel != want:
-            ctx.violation(rule, fi.short, "relative widths " + repr(rel)[:80], fi.where(),
-                          f"data column widths are computed from {rel!r}, not from the reduced (displayed) attributes/frame: expected {want!r} ({rec['title']})")
-
-
-def body_section_order(ctx: Ctx, rule: str) -> None:
-    """_encode_body_section: pagination works on the original frame, page data is re-cut from the reduced frame, and every
-    page is processed and rendered exactly once, in page order, the chunks concatenated in that order"""
-    scenario_note(ctx, rule, "UnifiedRTFEncoder._encode_body_section", "for every page content",
-                  {"frame": "6x3 with one page_by column removed", "pages": [3, 0], "relative widths": ["set", "unset"], "evaluations": 3})
-    for rec in body_section_scenarios(ctx.pm):
-        fi = rec["fi"]
-        if "error" in rec:
-            ctx.gap(rule, f"_encode_body_section could not be interpreted ({rec['title']}): {rec['error']}")
-            continue
-        tr = rec["trace"]
-        prep = [m for m in tr if m.name == "prepare_dataframe_for_body_encoding"]
-        ok_prep = len(prep) == 1 and len(prep[0].args) == 2 and isinstance(prep[0].args[0], Frame) and prep[0].args[0].tag == "df" and isinstance(prep[0].args[1], Obj) and prep[0].args[1].name == "rtf_body"
-        if not ok_prep:
-            ctx.violation(rule, fi.short, "frames: prepare", fi.where(), f"the section's own frame and body are not what prepare_dataframe_for_body_encoding receives: {prep!r}"[:200])
-        ret = rec["ret"]
-        if not isinstance(ret, list) or not all(isinstance(m, Mark) and m.name == "render" for m in ret):
-            ctx.gap(rule, f"_encode_body_section ({rec['title']}): result `{ret!r}`[:60] could not be traced to renderer.render calls")
-            continue
-        rendered = []
-        for m in ret:
-            pg = m.args[1] if len(m.args) > 1 else m.kw.get("page")
-            src = pg.attrs.get("src") if isinstance(pg, Obj) and "src" in pg.attrs else pg
-            rendered.append(src.name if isinstance(src, Obj) else repr(src))
-        want = [f"page{k}" for k in range(rec["n_pages"])]
-        ctx.instance(rule, fi.where(), f"_encode_body_section ({rec['title']}): pages rendered (after feature processing) {rendered}")
-        if rec["n_pages"]:
-            if rendered != want:
-                ctx.violation(rule, fi.short, "page loop", fi.where(), f"pages are not rendered in page order and concatenated: pages {want} are rendered as {rendered}")
-            if any(not (isinstance(m.args[1], Obj) and "src" in m.args[1].attrs) for m in ret if len(m.args) > 1):
-                ctx.violation(rule, fi.short, "page loop: unprocessed page", fi.where(), "a page is rendered without the feature processor's result (borders) for that page")
-            pc = [m for m in tr if m.name == "new" and m.recv.cls == "PaginationContext"]
-            post = [m for m in tr if m.name == "_apply_data_post_processing"]
-            df_ok = len(pc) == 1 and isinstance(pc[0].kw.get("df"), Frame) and pc[0].kw["df"].tag == "original"
-            post_ok = len(post) == 1 and len(post[0].args) >= 2 and isinstance(post[0].args[1], Frame) and post[0].args[1].tag == "reduced" and \
-                isinstance(post[0].args[0], list) and [p.name for p in post[0].args[0] if isinstance(p, Obj)] == want
-            ctx.instance(rule, fi.where(), f"pagination on the original frame: {df_ok}; page data re-cut from the reduced frame: {post_ok}")
-            if not (df_ok and post_ok):
-                ctx.violation(rule, fi.short, "frames", fi.where(), "pagination/rendering no longer use (original frame for grouping, reduced frame for display) consistently: "
-                              f"PaginationContext.df = {pc[0].kw.get('df') if pc else None!r}, _apply_data_post_processing{tuple(post[0].args[1:2]) if post else '()'!r}"[:300])
-        else:
-            pg = ret[0].args[1] if len(ret) == 1 and len(ret[0].args) > 1 else None
-            src = pg.attrs.get("src") if isinstance(pg, Obj) else None
-            data = src.attrs.get("data") if isinstance(src, Obj) else None
-            if len(ret) != 1 or not (isinstance(data, Frame) and data.tag == "reduced" and data.rows == list(range(6))):
-                ctx.violation(rule, fi.short, "page loop: fallback page", fi.where(), f"when pagination yields no page the whole displayed frame is not rendered as one page (rendered: {rendered}, data {data!r})")
+        if not carriers:
+            ctx.gap(rule, "_encode_body_section: the computed column widths are not seen being handed to pagination/rendering (col_widths=...)")
+        for e in calls:
+            rel, w = _kwarg(e, "rel_widths", 0), _kwarg(e, "col_width", 1)
+            key = (path_of(rel), path_of(w))
+            if key in seen:
+                continue
+            seen.add(key)
+            n += 1
+            ctx.instance(rule, fi.where(e[5]), f"_encode_body_section: Utils._col_widths(`{path_of(rel)[:90]}`, `{path_of(w)[:60]}`)")
+            k = _classify_table_width(w, p_doc)
+            if isinstance(k, tuple):
+                ctx.violation(rule, fi.short, "table width " + path_of(w)[:80], fi.where(e[5]),
+                              f"data rows are laid out in {k[1]} instead of the configured rtf_page.col_width that every other row uses")
+            elif k == "?":
+                ctx.gap(rule, f"_encode_body_section: table width `{path_of(w)[:80]}` could not be traced to rtf_page.col_width")
+            # relative widths: the reduced attributes' col_rel_width, or ones for every displayed column
+            good = False
+            if isinstance(rel, AttrSym) and rel.attr == "col_rel_width":
+                comp = _prep_component(rel.base)
+                if comp == 2:
+                    good = True
+                elif (isinstance(rel.base, Init) and rel.base.path == ps[2]) or (isinstance(rel.base, AttrSym) and rel.base.attr == "rtf_body" and p_doc in roots(rel.base)):
+                    ctx.violation(rule, fi.short, "relative widths " + path_of(rel)[:80], fi.where(e[5]),
+                                  f"data column widths are computed from `{path_of(rel)[:100]}` (all columns of the table), not from the reduced (displayed) attributes returned by prepare_dataframe_for_body_encoding")
+                    continue
+            elif isinstance(rel, OpSym) and rel.op == "*":
+                lst, cnt = (rel.left, rel.right) if isinstance(rel.left, list) else (rel.right, rel.left)
+                fs = frame_of_shape(cnt)
+                if isinstance(lst, list) and len(lst) == 1 and fs is not None and fs[1] == 1:
+                    comp = _prep_component(fs[0])
+                    if comp == 0:
+                        good = True
+                    elif comp == 1 or (isinstance(fs[0], Init) and fs[0].path == ps[1]):
+                        ctx.violation(rule, fi.short, "relative widths " + path_of(rel)[:80], fi.where(e[5]),
+                                      f"data column widths are computed from `{path_of(rel)[:100]}` (one per column of the ORIGINAL frame), not per displayed column")
+                        continue
+            if not good:
+                ctx.gap(rule, f"_encode_body_section: relative widths `{path_of(rel)[:80]}` not recognised")
+    if not n and not ctx.deferred_errors:
+        ctx.gap(rule, "_encode_body_section: no column-width computation was re-identified")
 
 
 def _body_section_widths_structural(ctx: Ctx, rule: str) -> None:
@@ -860,6 +2015,11 @@ def _body_section_widths_structural(ctx: Ctx, rule: str) -> None:
     pm = ctx.pm
     fi = pm.func("UnifiedRTFEncoder._encode_body_section")
     fn = fi.node
+    red_df = red_attrs = orig_df = None
+    for a in walk_no_nested(fn):
+        if isinstance(a, ast.Assign) and isinstance(a.targets[0], ast.Tuple) and len(a.targets[0].elts) == 3 and isinstance(a.value, ast.Call) \
+                and dotted(a.value.func).endswith("prepare_dataframe_for_body_encoding") and all(isinstance(x, ast.Name) for x in a.targets[0].elts):
+            red_df, orig_df, red_attrs = (x.id for x in a.targets[0].elts)
     calls = [c for c in walk_no_nested(fn) if isinstance(c, ast.Call) and dotted(c.func).endswith("_col_widths")]
     if not calls:
         ctx.gap(rule, "_encode_body_section: no call of Utils._col_widths recognised")
@@ -886,12 +2046,13 @@ def _body_section_widths_structural(ctx: Ctx, rule: str) -> None:
                 ctx.gap(rule, f"_encode_body_section: table width `{wt[:80]}` could not be traced to rtf_page.col_width")
         for r in alternatives(c.args[0], fn):
             rt = unparse(r)
-            ok = rt in ("processed_attrs.col_rel_width", "[1] * processed_df.shape[1]", "[1] * processed_df.width", "[1] * len(processed_df.columns)")
+            lv = leaves(r)
+            ok = red_attrs is not None and (rt == f"{red_attrs}.col_rel_width" or (isinstance(r, ast.BinOp) and isinstance(r.op, ast.Mult)
+                                                                                   and any(x.startswith(red_df + ".") or x == red_df for x in lv) and not any(x.endswith("col_rel_width") for x in lv)))
             ctx.instance(rule, fi.where(c), f"_encode_body_section: relative widths `{rt[:100]}`")
             if ok:
                 continue
-            lv = leaves(r)
-            if any(x.endswith("col_rel_width") and not x.startswith("processed_attrs.") for x in lv) or any(x.startswith(("original_df", "df.")) for x in lv):
+            if any(x.endswith("col_rel_width") and not (red_attrs and x.startswith(red_attrs + ".")) for x in lv) or any(orig_df and (x.startswith(orig_df + ".") or x == orig_df) or x.startswith("df.") for x in lv):
                 ctx.violation(rule, fi.short, "relative widths " + rt[:80], fi.where(c), f"data column widths come from `{rt[:100]}`, not from the reduced (displayed) attributes/frame")
             else:
                 ctx.gap(rule, f"_encode_body_section: relative widths `{rt[:80]}` not recognised")
@@ -904,921 +2065,275 @@ def _body_section_widths_structural(ctx: Ctx, rule: str) -> None:
             ctx.violation(rule, fi.short, "widths not passed", fi.where(), f"`col_widths={unparse(k.value)}` handed to pagination/rendering is not the result of Utils._col_widths")
 
 
-def broadcast_expansion(ctx: Ctx, rule: str) -> None:
-    """BroadcastValue.to_list tiles the stored block up to the requested shape: entry (r, c) of the result is
-    value[r % R][c % C], the result has exactly the requested shape, and its rows are fresh lists (a later per-page border
-    update writes single cells into them).  Decided by interpreting to_list on blocks that do and do not divide the shape."""
-    pm = ctx.pm
-    fi = pm.func("BroadcastValue.to_list")
-    ps = [a.arg for a in fi.node.args.args]
-    cases = [((2, 2), (5, 3)), ((1, 1), (4, 3)), ((1, 3), (4, 3)), ((3, 1), (7, 2)), ((6, 3), (4, 3)), ((4, 3), (4, 3)), ((3, 2), (3, 5)), ((2, 4), (5, 3))]
-    scenario_note(ctx, rule, "BroadcastValue.to_list", "for every entry of the block", {"(block shape, requested shape)": cases, "evaluations": len(cases)})
-    short_rows, short_cols, wrong, alias, n = [], [], [], [], 0
-    for blk, dim in cases:
-        me = Obj("bv", cls="BroadcastValue", value=matrix("m", *blk), dimension=dim)
-        stored = me.attrs["value"]
-        sc = Scen(pm)
-        try:
-            runs = sc.runs(fi, {ps[0]: me})
-        except AnalysisError as e:
-            ctx.gap(rule, f"BroadcastValue.to_list could not be interpreted on a {blk[0]}x{blk[1]} block: {e}")
+def body_section_order(ctx: Ctx, rule: str) -> None:
+    """_encode_body_section: the section's own frame and body go to prepare_dataframe_for_body_encoding; pagination works on the original
+    frame; page data is re-cut from the reduced frame; every page (one generic page of the pagination result, or the single
+    fallback page holding the whole reduced frame) is processed and rendered once, in page order, and the chunks are concatenated
+    in that order.  Read off the symbolic evaluation of the function (every path)."""
+    declare(ctx)
+    a = body_section_analysis(ctx)
+    if isinstance(a, Exception):
+        ctx.gap(rule, f"_encode_body_section could not be evaluated: {a}")
+        return
+    fi, leaves = a["fi"], a["leaves"]
+    ps = _pos_params(fi)
+    if len(ps) < 3:
+        ctx.gap(rule, "_encode_body_section: signature (self, document, df, rtf_body) not recognised")
+        return
+    p_doc, p_df, p_body = ps[0], ps[1], ps[2]
+    seen = set()
+
+    def once(kind, key, *args):
+        if (kind, key) in seen:
             return
-        if len(runs) != 1:
-            ctx.gap(rule, "BroadcastValue.to_list depends on conditions the scenario does not determine")
-            return
-        r = runs[0][1]
-        n += 1
-        tag = f"{blk[0]}x{blk[1]} block to {dim[0]}x{dim[1]}"
-        if r.raised:
-            wrong.append(f"{tag}: raises {r.raised}")
-            continue
-        out = r.ret
-        if not isinstance(out, list) or not all(isinstance(x, list) for x in out):
-            ctx.gap(rule, f"BroadcastValue.to_list: result `{out!r}`[:60] is not a list of rows")
-            return
-        if len(out) < dim[0]:
-            short_rows.append(f"{tag}: {len(out)} rows")
-        elif any(len(x) < dim[1] for x in out):
-            short_cols.append(f"{tag}: rows of {min(len(x) for x in out)} columns")
-        elif len(out) != dim[0] or any(len(x) != dim[1] for x in out):
-            wrong.append(f"{tag}: result is {len(out)}x{len(out[0]) if out else 0}")
+        seen.add((kind, key))
+        if kind == "v":
+            ctx.violation(rule, *args)
+        elif kind == "g":
+            ctx.gap(rule, *args)
         else:
-            miss = [(i, j) for i in range(dim[0]) for j in range(dim[1]) if out[i][j] != expected_entry("m", blk, i, j)]
-            if miss:
-                i, j = miss[0]
-                wrong.append(f"{tag}: entry ({i}, {j}) is {out[i][j]!r}, expected {expected_entry('m', blk, i, j)!r}")
-        ids = [id(x) for x in out]
-        if len(set(ids)) != len(ids):
-            alias.append(f"{tag}: the same list object is returned for several rows")
-        used = sc.last_args[ps[0]].attrs.get("value")           # the receiver the run worked on (arguments are copied per run)
-        if isinstance(used, list) and any(x is y for x in out for y in used):
-            alias.append(f"{tag}: rows of the stored value itself are returned")
-    ctx.instance(rule, fi.where(), f"BroadcastValue.to_list on {n} (block, shape) pairs: entry (r, c) = block[r % R][c % C], exact shape: {not (short_rows or short_cols or wrong)}; fresh rows: {not alias}")
-    for name, lst in (("row_repeats", short_rows), ("col_repeats", short_cols)):
-        if lst:
-            ctx.violation(rule, fi.short, f"{name} too small", fi.where(),
-                          f"BroadcastValue.to_list tiles the block too short ({lst[0]}): the repeat count must be ceil(dimension/block) = (dimension + block - 1) // block; "
-                          "a block that does not divide the table is tiled too short and a later per-page border update indexes past the end (IndexError during rtf_encode)")
-    if wrong:
-        ctx.violation(rule, fi.short, "tiling/cut", fi.where(), "BroadcastValue.to_list no longer tiles the block (entry (r, c) = block[r % R][c % C]) and cuts the result to exactly dimension[0] x dimension[1]: " + wrong[0])
-    if alias:
-        ctx.violation(rule, fi.short, "aliased rows", fi.where(), "BroadcastValue.to_list returns rows that are shared list objects (" + alias[0] + "); writing one cell's border into the expansion then changes other rows / the stored attribute, on every page")
-
-
-# =====================================================================================================
-# Scenario execution: a function of the table pipeline is interpreted (sa/dtab.py: the syntax tree is
-# evaluated, nothing of the repository is imported or run) on a small mock table whose rows, columns,
-# widths and attribute entries are all distinguishable.  What the function *does* with them (which rows
-# it hands on, with which offset, which attribute entry reaches which cell) is then compared with the
-# property.  This is independent of statement shape, local names, helper extraction, guard clauses,
-# loop/comprehension form...  A construct outside the interpreter's subset is an analysis gap.
-# =====================================================================================================
-from fractions import Fraction as _Fr
-
-from ..dtab import DT, NeedAtom, Sym, Unsupported, _Raise
-
-
-class Frame:
-    """mock of a polars DataFrame: an ordered window of row ids over named, typed columns"""
-
-    def __init__(self, tag, rows, cols, dtypes=None, nulls=(), filled=None):
-        self.tag, self.rows, self.cols = tag, list(rows), list(cols)
-        self.dtypes = dict(dtypes or {})
-        self.nulls = frozenset(nulls)
-        self.filled = dict(filled or {})
-
-    def derive(self, **kw):
-        d = dict(tag=self.tag, rows=self.rows, cols=self.cols, dtypes=self.dtypes, nulls=self.nulls, filled=self.filled)
-        d.update(kw)
-        return Frame(**d)
-
-    def value(self, r, c):
-        if (r, c) in self.nulls:
-            return self.filled.get(c)
-        if self.dtypes.get(c, "str") == "num":
-            return 1000 * (r + 1) + self.cols.index(c) if c in self.cols else 1000 * (r + 1)
-        return f"{self.tag}<{r},{c}>"
-
-    def row(self, i):
-        return tuple(self.value(self.rows[i], c) for c in self.cols)
-
-    def __len__(self):
-        return len(self.rows)
-
-    def __bool__(self):
-        return True
-
-    def __repr__(self):
-        return f"<{self.tag} rows={self.rows} cols={self.cols}>"
-
-
-class Obj:
-    """mock object: a bag of attributes (optionally an instance of a repository class whose methods are interpreted)"""
-
-    def __init__(self, name, cls=None, default=None, **attrs):
-        self.name, self.cls, self.default, self.attrs = name, cls, default, dict(attrs)
-
-    def __repr__(self):
-        return f"<{self.cls or 'obj'} {self.name}>"
-
-
-class AV:
-    """a distinguishable attribute entry: (attribute name, row, column) of the matrix it was taken from"""
-    __slots__ = ("name", "r", "c")
-
-    def __init__(self, name, r, c):
-        self.name, self.r, self.c = name, r, c
-
-    def __eq__(self, o):
-        return isinstance(o, AV) and (self.name, self.r, self.c) == (o.name, o.r, o.c)
-
-    def __hash__(self):
-        return hash((self.name, self.r, self.c))
-
-    def __repr__(self):
-        return f"{self.name}[{self.r}][{self.c}]"
-
-
-class Mark:
-    """result of a call that is not interpreted (an emitter or an external service): callee, receiver, arguments"""
-
-    def __init__(self, name, recv, args, kw):
-        self.name, self.recv, self.args, self.kw = name, recv, list(args), dict(kw)
-
-    def arg(self, i, name=None, default=None):
-        if name is not None and name in self.kw:
-            return self.kw[name]
-        return self.args[i] if i is not None and i < len(self.args) else default
-
-    def __repr__(self):
-        return f"«{self.name}({', '.join([repr(a) for a in self.args] + [f'{k}={v!r}' for k, v in self.kw.items()])})»"
-
-    __str__ = __repr__
-
-
-class Splat:
-    """`acc.extend(x)` where x is not a concrete sequence"""
-
-    def __init__(self, v):
-        self.v = v
-
-    def __repr__(self):
-        return f"*{self.v!r}"
-
-
-class MSet:
-    """mock of a set: membership semantics of a set, iteration in insertion order or (order='reverse') in the opposite
-    order - a Python set of strings iterates in an arbitrary order, so code must be right for both"""
-
-    def __init__(self, items=(), order="insertion"):
-        self.items, self.order = [], order
-        for x in items:
-            self.add(x)
-
-    def add(self, x):
-        if x not in self.items:
-            self.items.append(x)
-
-    def update(self, *others):
-        for o in others:
-            for x in (o.seq() if isinstance(o, MSet) else list(o)):
-                self.add(x)
-
-    def discard(self, x):
-        if x in self.items:
-            self.items.remove(x)
-
-    def remove(self, x):
-        if x not in self.items:
-            raise KeyError(x)
-        self.items.remove(x)
-
-    def seq(self):
-        return list(self.items) if self.order == "insertion" else list(reversed(self.items))
-
-    def copy(self):
-        return MSet(self.items, self.order)
-
-    def __contains__(self, x):
-        return x in self.items
-
-    def __len__(self):
-        return len(self.items)
-
-    def __iter__(self):
-        return iter(self.seq())
-
-    def __eq__(self, o):
-        return isinstance(o, MSet) and sorted(map(repr, self.items)) == sorted(map(repr, o.items))
-
-    def __hash__(self):
-        return 0
-
-    def __repr__(self):
-        return "{" + ", ".join(repr(x) for x in self.seq()) + "}"
-
-
-class TypeOf:
-    def __init__(self, obj):
-        self.obj = obj
-
-
-def matrix(name, nrow, ncol):
-    return [[AV(name, r, c) for c in range(ncol)] for r in range(nrow)]
-
-
-def nested_list_form(v):
-    """model of attributes._to_nested_list (BroadcastValue's `value` validator)"""
-    if v is None or isinstance(v, Sym):
-        return v
-    if isinstance(v, Frame):
-        return [list(v.row(i)) for i in range(len(v))]
-    if isinstance(v, tuple):
-        return [[x] for x in v]
-    if isinstance(v, list):
-        if all(isinstance(x, list) for x in v):
-            return v
-        return [v]
-    return [[v]]
-
-
-class Scen(DT):
-    """dtab interpreter extended with mock frames/objects, concrete comprehensions, record-keeping constructors and
-    uninterpreted `marker` calls.  markers: {method name: 'list' | 'scalar'}"""
-
-    def __init__(self, pm, markers=None, fixed=None, frame_passthrough=(), set_order="insertion", **kw):
-        super().__init__(pm, **kw)
-        self.set_order = set_order
-        self.markers = dict(markers or {})
-        self.fixed_src = dict(fixed or {})
-        self.fixed = {}
-        self.frame_passthrough = set(frame_passthrough)
-        self.trace = []
-
-    # ---- runs
-    def run(self, fi, args, valuation):
-        import copy
-        self.fixed = copy.deepcopy(self.fixed_src)
-        self.trace = []
-        self.last_args = copy.deepcopy(args)
-        r = super().run(fi, self.last_args, valuation)
-        r.trace = self.trace
-        return r
-
-    def runs(self, fi, args, limit=512):
-        """[(valuation, Run)] over every valuation of the undetermined conditions; Unsupported if outside the subset"""
-        try:
-            return self.table(fi, args, limit=limit)
-        except (Unsupported, NeedAtom):
-            raise
-        except RecursionError as e:
-            raise Unsupported(f"recursion while interpreting {fi.short}") from e
-        except (TypeError, ValueError, KeyError, IndexError, AttributeError, ZeroDivisionError) as e:
-            raise Unsupported(f"{fi.short}: operation outside the interpreter's model ({type(e).__name__}: {str(e)[:80]})") from e
-
-    # ---- values
-    def concrete(self, v):
-        if isinstance(v, Sym) and v.path in self.fixed and v.path not in self.stores:
-            return self.fixed[v.path]
-        return super().concrete(v)
-
-    def truth(self, v):
-        v = self.concrete(v)
-        if isinstance(v, (Frame, Obj, AV, Mark)):
-            return True
-        return super().truth(v)
-
-    def _fix(self, v):
-        if isinstance(v, Sym) and v.path in self.fixed and v.path not in self.stores:
-            return self.fixed[v.path]
-        return v
-
-    def ev_Name(self, n, env):
-        return self._fix(super().ev_Name(n, env))
-
-    def _with_base(self, base, env, fn):
-        old = env.get("__base__", self)
-        env["__base__"] = base
-        try:
-            return fn(ast.Name(id="__base__", ctx=ast.Load()))
-        finally:
-            if old is self:
-                env.pop("__base__", None)
-            else:
-                env["__base__"] = old
-
-    def ev_Attribute(self, n, env):
-        base = self.ev(n.value, env)
-        return self.attr_of(base, n.attr, n, env)
-
-    def attr_of(self, base, attr, n, env):
-        if isinstance(base, Obj):
-            if attr in base.attrs:
-                return base.attrs[attr]
-            if base.default is not None:
-                v = base.default(attr)
-                if v is not NotImplemented:
-                    base.attrs[attr] = v
-                    return v
-            if base.cls and self.pm.find_method(base.cls, attr):
-                return ("bound", base, attr)
-            return self._fix(Sym(f"{base.name}.{attr}"))
-        if isinstance(base, TypeOf):
-            o = base.obj
-            if attr == "model_fields" and isinstance(o, Obj) and o.cls:
-                return {f: None for f in self.pm.all_fields(o.cls)}
-            if attr == "__name__" and isinstance(o, Obj) and o.cls:
-                return o.cls
-            raise Unsupported(f"type(...).{attr}")
-        if isinstance(base, MSet):
-            return ("method", base, attr)
-        if isinstance(base, Frame):
-            if attr == "shape":
-                return (len(base.rows), len(base.cols))
-            if attr == "height":
-                return len(base.rows)
-            if attr == "width":
-                return len(base.cols)
-            if attr == "columns":
-                return list(base.cols)
-            return ("framemethod", base, attr)
-        if isinstance(base, (list, tuple, dict, str, Mark, AV, int, float, _Fr)) and not (isinstance(base, tuple) and len(base) == 2 and base[0] in ("class", "func")):
-            if isinstance(base, dict) and attr in ("get", "items", "keys", "values", "copy", "update"):
-                return ("dictmethod", base, attr)
-            return ("method", base, attr)
-        node = ast.Attribute(value=None, attr=attr, ctx=ast.Load())
-
-        def go(nm):
-            node.value = nm
-            return super(Scen, self).ev_Attribute(node, env)
-        return self._fix(self._with_base(base, env, go))
-
-    def ev_Subscript(self, n, env):
-        base = self.concrete(self.ev(n.value, env))
-        if isinstance(base, Frame):
-            if isinstance(n.slice, ast.Slice):
-                lo = self.concrete(self.ev(n.slice.lower, env)) if n.slice.lower else None
-                hi = self.concrete(self.ev(n.slice.upper, env)) if n.slice.upper else None
-                st = self.concrete(self.ev(n.slice.step, env)) if n.slice.step else None
-                if any(isinstance(x, Sym) for x in (lo, hi, st)):
-                    raise Unsupported("frame slice with undetermined bounds: " + unparse(n))
-                return base.derive(rows=base.rows[lo:hi:st])
-            k = self.concrete(self.ev(n.slice, env))
-            if isinstance(k, tuple) and len(k) == 2 and all(isinstance(x, int) for x in k):
-                return base.value(base.rows[k[0]], base.cols[k[1]])
-            raise Unsupported("frame subscript " + unparse(n))
-
-        def go(nm):
-            return super(Scen, self).ev_Subscript(ast.Subscript(value=nm, slice=n.slice, ctx=ast.Load()), env)
-        return self._with_base(base, env, go)
-
-    def ev_NamedExpr(self, n, env):
-        v = self.ev(n.value, env)
-        e = env
-        while e is not None:
-            e[n.target.id] = v
-            e = e.get("__outer__")
-        return v
-
-    def ev_Set(self, n, env):
-        return MSet([self.ev(e, env) for e in n.elts], self.set_order)
-
-    def ev_Starred(self, n, env):
-        raise Unsupported("starred expression " + unparse(n))
-
-    def _elts(self, elts, env):
-        out = []
-        for e in elts:
-            if isinstance(e, ast.Starred):
-                v = self.concrete(self.ev(e.value, env))
-                if isinstance(v, MSet):
-                    v = v.seq()
-                if isinstance(v, (list, tuple, range)):
-                    out.extend(v)
+            ctx.instance(rule, *args)
+    n_loop = n_fallback = n_post = 0
+    for v, env, eff, outcome in leaves:
+        prep = [e for e in eff if e[0] == "call" and e[1] == "prepare_dataframe_for_body_encoding"]
+        if len(prep) != 1:
+            once("g", "prep", f"_encode_body_section: {len(prep)} calls of prepare_dataframe_for_body_encoding on a path (1 expected)")
+            continue
+        pa = prep[0][3]
+        if not (len(pa) >= 2 and isinstance(pa[0], Init) and pa[0].path == p_df and isinstance(pa[1], Init) and pa[1].path == p_body):
+            once("v", "frames: prepare", fi.short, "frames: prepare", fi.where(prep[0][5]),
+                 f"the section's own frame and body are not what prepare_dataframe_for_body_encoding receives: ({', '.join(path_of(x)[:40] for x in pa)})")
+        ret = _ret(outcome)
+        renders = [e for e in eff if e[0] == "call" and e[1] == "render"]
+        spans = [sp for sp in loop_spans(eff) if any(x[0] == "call" and x[1] == "render" for x in _flat(sp))]
+        pcs = [e for e in eff if e[0] == "call" and e[1] == "PaginationContext"]
+        pag = [e for e in eff if e[0] == "call" and e[1] == "paginate"]
+        post = [e for e in eff if e[0] == "call" and e[1] == "_apply_data_post_processing"]
+        n_post += len(post)
+        if spans:
+            # the generic page of the pagination result
+            sp = spans[0]
+            n_loop += 1
+            it = sp["it"]
+            src = it.args[0] if isinstance(it, CallSym) and it.recv is None and it.meth == "enumerate" and it.args else it
+            if not (isinstance(src, CallSym) and src.meth == "paginate"):
+                if isinstance(src, CallSym) and src.recv is None and src.meth in ("reversed", "sorted"):
+                    once("v", "page loop", fi.short, "page loop", fi.where(sp["loop"]), f"pages are not rendered in page order: the page loop iterates `{path_of(src)[:60]}`")
                 else:
-                    out.append(Splat(v))
+                    once("g", "loopsrc", f"_encode_body_section: the page loop iterates `{path_of(src)[:60]}`, not recognisably the pagination result in order")
+                continue
+            elem = sp["elem"]
+            rs = [x for x in _flat(sp) if x[0] == "call" and x[1] == "render"]
+            prs = [x for x in _flat(sp) if x[0] == "call" and x[1] == "process"]
+            good = len(rs) == 1
+            if good:
+                pg = _kwarg(rs[0], "page", 1)
+                if not any(x is elem for x in tparts(pg)):          # the page itself or the feature processor's result for it (borders are C07's subject)
+                    good = False
+                    once("v", "page loop", fi.short, "page loop", fi.where(rs[0][5]), f"the page loop does not render its own page: renderer.render receives `{path_of(pg)[:60]}`")
+                acc = [x for x in _flat(sp) if x[0] == "call" and x[1] in ("extend", "append", "augAdd") and x[3] and any(y is rs[0][6] for y in tparts(x[3][0]))]
+                if good and not acc:
+                    good = False
+                    once("g", "acc", "_encode_body_section: the rendered chunks of a page are not seen being appended to the section's result")
+                elif good and not (isinstance(ret, list) and any(y is rs[0][6] for y in tparts(ret))):
+                    good = False
+                    once("g", "ret", f"_encode_body_section: the result `{path_of(ret)[:60]}` is not the accumulated chunks of the pages")
             else:
-                out.append(self.ev(e, env))
-        return out
-
-    def ev_List(self, n, env):
-        return self._elts(n.elts, env)
-
-    def ev_Tuple(self, n, env):
-        return tuple(self._elts(n.elts, env))
-
-    # ---- comprehensions (concrete when the iterables are)
-    def _comp(self, gens, env, emit):
-        def rec(i, e):
-            if i == len(gens):
-                emit(e)
-                return True
-            g = gens[i]
-            it = self.concrete(self.ev(g.iter, e))
-            if isinstance(it, dict):
-                it = list(it)
-            if isinstance(it, MSet):
-                it = it.seq()
-            if not isinstance(it, (list, tuple, range)):
-                return False
-            for x in list(it):
-                e2 = dict(e)
-                e2["__outer__"] = e
-                self.assign(g.target, x, e2)
-                if all(self.truth(self.ev(c, e2)) for c in g.ifs):
-                    if not rec(i + 1, e2):
-                        return False
-            return True
-        return rec(0, env)
-
-    def ev_ListComp(self, n, env):
-        out = []
-        if self._comp(n.generators, env, lambda e: out.append(self.ev(n.elt, e))):
-            return out
-        return super().ev_ListComp(n, env)
-
-    ev_GeneratorExp = ev_ListComp
-
-    def ev_SetComp(self, n, env):
-        out = []
-        if self._comp(n.generators, env, lambda e: out.append(self.ev(n.elt, e))):
-            return MSet(out, self.set_order)
-        return Sym(f"{{{unparse(n)[:40]}}}")
-
-    def ev_DictComp(self, n, env):
-        out = {}
-
-        def emit(e):
-            out[self.concrete(self.ev(n.key, e))] = self.ev(n.value, e)
-        if self._comp(n.generators, env, emit):
-            return out
-        return super().ev_DictComp(n, env)
-
-    # ---- assignment to mock objects
-    def assign(self, t, v, env):
-        if isinstance(t, ast.Attribute):
-            base = self.ev(t.value, env)
-            if isinstance(base, Obj):
-                base.attrs[t.attr] = v
-                self.trace.append(Mark("store", base, [t.attr, v], {}))
-                return
-
-            def go(nm):
-                return super(Scen, self).assign(ast.Attribute(value=nm, attr=t.attr, ctx=ast.Store()), v, env)
-            return self._with_base(base, env, go)
-        return super().assign(t, v, env)
-
-    def stmt(self, s, env):
-        if isinstance(s, ast.For):
-            it = self.concrete(self.ev(s.iter, env))
-            if isinstance(it, MSet):
-                it = it.seq()
-            elif isinstance(it, Mark):
-                raise Unsupported("iteration over the result of an uninterpreted call: " + unparse(s.iter)[:60])
-            key = f"__iter{id(s)}__"
-            env[key] = it
-            try:
-                return super().stmt(ast.For(target=s.target, iter=ast.Name(id=key, ctx=ast.Load()), body=s.body, orelse=[], lineno=getattr(s, "lineno", 0)), env)
-            finally:
-                env.pop(key, None)
-        if isinstance(s, ast.Delete):
-            for t in s.targets:
-                if isinstance(t, ast.Subscript):
-                    base = self.concrete(self.ev(t.value, env))
-                    k = self.concrete(self.ev(t.slice, env))
-                    if isinstance(base, (list, dict)) and not isinstance(k, Sym):
-                        del base[k]
-                        continue
-                raise Unsupported("del " + unparse(t))
-            return
-        if isinstance(s, ast.While):
-            n = 0
-            from ..dtab import _Break, _Continue
-            try:
-                while self.truth(self.ev(s.test, env)):
-                    n += 1
-                    if n > 200:
-                        raise Unsupported("while loop does not terminate on the scenario")
-                    try:
-                        self.block(s.body, env)
-                    except _Continue:
-                        continue
-            except _Break:
-                pass
-            return
-        return super().stmt(s, env)
-
-    # ---- calls
-    def _args(self, n, env):
-        args = []
-        for a in n.args:
-            if isinstance(a, ast.Starred):
-                v = self.concrete(self.ev(a.value, env))
-                if not isinstance(v, (list, tuple)):
-                    raise Unsupported("*args of an undetermined value: " + unparse(n)[:60])
-                args.extend(v)
-            else:
-                args.append(self.ev(a, env))
-        kw = {}
-        for k in n.keywords:
-            if k.arg:
-                kw[k.arg] = self.ev(k.value, env)
-            else:
-                d = self.concrete(self.ev(k.value, env))
-                if not isinstance(d, dict):
-                    raise Unsupported("**kwargs of an undetermined value: " + unparse(n)[:60])
-                kw.update(d)
-        return args, kw
-
-    def mark(self, name, recv, args, kw):
-        m = Mark(name, recv, args, kw)
-        self.trace.append(m)
-        kind = self.markers.get(name)
-        if callable(kind):
-            return kind(m)
-        if kind == "self":
-            return recv
-        return [m] if kind == "list" else m
-
-    def construct(self, cname, args, kw, n):
-        ci = self.pm.classes.get(cname)
-        if args and ci is not None:
-            names = [f for f in self.pm.all_fields(cname)]
-            for f, v in zip(names, args):
-                kw.setdefault(f, v)
-        if cname == "BroadcastValue":
-            kw["value"] = nested_list_form(self.concrete(kw.get("value")))
-            kw.setdefault("dimension", None)
-        o = Obj(f"{cname}#{len(self.trace)}", cls=cname)
-        o.attrs = dict(kw)
-        self.trace.append(Mark("new", o, [], kw))
-        return o
-
-    def call_closure(self, clo, args, n, env):
-        _, node, cenv = clo
-        e2 = dict(cenv)
-        a = node.args
-        ps = [x.arg for x in list(a.posonlyargs) + list(a.args)]
-        dflt = dict(zip(ps[len(ps) - len(a.defaults):], a.defaults))
-        kw = {}
-        if isinstance(n, ast.Call):
-            for k in n.keywords:
-                if k.arg:
-                    kw[k.arg] = self.ev(k.value, env)
-        for i, p in enumerate(ps):
-            if i < len(args):
-                e2[p] = args[i]
-            elif p in kw:
-                e2[p] = kw[p]
-            elif p in dflt:
-                e2[p] = self.ev(dflt[p], cenv)
-        for p, d in zip(a.kwonlyargs, a.kw_defaults):
-            e2[p.arg] = kw[p.arg] if p.arg in kw else (self.ev(d, cenv) if d is not None else Sym(p.arg))
-        if isinstance(node, ast.Lambda):
-            return self.ev(node.body, e2)
-        from ..dtab import _Return
-        try:
-            self.block(node.body, e2)
-        except _Return as r:
-            return r.v
-        return None
-
-    def _invoke(self, fi, recv, args, kw, n, env):
-        if fi.is_static or fi.is_classmethod:
-            a = fi.node.args
-            ps = [x.arg for x in list(a.posonlyargs) + list(a.args)]
-            if fi.is_classmethod and ps:
-                ps = ps[1:]
-            bound = dict(zip(ps, args))
-            bound.update(kw)
-            return self.call_fi(fi, bound)
-        return self.invoke(fi, recv, args, n, env, kw)
-
-    _NATIVE = {"accumulate", "chain", "enumerate", "zip", "sum", "sorted", "reversed", "list", "tuple", "set", "frozenset", "abs", "round", "divmod", "dict", "min", "max", "float", "int", "str", "len", "range", "any", "all", "bool", "repr"}
-
-    def ev_Call(self, n, env):
-        f = n.func
-        if isinstance(f, ast.Name):
-            nm = f.id
-            tgt = env.get(nm)
-            if isinstance(tgt, (Mark, Sym)) or (isinstance(tgt, tuple) and len(tgt) == 2 and tgt[0] in ("class", "func")):
-                args, kw = self._args(n, env)
-                if isinstance(tgt, tuple):
-                    return self.construct(tgt[1].name, args, kw, n) if tgt[0] == "class" else self._invoke(tgt[1], None, args, kw, n, env)
-                return self.mark("()", tgt, args, kw)
-            if nm == "type" and len(n.args) == 1 and nm not in env:
-                return TypeOf(self.concrete(self.ev(n.args[0], env)))
-            if tgt is None and nm not in env:
-                fi = env.get("__fi__")
-                r = self.pm.resolve(fi.module, nm) if fi else None
-                if r and r[0] == "class":
-                    args, kw = self._args(n, env)
-                    return self.construct(r[1].name, args, kw, n)
-                if nm in self.markers:
-                    args, kw = self._args(n, env)
-                    return self.mark(nm, None, args, kw)
-                if r and r[0] == "func":
-                    args, kw = self._args(n, env)
-                    return self._invoke(r[1], None, args, kw, n, env)
-                if nm in self._NATIVE:
-                    args, kw = self._args(n, env)
-                    args = [self.concrete(a) for a in args]
-                    got = self.native(nm, args, kw, n)
-                    if got is not NotImplemented:
-                        return got
-                    return self._super_call(n, env, args, kw)       # dtab's symbolic treatment, without re-evaluating the arguments
-                if nm == "isinstance" and len(n.args) == 2:
-                    v = self.concrete(self.ev(n.args[0], env))
-                    names = [x.id if isinstance(x, ast.Name) else x.attr for x in ast.walk(n.args[1]) if isinstance(x, (ast.Name, ast.Attribute))]
-                    if isinstance(v, Frame):
-                        return "DataFrame" in names
-                    if isinstance(v, Obj):
-                        return bool(v.cls) and any(c in names for c in self.pm.mro(v.cls))
-                    if isinstance(v, (AV, Mark)):
-                        raise Unsupported("isinstance of an opaque mock value")
-                    if isinstance(v, _Fr):
-                        return any(x in names for x in ("float", "int"))
-                if nm == "getattr" and len(n.args) in (2, 3):
-                    o = self.concrete(self.ev(n.args[0], env))
-                    k = self.concrete(self.ev(n.args[1], env))
-                    if isinstance(o, Obj) and isinstance(k, str):
-                        v = self.attr_of(o, k, n, env)
-                        if isinstance(v, Sym) and len(n.args) == 3 and o.default is None and k not in o.attrs:
-                            return self.ev(n.args[2], env)
-                        return v
-                    if isinstance(o, Sym) and isinstance(k, str):
-                        return self.attr_of(o, k, n, env)
-                if nm == "setattr" and len(n.args) == 3:
-                    o = self.concrete(self.ev(n.args[0], env))
-                    k = self.concrete(self.ev(n.args[1], env))
-                    if isinstance(o, Obj) and isinstance(k, str):
-                        v = self.ev(n.args[2], env)
-                        o.attrs[k] = v
-                        self.trace.append(Mark("store", o, [k, v], {}))
-                        return None
-                if nm == "hasattr" and len(n.args) == 2:
-                    o = self.concrete(self.ev(n.args[0], env))
-                    k = self.concrete(self.ev(n.args[1], env))
-                    if isinstance(o, Obj) and isinstance(k, str):
-                        return k in o.attrs or o.default is not None or bool(o.cls and (self.pm.field_decl(o.cls, k) is not None or self.pm.find_method(o.cls, k)))
-                    if isinstance(o, (Frame, list, tuple, dict, str, int, float, _Fr)) and isinstance(k, str):
-                        return k in ("columns", "shape", "height", "width") if isinstance(o, Frame) else hasattr(o, k)
-                if nm in ("deepcopy", "copy"):
-                    import copy
-                    v = self.concrete(self.ev(n.args[0], env))
-                    if not isinstance(v, Sym):
-                        return copy.deepcopy(v) if nm == "deepcopy" else copy.copy(v)
-            return super().ev_Call(n, env)
-        if isinstance(f, ast.Attribute):
-            m = f.attr
-            base = self.ev(f.value, env)
-            return self.call_method(base, m, n, env)
-        return super().ev_Call(n, env)
-
-    def _super_call(self, n, env, args, kw):
-        names = []
-        call = ast.Call(func=n.func, args=[], keywords=[])
-        for i, a in enumerate(args):
-            k = f"__arg{len(env)}_{i}__"
-            env[k] = a
-            names.append(k)
-            call.args.append(ast.Name(id=k, ctx=ast.Load()))
-        for kk, v in kw.items():
-            k = f"__kw{len(env)}_{kk}__"
-            env[k] = v
-            names.append(k)
-            call.keywords.append(ast.keyword(arg=kk, value=ast.Name(id=k, ctx=ast.Load())))
-        try:
-            return super().ev_Call(call, env)
-        finally:
-            for k in names:
-                env.pop(k, None)
-
-    def native(self, nm, args, kw, n):
-        if any(isinstance(a, Sym) for a in args) or any(isinstance(v, Sym) for v in kw.values()):
-            return NotImplemented
-        if nm == "len" and args and isinstance(args[0], (list, tuple, dict, str, range, Frame)):
-            return len(args[0])
-        if nm in ("accumulate", "chain"):
-            its = [list(a) if isinstance(a, (list, tuple, range)) else a.seq() if isinstance(a, MSet) else None for a in args]
-            if any(i is None for i in its) or (nm == "accumulate" and (len(args) != 1 or set(kw) - {"initial"})):
-                return NotImplemented
-            if nm == "chain":
-                return [x for i in its for x in i]
-            if any(not isinstance(x, (int, float, _Fr)) for x in its[0]):
-                return NotImplemented
-            out, acc = [], kw.get("initial")
-            if acc is not None:
-                out.append(acc)
-            for x in its[0]:
-                acc = x if acc is None else acc + x
-                out.append(acc)
-            return out
-        if nm in ("list", "tuple", "set", "frozenset", "sorted", "reversed", "enumerate", "zip", "sum", "any", "all", "min", "max") and args:
-            its = [list(a) if isinstance(a, (list, tuple, range, dict)) else a.seq() if isinstance(a, MSet) else None for a in args]
-            if nm in ("min", "max") and len(args) > 1:
-                if any(isinstance(a, (Frame, Obj, AV, Mark, list, dict)) for a in args):
-                    return NotImplemented
-                return (min if nm == "min" else max)(args)
-            if nm == "sum" and its[0] is not None:
-                if any(isinstance(x, (Sym, AV, Mark, Obj)) for x in its[0]):
-                    return NotImplemented
-                return sum(its[0], *args[1:])
-            if nm == "zip":
-                if any(i is None for i in its):
-                    return NotImplemented
-                if kw.get("strict") and len({len(i) for i in its}) > 1:
-                    raise _Raise("ValueError zip(strict=True) of unequal lengths")
-                return [tuple(x) for x in zip(*its)]
-            if its[0] is None:
-                return NotImplemented
-            if nm == "enumerate":
-                return [tuple(x) for x in enumerate(its[0], *(args[1:2] or [kw.get("start", 0)]))]
-            if nm == "list":
-                return list(its[0])
-            if nm in ("tuple", "set", "frozenset"):
-                return tuple(its[0]) if nm == "tuple" else MSet(its[0], self.set_order)
-            if nm == "reversed":
-                return list(reversed(its[0]))
-            if nm == "sorted":
-                if "key" in kw or any(isinstance(x, (Sym, AV, Mark, Obj)) for x in its[0]):
-                    return NotImplemented
-                return sorted(its[0], reverse=bool(kw.get("reverse", False)))
-            if nm in ("any", "all"):
-                return (any if nm == "any" else all)(self.truth(x) for x in its[0])
-        if nm in ("list", "tuple", "dict") and not args:
-            return {"list": [], "tuple": (), "dict": dict(kw)}[nm]
-        if nm in ("set", "frozenset") and not args:
-            return MSet((), self.set_order)
-        if nm == "len" and args and isinstance(args[0], MSet):
-            return len(args[0])
-        if nm == "dict" and args and isinstance(args[0], dict):
-            return {**args[0], **kw}
-        if nm == "float" and args and isinstance(args[0], (int, float, _Fr)):
-            return args[0] if isinstance(args[0], _Fr) else float(args[0])
-        if nm == "int" and args and isinstance(args[0], (int, float, _Fr, str)):
-            return int(args[0])
-        if nm in ("abs", "round") and args and isinstance(args[0], (int, float, _Fr)):
-            return abs(args[0]) if nm == "abs" else round(*args)
-        if nm == "str" and args and isinstance(args[0], (str, int, float, _Fr, AV, Mark)) or nm == "str" and args and args[0] is None:
-            return str(args[0])
-        if nm == "bool" and args:
-            return self.truth(args[0])
-        if nm == "range" and all(isinstance(a, int) for a in args):
-            return range(*args)
-        return NotImplemented
-
-    def call_method(self, base, m, n, env):
-        base = self._fix(base)
-        if isinstance(base, tuple) and len(base) == 2 and base[0] == "class":
-            got = self.pm.find_method(base[1].name, m)
-            args, kw = self._args(n, env)
-            if m in self.markers:
-                return self.mark(m, base[1].name, args, kw)
-            if got is not None and (got.is_static or got.is_classmethod):
-                return self._invoke(got, None, args, kw, n, env)
-            raise Unsupported("call on class " + unparse(n)[:60])
-        if m in self.markers:
-            args, kw = self._args(n, env)
-            return self.mark(m, base, args, kw)
-        if isinstance(base, Frame):
-            args, kw = self._args(n, env)
-            args = [self.concrete(a) for a in args]
-            return self.frame_call(base, m, args, kw, n)
-        if isinstance(base, MSet):
-            args, kw = self._args(n, env)
-            cargs = [self.concrete(a) for a in args]
-            if m in ("add", "update", "discard", "remove", "copy") and not any(isinstance(a, Sym) for a in cargs):
-                try:
-                    return getattr(base, m)(*cargs)
-                except KeyError as e:
-                    raise _Raise("KeyError " + str(e))
-            if m in ("union", "difference", "intersection") and len(cargs) == 1 and isinstance(cargs[0], (MSet, list, tuple)):
-                other = list(cargs[0])
-                items = {"union": base.items + [x for x in other if x not in base.items], "difference": [x for x in base.items if x not in other],
-                         "intersection": [x for x in base.items if x in other]}[m]
-                return MSet(items, base.order)
-            raise Unsupported(f"set method {m}")
-        if isinstance(base, Obj):
-            args, kw = self._args(n, env)
-            if m in base.attrs and isinstance(base.attrs[m], tuple) and base.attrs[m][:1] == ("closure",):
-                return self.call_closure(base.attrs[m], args, n, env)
-            if m in ("model_copy", "copy"):
-                import copy
-                o = copy.copy(base)
-                o.attrs = copy.deepcopy(base.attrs) if kw.get("deep") else dict(base.attrs)
-                o.name = base.name + "'"
-                upd = self.concrete(kw.get("update")) if "update" in kw else None
-                if isinstance(upd, dict):
-                    o.attrs.update(upd)
-                return o
-            got = self.pm.find_method(base.cls, m) if base.cls else None
-            if got is not None and m not in self.opaque_calls:
-                return self._invoke(got, base, args, kw, n, env)
-            raise Unsupported(f"method {m} of mock object {base!r}")
-        if isinstance(base, (list, dict, str, tuple)) and not (isinstance(base, tuple) and base and base[0] in ("dictmethod", "strmethod", "closure", "bound", "method", "framemethod")):
-            args, kw = self._args(n, env)
-            cargs = [self.concrete(a) for a in args]
-            if isinstance(base, list) and m == "extend" and len(cargs) == 1:
-                if isinstance(cargs[0], (list, tuple, range)):
-                    base.extend(cargs[0])
+                once("g", "renders", f"_encode_body_section: {len(rs)} render calls in one iteration of the page loop (1 expected)")
+            once("i", ("loop", good), fi.where(sp["loop"]), f"page loop over the pagination result in order: render(process(page)) appended once per generic page: {good}")
+            for pc in pcs:
+                if isinstance(pc[4].get("rtf_body"), Init) and pc[4]["rtf_body"].path == p_body:
+                    k = _prep_component(pc[4].get("df"))
+                    once("i", ("pcdf", k), fi.where(pc[5]), f"pagination of a single body works on component {k} of (reduced frame, original frame, attributes): `{path_of(pc[4].get('df'))[:70]}`")
+                    if k == 0:
+                        once("v", "frames", fi.short, "frames", fi.where(pc[5]), "pagination/rendering no longer use (original frame for grouping, reduced frame for display) consistently: "
+                             f"PaginationContext.df = `{path_of(pc[4].get('df'))[:70]}` is the column-reduced frame (the grouping columns are gone)")
+                    elif k != 1:
+                        once("g", "pcdf?", f"_encode_body_section: PaginationContext.df = `{path_of(pc[4].get('df'))[:70]}` not recognised")
+            for po in post:
+                k = _prep_component(po[3][1]) if len(po[3]) >= 2 else None
+                pages_ok = bool(po[3]) and ((isinstance(po[3][0], CallSym) and po[3][0].meth == "paginate") or isinstance(po[3][0], list))
+                once("i", ("post", k, pages_ok), fi.where(po[5]), f"page data re-cut by _apply_data_post_processing({', '.join(path_of(x)[:50] for x in po[3])}) from component {k}")
+                if k == 1:
+                    once("v", "frames", fi.short, "frames", fi.where(po[5]), "pagination/rendering no longer use (original frame for grouping, reduced frame for display) consistently: "
+                         f"_apply_data_post_processing re-cuts the pages from `{path_of(po[3][1])[:70]}`, the ORIGINAL frame (removed columns come back)")
+                elif k != 0 or not pages_ok:
+                    once("g", "post?", f"_encode_body_section: arguments of _apply_data_post_processing ({', '.join(path_of(x)[:40] for x in po[3])}) not recognised")
+        elif renders:
+            # fallback: one page holding the whole reduced frame
+            n_fallback += 1
+            pcx = [e for e in eff if e[0] == "call" and e[1] == "PageContext"]
+            ok = len(renders) == 1 and len(pcx) == 1 and _prep_component(pcx[0][4].get("data")) == 0 and any(y is pcx[0][6] for y in tparts(_kwarg(renders[0], "page", 1)))
+            once("i", ("fallback", ok), fi.where(), f"empty pagination result: the whole reduced frame rendered as one page: {ok}")
+            if not ok:
+                data = pcx[0][4].get("data") if pcx else None
+                if len(renders) == 1 and len(pcx) == 1 and _prep_component(data) == 1:
+                    once("v", "fallback", fi.short, "page loop: fallback page", fi.where(), f"when pagination yields no page the rendered page holds `{path_of(data)[:60]}`, not the whole displayed frame")
                 else:
-                    base.append(Splat(cargs[0]))
-                return None
-            if isinstance(base, str) and m == "join" and len(cargs) == 1 and isinstance(cargs[0], (list, tuple)):
-                if all(isinstance(x, str) for x in cargs[0]):
-                    return base.join(cargs[0])
-                return Mark("join", base, list(cargs[0]), {})
-            if isinstance(base, dict) and m in ("get", "pop", "setdefault") and cargs and isinstance(cargs[0], Sym):
-                cargs[0] = cargs[0].path
-            if isinstance(base, tuple) and m in ("index", "count"):
-                return getattr(base, m)(*cargs)
-            if hasattr(base, m) and not any(isinstance(a, Sym) for a in cargs[:1] if m in ("index", "count", "remove")):
-                if m == "index" and isinstance(base, list):
-                    try:
-                        return base.index(*cargs)
-                    except ValueError:
-                        raise _Raise("ValueError not in list")
-                if m == "copy" and isinstance(base, (list, dict)):
-                    return base.copy()
-                if m in ("items", "keys", "values") and isinstance(base, dict):
-                    return list(getattr(base, m)())
-                if m == "update" and isinstance(base, dict):
-                    a0 = cargs[0] if cargs else {}
-                    if isinstance(a0, dict):
-                        base.update(a0, **kw)
-                        return None
-                    raise Unsupported("dict.update with an undetermined value")
-                try:
-                    return getattr(base, m)(*cargs, **{k: self.concrete(v) for k, v in kw.items()})
-                except KeyError as e:
-                    raise _Raise("KeyError " + str(e))
-                except (IndexError, ValueError) as e:
-                    raise _Raise(type(e).__name__)
-        node = ast.Call(func=ast.Attribute(value=None, attr=m, ctx=ast.Load()), args=n.args, keywords=n.keywords)
-        if isinstance(base, Sym) and m in self.frame_passthrough:
-            args, kw = self._args(n, env)
-            fr = [a for a in args + list(kw.values()) if isinstance(self.concrete(a), Frame)]
-            if fr:
-                src = self.concrete(fr[-1] if m == "restore_page_context" and len(fr) > 1 else fr[0])
-                out = src.derive(tag=f"{m}({src.tag})")
-                self.trace.append(Mark(m, base, args, kw))
-                return out
+                    once("g", "fallback", "_encode_body_section: the fallback page for an empty pagination result was not re-identified")
+        else:
+            once("g", "norender", f"_encode_body_section: no page is rendered on the path [{_fmt(v)[:100]}]")
+    if not n_loop:
+        ctx.gap(rule, "_encode_body_section: no path through the page loop was evaluated")
+    elif not n_post:
+        ctx.violation(rule, fi.short, "frames", fi.where(), "pagination/rendering no longer use (original frame for grouping, reduced frame for display) consistently: "
+                      "the pages' data is never re-cut from the column-reduced frame (_apply_data_post_processing is not called on any path)")
 
-        def go(nm):
-            node.func.value = nm
-            return super(Scen, self).ev_Call(node, env)
-        return self._fix(self._with_base(base, env, go))
 
-    def frame_call(self, fr, m, args, kw, n):
-        if any(isinstance(a, Sym) for a in args) or any(isinstance(self.concrete(v), Sym) for v in kw.values()):
-            raise Unsupported(f"frame.{m} with undetermined arguments: " + unparse(n)[:60])
-        kw = {k: self.concrete(v) for k, v in kw.items()}
-        if m == "slice":
-            off = args[0] if args else kw.get("offset", 0)
-            ln = args[1] if len(args) > 1 else kw.get("length")
-            if off < 0:
-                off = max(0, len(fr.rows) + off)
-            return fr.derive(rows=fr.rows[off:] if ln is None else fr.rows[off:off + max(0, ln)])
-        if m in ("head", "limit"):
-            k = args[0] if args else kw.get("n", 5)
-            return fr.derive(rows=fr.rows[:k] if k >= 0 else fr.rows[:len(fr.rows) + k])
-        if m == "tail":
-            k = args[0] if args else kw.get("n", 5)
-            return fr.derive(rows=(fr.rows[-k:] if k else []) if k >= 0 else fr.rows[-k:])
-        if m == "row":
-            i = args[0] if args else kw.get("index")
-            if not isinstance(i, int) or not (-len(fr.rows) <= i < len(fr.rows)):
-                raise _Raise("OutOfBoundsError")
-            return fr.row(i)
-        if m in ("rows", "iter_rows"):
-            return [fr.row(i) for i in range(len(fr.rows))]
-        if m == "item" and len(args) == 2:
-            return fr.value(fr.rows[args[0]], fr.cols[args[1]] if isinstance(args[1], int) else args[1])
-        if m in ("clone", "lazy", "collect", "rechunk"):
-            return fr.derive()
-        if m == "fill_null" and (args or "value" in kw):
-            v = args[0] if args else kw["value"]
-            kind = "str" if isinstance(v, str) else "num" if isinstance(v, (int, float)) and not isinstance(v, bool) else None
-            if kind is None:
-                raise Unsupported("fill_null value " + repr(v)[:30])
-            filled = dict(fr.filled)
-            for c in fr.cols:
-                if fr.dtypes.get(c, "str") == kind and c not in filled:
-                    filled[c] = v           # polars fills only the columns whose dtype accepts the value
-            return fr.derive(filled=filled)
-        if m == "select":
-            cols = list(args[0]) if args and isinstance(args[0], (list, tuple)) else list(args)
-            if not all(isinstance(c, str) and c in fr.cols for c in cols):
-                raise Unsupported("frame.select " + unparse(n)[:60])
-            return fr.derive(cols=cols)
-        if m == "drop":
-            cols = list(args[0]) if args and isinstance(args[0], (list, tuple)) else list(args)
-            return fr.derive(cols=[c for c in fr.cols if c not in cols])
-        if m == "get_column_index" and args:
-            if args[0] not in fr.cols:
-                raise _Raise("ColumnNotFoundError")
-            return fr.cols.index(args[0])
-        if m == "is_empty":
-            return len(fr.rows) == 0
-        raise Unsupported(f"frame method {m} is not modelled")
+def _length_checked(fn, lp) -> bool:
+    """an explicit `len(a) != len(b)` test (whose branch raises) on the two collections the section loop zips"""
+    z = next((c for c in ast.walk(lp.iter) if isinstance(c, ast.Call) and dotted(c.func) == "zip" and len(c.args) == 2), None)
+    if z is None:
+        return False
+    want = {unparse(a) for a in z.args}
+    for t in walk_no_nested(fn):
+        if isinstance(t, ast.If) and any(isinstance(x, ast.Raise) for s in t.body + t.orelse for x in ast.walk(s)):
+            for c in ast.walk(t.test):
+                if isinstance(c, ast.Compare) and len(c.ops) == 1 and isinstance(c.ops[0], (ast.NotEq, ast.Eq)):
+                    sides = [c.left, c.comparators[0]]
+                    if all(isinstance(x, ast.Call) and dotted(x.func) == "len" and x.args for x in sides) and {unparse(x.args[0]) for x in sides} == want:
+                        return True
+    return False
+
+
+def section_loop(ctx: Ctx, rule: str) -> None:
+    """_encode_multi_section: sections are encoded one by one in list order, each from its own frame and body (the pair the strict zip of
+    document.df and document.rtf_body yields) against a per-section copy of the document carrying that frame and body, and the
+    results are concatenated in that order.  One generic iteration of the section loop (only the statements the call of
+    _encode_body_section depends on; the title/footnote visibility logic of the loop is not this rule's subject)."""
+    from ..astmatch import guards
+    declare(ctx)
+    pm = ctx.pm
+    fi = pm.func("UnifiedRTFEncoder._encode_multi_section")
+    fn = fi.node
+    ps = _pos_params(fi)
+    if not ps:
+        ctx.gap(rule, "_encode_multi_section: signature (self, document) not recognised")
+        return
+    p_doc = ps[0]
+    calls = [c for c in walk_no_nested(fn) if isinstance(c, ast.Call) and dotted(c.func).split(".")[-1] == "_encode_body_section"]
+    loops = [lp for lp in walk_no_nested(fn) if isinstance(lp, ast.For) and any(any(x is c for x in ast.walk(lp)) for c in calls)]
+    loops = [lp for lp in loops if not any(m is not lp and any(x is lp for x in ast.walk(m)) for m in loops)]
+    calls = [c for c in calls if loops and any(x is c for x in ast.walk(loops[0]))]
+    if len(calls) != 1 or len(loops) != 1:
+        ctx.gap(rule, f"_encode_multi_section: {len(calls)} call(s) of _encode_body_section in {len(loops)} loop(s) (one call in one section loop expected)")
+        return
+    call, lp = calls[0], loops[0]
+    stmt = next((s for s in lp.body if any(x is call for x in ast.walk(s))), None)
+    inner_guards = [g for g in guards(call, fn) if any(x is g[0] for s in lp.body for x in ast.walk(s))]
+    if inner_guards:
+        ctx.gap(rule, f"_encode_multi_section: the call of _encode_body_section is conditional inside the section loop (`{unparse(inner_guards[0][0])[:60]}`): whether a section can be skipped is not decided")
+    names = {t.id for t in ast.walk(stmt) if isinstance(t, ast.Name) and isinstance(t.ctx, ast.Store)}
+    after = [s for s in lp.body[lp.body.index(stmt) + 1:] if any(isinstance(t, ast.Name) and t.id in names for t in ast.walk(s))] if stmt in lp.body else []
+    pre = temps_for(fn, [ast.Expr(value=lp.iter)])
+    pre_names = {t.id for s_ in pre for t in s_.targets if isinstance(t, ast.Name)} | {t.id for t in ast.walk(lp.target) if isinstance(t, ast.Name)}
+    inner = [s_ for s_ in temps_for(fn, [stmt] + after) if not any(isinstance(t, ast.Name) and t.id in pre_names for t in s_.targets)]
+    header = ast.For(target=lp.target, iter=lp.iter, body=inner + [stmt] + after, orelse=[], lineno=lp.lineno, col_offset=0)
+    try:
+        dt = TDT(pm, watch={"_encode_body_section", "model_copy", "extend", "append"}, inline={"is_nested_header_list"}, havoc=False)
+        leaves = run_block(dt, pre + [header], sym_env(fi), fi)
+        cover(ctx, "UnifiedRTFEncoder._encode_multi_section (one generic section: loop header, the call of _encode_body_section and what it depends on)", leaves)
+    except AnalysisError as e:
+        ctx.gap(rule, f"_encode_multi_section: the section loop could not be evaluated: {e}")
+        return
+    seen = set()
+    n_ok = 0
+    ret_names = {x.id for r in walk_no_nested(fn) if isinstance(r, ast.Return) and r.value is not None for x in ast.walk(r.value) if isinstance(x, ast.Name)}
+    from ..astmatch import assignments
+    asg = assignments(fn)
+    for _round in range(6):                     # names the returned value is built from, through temporaries
+        more = {x.id for nme in ret_names for val in asg.get(nme, []) for x in ast.walk(val) if isinstance(x, ast.Name)} - ret_names
+        if not more:
+            break
+        ret_names |= more
+    for v, env, eff, outcome in leaves:
+        sps = loop_spans(eff)
+        if len(sps) != 1:
+            continue                    # a literal one-section list of the source: unrolled, nothing generic to judge
+        sp = sps[0]
+        it, elem = sp["it"], sp["elem"]
+        pair = elem
+        z = it
+        if isinstance(it, CallSym) and it.recv is None and it.meth == "enumerate" and it.args:
+            z = it.args[0]
+            pair = None
+        z = unwrap(z, names=("list", "tuple"))
+        key = path_of(z)
+        es = [e for e in _flat(sp) if e[0] == "call" and e[1] == "_encode_body_section"]
+        if len(es) != 1:
+            continue
+        e = es[0]
+        args = list(e[3])
+        ok = True
+        if not (isinstance(z, CallSym) and z.recv is None and z.meth == "zip" and len(z.args) == 2):
+            if isinstance(z, CallSym) and z.recv is None and z.meth in ("reversed", "sorted"):
+                if key not in seen:
+                    ctx.violation(rule, fi.short, "section loop", fi.where(lp), f"sections are not encoded in list order: the section loop iterates `{path_of(z)[:70]}`")
+            elif key not in seen:
+                ctx.gap(rule, f"_encode_multi_section: the section loop iterates `{path_of(z)[:70]}`, not recognisably zip(frames, bodies)")
+            seen.add(key)
+            continue
+        strict = dict(z.kw).get("strict")
+        frames, bodies = z.args
+        f_doc = any(isinstance(p, AttrSym) and p.path == f"{p_doc}.df" for p in tparts(frames))
+        b_doc = any(isinstance(p, AttrSym) and p.path == f"{p_doc}.rtf_body" for p in tparts(bodies))
+        if key not in seen:
+            seen.add(key)
+            ctx.instance(rule, fi.where(lp), f"section loop over `{path_of(z)[:120]}`")
+            if strict is not True and not _length_checked(fn, lp):
+                ctx.violation(rule, fi.short, "section loop: unequal lists truncated", fi.where(lp),
+                              f"the frames and bodies are paired with `{path_of(z)[:80]}` (no strict=True): with an unequal number of frames and bodies the extra sections are dropped silently")
+            if not (f_doc and b_doc) and not (isinstance(frames, list) and not frames) and not (isinstance(bodies, list) and not bodies):
+                sw = any(isinstance(p, AttrSym) and p.path == f"{p_doc}.rtf_body" for p in tparts(frames)) and any(isinstance(p, AttrSym) and p.path == f"{p_doc}.df" for p in tparts(bodies))
+                if not sw:
+                    ctx.gap(rule, f"_encode_multi_section: `{path_of(z)[:80]}` could not be traced to (document.df, document.rtf_body)")
+        if not (f_doc and b_doc):
+            continue
+        # the call: (per-section document copy, the pair's frame, the pair's body)
+        def comp(t):
+            """0 / 1 if t is the frame / body of the generic pair"""
+            if isinstance(t, SubSym) and t.key in (0, 1):
+                if pair is not None and t.base is pair:
+                    return t.key
+                if pair is None and isinstance(t.base, SubSym) and t.base.base is elem and t.base.key == 1:
+                    return t.key
+            return None
+        names_ = _pos_params(pm.func("UnifiedRTFEncoder._encode_body_section"))
+        bound = dict(zip(names_, args))
+        bound.update(e[4])
+        d, f, b = (bound.get(names_[k]) if len(names_) > k else None for k in range(3))
+        k2 = ("call", path_of(d)[:80], path_of(f), path_of(b))
+        if k2 in seen:
+            continue
+        seen.add(k2)
+        ctx.instance(rule, fi.where(call), f"generic section: _encode_body_section(`{path_of(d)[:60]}`, `{path_of(f)[:50]}`, `{path_of(b)[:50]}`)")
+        if comp(f) != 0 or comp(b) != 1:
+            ok = False
+            if comp(f) is not None and comp(b) is not None or any(x is elem for x in tparts(f)) or any(x is elem for x in tparts(b)):
+                ctx.violation(rule, fi.short, "section loop: frame/body", fi.where(call), f"a section is not encoded from its own frame and body: _encode_body_section receives (`{path_of(f)[:50]}`, `{path_of(b)[:50]}`)")
+            else:
+                ctx.violation(rule, fi.short, "section loop: frame/body", fi.where(call), f"a section is not encoded from the frame/body of the current iteration: _encode_body_section receives (`{path_of(f)[:50]}`, `{path_of(b)[:50]}`)")
+        if isinstance(d, CallSym) and d.meth == "model_copy" and isinstance(d.recv, Init) and d.recv.path == p_doc:
+            upd = dict(d.kw).get("update")
+            if isinstance(upd, dict):
+                if comp(upd.get("df")) != 0 or comp(upd.get("rtf_body")) != 1:
+                    ok = False
+                    ctx.violation(rule, fi.short, "section loop: frame/body", fi.where(call),
+                                  f"the per-section document copy carries df=`{path_of(upd.get('df'))[:50]}`, rtf_body=`{path_of(upd.get('rtf_body'))[:50]}`, not the section's own frame and body")
+            else:
+                ok = False
+                ctx.gap(rule, f"_encode_multi_section: the update of the per-section document copy `{path_of(upd)[:60]}` could not be read")
+        elif isinstance(d, Init) and d.path == p_doc:
+            ok = False
+            ctx.violation(rule, fi.short, "section loop: frame/body", fi.where(call), "a section is encoded against the whole multi-section document, not a per-section copy carrying its own frame and body")
+        else:
+            ok = False
+            ctx.gap(rule, f"_encode_multi_section: the document `{path_of(d)[:60]}` a section is encoded against is not recognisably a per-section copy of the document")
+        acc = [x for x in _flat(sp) if x[0] == "call" and x[1] in ("extend", "append", "augAdd") and x[3] and any(y is e[6] for y in tparts(x[3][0])) and isinstance(x[2], (Init, list))]
+        acc_names = {x[2].path for x in acc if isinstance(x[2], Init)}
+        if not acc or (acc_names and not (acc_names & ret_names)):
+            ok = False
+            ctx.gap(rule, "_encode_multi_section: the encoded section is not seen being appended to the content that is returned")
+        n_ok += ok
+    if not n_ok and not any(f.rule == rule for f in ctx.findings) and not ctx.deferred_errors:
+        ctx.gap(rule, "_encode_multi_section: the section loop could not be verified")
